@@ -16,1822 +16,1851 @@ Definition terms (ts : list tok) (t : pt) : string :=
   digest (show_toks (Some ts)) ++ " " ++ digest (show_pt (Some t)) ++ " " ++ digest (show_pt (parse ts)).
 Definition terms_full (ts : list tok) (t : pt) : string :=
   show_toks (Some ts) ++ nl ++ show_pt (Some t) ++ nl ++ show_pt (parse ts).
-Eval vm_compute in ("<<<M22>>>" ++ check (runes_of_ascii "//	t
-packet Packet{ u64 tag
+Eval vm_compute in ("<<<M22>>>" ++ check (runes_of_ascii "
+MetaData string_ { uint32 f32a `crlf
+line` ,
+    zchar[ 0123456789
+    ]string_ `100% of %d`,stringy// `tick` ""quote"" 'q'
+u	`it's` ,char
+    Z9_
+, a1
+f32a // c
+,	char[ 1 ] a1
+,
+    }
+")).
+Eval vm_compute in ("<<<M54>>>" ++ check (runes_of_ascii "options { /// triple
+BodyLength =
+// a // b
+// c
+""`tick`"" ;  }
+packet Header
+{// c
+u8x { T
+    {i64_ ,
+} ,match tag as//
+u128 // a // b
+{
+00	: crc ,""\n""	:metadata 255 :
+    trueish [ 0 ]
+    : msg_type , [
+""a\\""] :u
+, } , f32
+i64_`" ++ [233]%N ++ runes_of_ascii "`	, repeat u
 ,}
-")).
-Eval vm_compute in ("<<<M54>>>" ++ check (runes_of_ascii "  root packet _x// " ++ [128512]%N ++ runes_of_ascii " emoji
-{@lengthOf(// c
-Packet ) float32 stringy  @calculatedFrom(
-""x y"" ) `say ""hi""`, match Pad as
-x_y_z{ ""a\\"" : float , 65535 : stringy 007: /// triple
-uint8x ,
-    } , }
-")).
-Eval vm_compute in ("<<<M86>>>" ++ check (runes_of_ascii "
-")).
-Eval vm_compute in ("<<<M118>>>" ++ check (runes_of_ascii "packet body { Pad {a1`crlf
-line`
-    , zchar[ 007] a1 ,char[10 ] x_y_z  ,
-repeat
-zchar[ 1  ] metadata `u8 x,` , } , string  trueish
-,repeat uint8x u ,	@tag( /// triple
-007 ) calculatedFrom
-{repeat BodyLength
-`doc` ,
-    }/// triple
-, int64 lengthOf,/// triple
-@lengthOf(
-leftPad) @calculatedFrom( ""x y"" ) @calculatedFrom( // " ++ [27880; 37322]%N ++ runes_of_ascii "
-""\" ++ [233]%N ++ runes_of_ascii """ )  falsey a1 , }")).
-Eval vm_compute in ("<<<T118>>>" ++ terms [mkTok 35 "packet" 1 0 false; mkTok 42 "body" 1 7 false; mkTok 2 "{" 1 12 false; mkTok 42 "Pad" 1 14 false; mkTok 2 "{" 1 18 false; mkTok 42 "a1" 1 19 false; mkTok 43 (string_of_bytes [96; 99; 114; 108; 102; 13; 10; 108; 105; 110; 101; 96]%N) 1 21 false; mkTok 40 "," 3 4 false; mkTok 14 "zchar[" 3 6 false; mkTok 30 "007" 3 13 false; mkTok 13 "]" 3 16 false; mkTok 42 "a1" 3 18 false; mkTok 40 "," 3 21 false; mkTok 12 "char[" 3 22 false; mkTok 30 "10" 3 27 false; mkTok 13 "]" 3 30 false; mkTok 42 "x_y_z" 3 32 false; mkTok 40 "," 3 39 false; mkTok 36 "repeat" 4 0 false; mkTok 14 "zchar[" 5 0 false; mkTok 30 "1" 5 7 false; mkTok 13 "]" 5 10 false; mkTok 42 "metadata" 5 12 false; mkTok 43 "`u8 x,`" 5 21 false; mkTok 40 "," 5 29 false; mkTok 3 "}" 5 31 false; mkTok 40 "," 5 33 false; mkTok 15 "string" 5 35 false; mkTok 42 "trueish" 5 43 false; mkTok 40 "," 6 0 false; mkTok 36 "repeat" 6 1 false; mkTok 42 "uint8x" 6 8 false; mkTok 42 "u" 6 15 false; mkTok 40 "," 6 17 false; mkTok 9 "@tag(" 6 19 false; mkTok 44 "/// triple" 6 25 true; mkTok 30 "007" 7 0 false; mkTok 6 ")" 7 4 false; mkTok 42 "calculatedFrom" 7 6 false; mkTok 2 "{" 8 0 false; mkTok 36 "repeat" 8 1 false; mkTok 42 "BodyLength" 8 8 false; mkTok 43 "`doc`" 9 0 false; mkTok 40 "," 9 6 false; mkTok 3 "}" 10 4 false; mkTok 44 "/// triple" 10 5 true; mkTok 40 "," 11 0 false; mkTok 27 "int64" 11 2 false; mkTok 42 "lengthOf" 11 8 false; mkTok 40 "," 11 16 false; mkTok 44 "/// triple" 11 17 true; mkTok 7 "@lengthOf(" 12 0 false; mkTok 42 "leftPad" 13 0 false; mkTok 6 ")" 13 7 false; mkTok 5 "@calculatedFrom(" 13 9 false; mkTok 31 """x y""" 13 26 false; mkTok 6 ")" 13 32 false; mkTok 5 "@calculatedFrom(" 13 34 false; mkTok 44 (string_of_bytes [47; 47; 32; 230; 179; 168; 233; 135; 138]%N) 13 51 true; mkTok 31 (string_of_bytes [34; 92; 195; 169; 34]%N) 14 0 false; mkTok 6 ")" 14 5 false; mkTok 42 "falsey" 14 8 false; mkTok 42 "a1" 14 15 false; mkTok 40 "," 14 18 false; mkTok 3 "}" 14 20 false; mkTok 0 "<EOF>" 14 21 false] (mkPacket (mkPtok 35 "packet" 1 0 0) (Some (mkPtok 3 "}" 14 20 64)) [(DPacket (mkPacketDef (mkSpan (mkPtok 35 "packet" 1 0 0) (mkPtok 3 "}" 14 20 64)) None (mkPtok 35 "packet" 1 0 0) (mkPtok 42 "body" 1 7 1) (mkPtok 2 "{" 1 12 2) [(mkFieldWithAttr (mkSpan (mkPtok 42 "Pad" 1 14 3) (mkPtok 40 "," 5 33 26)) [] (InerObjectField (mkSpan (mkPtok 42 "Pad" 1 14 3) (mkPtok 40 "," 5 33 26)) None (InerObjectDecl (mkSpan (mkPtok 42 "Pad" 1 14 3) (mkPtok 3 "}" 5 31 25)) (mkPtok 42 "Pad" 1 14 3) (mkPtok 2 "{" 1 18 4) [(ObjectField (mkSpan (mkPtok 42 "a1" 1 19 5) (mkPtok 40 "," 3 4 7)) None (mkPtok 42 "a1" 1 19 5) None (Some (mkPtok 43 (string_of_bytes [96; 99; 114; 108; 102; 13; 10; 108; 105; 110; 101; 96]%N) 1 21 6)) (mkPtok 40 "," 3 4 7)); (MetaField (mkSpan (mkPtok 14 "zchar[" 3 6 8) (mkPtok 40 "," 3 21 12)) None (mkMetaDecl (mkSpan (mkPtok 14 "zchar[" 3 6 8) (mkPtok 40 "," 3 21 12)) (TyFixed (mkSpan (mkPtok 14 "zchar[" 3 6 8) (mkPtok 13 "]" 3 16 10)) (mkFixedString (mkSpan (mkPtok 14 "zchar[" 3 6 8) (mkPtok 13 "]" 3 16 10)) (mkPtok 14 "zchar[" 3 6 8) (mkPtok 30 "007" 3 13 9) (mkPtok 13 "]" 3 16 10))) (mkPtok 42 "a1" 3 18 11) None (mkPtok 40 "," 3 21 12))); (MetaField (mkSpan (mkPtok 12 "char[" 3 22 13) (mkPtok 40 "," 3 39 17)) None (mkMetaDecl (mkSpan (mkPtok 12 "char[" 3 22 13) (mkPtok 40 "," 3 39 17)) (TyFixed (mkSpan (mkPtok 12 "char[" 3 22 13) (mkPtok 13 "]" 3 30 15)) (mkFixedString (mkSpan (mkPtok 12 "char[" 3 22 13) (mkPtok 13 "]" 3 30 15)) (mkPtok 12 "char[" 3 22 13) (mkPtok 30 "10" 3 27 14) (mkPtok 13 "]" 3 30 15))) (mkPtok 42 "x_y_z" 3 32 16) None (mkPtok 40 "," 3 39 17))); (MetaField (mkSpan (mkPtok 36 "repeat" 4 0 18) (mkPtok 40 "," 5 29 24)) (Some (mkPtok 36 "repeat" 4 0 18)) (mkMetaDecl (mkSpan (mkPtok 14 "zchar[" 5 0 19) (mkPtok 40 "," 5 29 24)) (TyFixed (mkSpan (mkPtok 14 "zchar[" 5 0 19) (mkPtok 13 "]" 5 10 21)) (mkFixedString (mkSpan (mkPtok 14 "zchar[" 5 0 19) (mkPtok 13 "]" 5 10 21)) (mkPtok 14 "zchar[" 5 0 19) (mkPtok 30 "1" 5 7 20) (mkPtok 13 "]" 5 10 21))) (mkPtok 42 "metadata" 5 12 22) (Some (mkPtok 43 "`u8 x,`" 5 21 23)) (mkPtok 40 "," 5 29 24)))] (mkPtok 3 "}" 5 31 25)) (mkPtok 40 "," 5 33 26))); (mkFieldWithAttr (mkSpan (mkPtok 15 "string" 5 35 27) (mkPtok 40 "," 6 0 29)) [] (MetaField (mkSpan (mkPtok 15 "string" 5 35 27) (mkPtok 40 "," 6 0 29)) None (mkMetaDecl (mkSpan (mkPtok 15 "string" 5 35 27) (mkPtok 40 "," 6 0 29)) (TyDynamic (mkSpan (mkPtok 15 "string" 5 35 27) (mkPtok 15 "string" 5 35 27)) (mkDynamicString (mkSpan (mkPtok 15 "string" 5 35 27) (mkPtok 15 "string" 5 35 27)) (mkPtok 15 "string" 5 35 27))) (mkPtok 42 "trueish" 5 43 28) None (mkPtok 40 "," 6 0 29)))); (mkFieldWithAttr (mkSpan (mkPtok 36 "repeat" 6 1 30) (mkPtok 40 "," 6 17 33)) [] (ObjectField (mkSpan (mkPtok 36 "repeat" 6 1 30) (mkPtok 40 "," 6 17 33)) (Some (mkPtok 36 "repeat" 6 1 30)) (mkPtok 42 "uint8x" 6 8 31) (Some (mkPtok 42 "u" 6 15 32)) None (mkPtok 40 "," 6 17 33))); (mkFieldWithAttr (mkSpan (mkPtok 9 "@tag(" 6 19 34) (mkPtok 40 "," 11 0 46)) [(FATag (mkSpan (mkPtok 9 "@tag(" 6 19 34) (mkPtok 6 ")" 7 4 37)) (mkTagAttr (mkSpan (mkPtok 9 "@tag(" 6 19 34) (mkPtok 6 ")" 7 4 37)) (mkPtok 9 "@tag(" 6 19 34) (mkPtok 30 "007" 7 0 36) (mkPtok 6 ")" 7 4 37)))] (InerObjectField (mkSpan (mkPtok 42 "calculatedFrom" 7 6 38) (mkPtok 40 "," 11 0 46)) None (InerObjectDecl (mkSpan (mkPtok 42 "calculatedFrom" 7 6 38) (mkPtok 3 "}" 10 4 44)) (mkPtok 42 "calculatedFrom" 7 6 38) (mkPtok 2 "{" 8 0 39) [(ObjectField (mkSpan (mkPtok 36 "repeat" 8 1 40) (mkPtok 40 "," 9 6 43)) (Some (mkPtok 36 "repeat" 8 1 40)) (mkPtok 42 "BodyLength" 8 8 41) None (Some (mkPtok 43 "`doc`" 9 0 42)) (mkPtok 40 "," 9 6 43))] (mkPtok 3 "}" 10 4 44)) (mkPtok 40 "," 11 0 46))); (mkFieldWithAttr (mkSpan (mkPtok 27 "int64" 11 2 47) (mkPtok 40 "," 11 16 49)) [] (MetaField (mkSpan (mkPtok 27 "int64" 11 2 47) (mkPtok 40 "," 11 16 49)) None (mkMetaDecl (mkSpan (mkPtok 27 "int64" 11 2 47) (mkPtok 40 "," 11 16 49)) (TyBasic (mkSpan (mkPtok 27 "int64" 11 2 47) (mkPtok 27 "int64" 11 2 47)) (mkBasicType (mkSpan (mkPtok 27 "int64" 11 2 47) (mkPtok 27 "int64" 11 2 47)) (mkPtok 27 "int64" 11 2 47))) (mkPtok 42 "lengthOf" 11 8 48) None (mkPtok 40 "," 11 16 49)))); (mkFieldWithAttr (mkSpan (mkPtok 7 "@lengthOf(" 12 0 51) (mkPtok 40 "," 14 18 63)) [(FALengthOf (mkSpan (mkPtok 7 "@lengthOf(" 12 0 51) (mkPtok 6 ")" 13 7 53)) (mkLengthOf (mkSpan (mkPtok 7 "@lengthOf(" 12 0 51) (mkPtok 6 ")" 13 7 53)) (mkPtok 7 "@lengthOf(" 12 0 51) (mkPtok 42 "leftPad" 13 0 52) (mkPtok 6 ")" 13 7 53))); (FACalculatedFrom (mkSpan (mkPtok 5 "@calculatedFrom(" 13 9 54) (mkPtok 6 ")" 13 32 56)) (mkCalculatedFrom (mkSpan (mkPtok 5 "@calculatedFrom(" 13 9 54) (mkPtok 6 ")" 13 32 56)) (mkPtok 5 "@calculatedFrom(" 13 9 54) (mkPtok 31 """x y""" 13 26 55) (mkPtok 6 ")" 13 32 56))); (FACalculatedFrom (mkSpan (mkPtok 5 "@calculatedFrom(" 13 34 57) (mkPtok 6 ")" 14 5 60)) (mkCalculatedFrom (mkSpan (mkPtok 5 "@calculatedFrom(" 13 34 57) (mkPtok 6 ")" 14 5 60)) (mkPtok 5 "@calculatedFrom(" 13 34 57) (mkPtok 31 (string_of_bytes [34; 92; 195; 169; 34]%N) 14 0 59) (mkPtok 6 ")" 14 5 60)))] (ObjectField (mkSpan (mkPtok 42 "falsey" 14 8 61) (mkPtok 40 "," 14 18 63)) None (mkPtok 42 "falsey" 14 8 61) (Some (mkPtok 42 "a1" 14 15 62)) None (mkPtok 40 "," 14 18 63)))] (mkPtok 3 "}" 14 20 64)))])).
-Eval vm_compute in ("<<<M150>>>" ++ check (runes_of_ascii "MetaData Pad{	x_y_z
-    // packet A { u8 x, }
-    T ,
-    }
-")).
-Eval vm_compute in ("<<<M182>>>" ++ check (runes_of_ascii "packet f32a
-{
-    repeat calculatedFrom u128//	t
 ,
-    T @calculatedFrom( ""a\\"" ) `crlf
-line` ,
-string /// triple
-charz, @leftPad (
-    //x
-    ) repeat
-pack // a // b
-T
-    ,	}MetaData
-charz { } packet	i8i8{A
-x ,match A
-as
-leftPad { ""abc""	: msg_type , ""a	b""
+u16
+T ,
+f64 BodyLength , } 	 ")).
+Eval vm_compute in ("<<<M86>>>" ++ check (runes_of_ascii "packet As {zchar[ 42
+    ] float @calculatedFrom( ""a\""b"" )
     //	t
-    :
-    T }	,f64 i8i8
-    ,
-char charz`" ++ [233]%N ++ runes_of_ascii "`
-    // `tick` ""quote"" 'q'
-    ,} // " ++ [128512]%N ++ runes_of_ascii " emoji")).
-Eval vm_compute in ("<<<M214>>>" ++ check (runes_of_ascii "options{ }root // a // b
-packet
-    uint8x {  @tag( 3 ) @lengthOf(  falsey ) lengthOf @calculatedFrom(
-""`tick`"" ), A { i8 msg_type
-`crlf
-line` ,
-Foo @lengthOf( u8x
-) ,float ,
-    //
-    }
-, string // a // b
-lengthOf
-@calculatedFrom(	""abc"" )
-, @lengthOf(charz )
-    repeat string_	{// " ++ [128512]%N ++ runes_of_ascii " emoji
-zchar[
-    0
-    // a // b
-    ] T @calculatedFrom( ""a\\"" ) //	t
-, zchar[
-    42 ] repeatCount @lengthOf(
-Z9_ )`u8 x,`,}
-,  zchar[1
-    ]
-crc @calculatedFrom( // " ++ [27880; 37322]%N ++ runes_of_ascii "
-""// no comment"" )
-    `it's`
-    // `tick` ""quote"" 'q'
-    , @calculatedFrom(""{,}"")
-    tag
-int//
-, //x
-}
-MetaData f32a { // trailing space 
-i64 int // c
-,string int
-    , // c
-asx
-    //x
-    Pad
-    //x
-    `crlf
-line` , string lengthOf,
-    uint32
-pack ,// " ++ [27880; 37322]%N ++ runes_of_ascii "
-msg_type
-    u `it's` ,
-}")).
-Eval vm_compute in ("<<<M246>>>" ++ check (runes_of_ascii "packet Foo //	t
-{ match
-    // a // b
-    i64_ //x
-as
-x_y_z {65535:  BodyLength
-,
-[3, ""CRC32"" ]
-:u
-, 255:
-T ,[ ""x y""]	:leftPad ,0123456789: As ,
-    } ,
-    zchar[	1
-    ]int
-, } packet
-float
-    { uint16
-Packet	,}")).
-Eval vm_compute in ("<<<M278>>>" ++ check (runes_of_ascii "packet asx { Logon{ body
-@calculatedFrom( // trailing space 
-""it's"" ) , // @lengthOf(
-char[ 3] MetaDataX , string
-    leftPad `crlf
-line` , u128@calculatedFrom( ""packet""
-    ),} , } //x
-packet
-x_y_z
-    // packet A { u8 x, }
-    { len {
-    match leftPad// c
-as
-rootA {[007 // trailing space 
-, ""a\\"" , 0123456789,
-    ""\" ++ [233]%N ++ runes_of_ascii """ , ""`tick`"" , ""{,}""
-    ] : falsey , 4294967296:	matchKey
-, // packet A { u8 x, }
-}
-    , int32 //	t
-Z9_ // " ++ [27880; 37322]%N ++ runes_of_ascii "
-,a1
-{
-    x_y_z ,
-    repeat	_x `doc` , char[]falsey
-    @lengthOf(u128) `doc` ,
-    }/// triple
-,match Foo as
-stringy {7 : asx // " ++ [128512]%N ++ runes_of_ascii " emoji
-, ""x y""	:
-    calculatedFrom
-, }
-    , }, @lengthOf(i64_ ) @rightPad ( /// triple
-'\x00'// @lengthOf(
-)@tag( 42 )  char[]
-repeatCount ,
-match	Z9_ //x
-as  int {[//x
-""a	b"" ,	""abc""
-    , 255 , 7 // " ++ [128512]%N ++ runes_of_ascii " emoji
-] :asx
-""1"" : chars , [ ""a	b"", 00 ,4294967296 ] :
-leftPad , [
-65535
-, //x
-0 , //	t
-""abc"" // a // b
-, ""it's"", 007 ,
-    ""x y"" ,
-    255,3 ]  :
-leftPad
-    , [
-    //x
-    4294967296]: u
-,
-// " ++ [128512]%N ++ runes_of_ascii " emoji
-// " ++ [128512]%N ++ runes_of_ascii " emoji
-0123456789 :a1  } ,
-x_y_z  u8x ,  asx{ repeat
-Header float `crlf
-line`
-    , rootA
-charz// " ++ [128512]%N ++ runes_of_ascii " emoji
-`a\` , } , @calculatedFrom(""CRC32"" ) string string_
-,  @tag(
-65535 )  @rightPad ( '\x00' ) u8x	a1 `{ , }` , } options { // c
-float = // " ++ [27880; 37322]%N ++ runes_of_ascii "
-007 }
-root // c
-packet
-metadata {
-}
-")).
-Eval vm_compute in ("<<<M310>>>" ++ check (runes_of_ascii "packet f32a {  }")).
-Eval vm_compute in ("<<<M342>>>" ++ check (runes_of_ascii "options {
-_x = 0
-; As = zchar[ 4294967296 ] ; } //x")).
-Eval vm_compute in ("<<<T342>>>" ++ terms [mkTok 1 "options" 1 0 false; mkTok 2 "{" 1 8 false; mkTok 42 "_x" 2 0 false; mkTok 4 "=" 2 3 false; mkTok 30 "0" 2 5 false; mkTok 41 ";" 3 0 false; mkTok 42 "As" 3 2 false; mkTok 4 "=" 3 5 false; mkTok 14 "zchar[" 3 7 false; mkTok 30 "4294967296" 3 14 false; mkTok 13 "]" 3 25 false; mkTok 41 ";" 3 27 false; mkTok 3 "}" 3 29 false; mkTok 44 "//x" 3 31 true; mkTok 0 "<EOF>" 3 34 false] (mkPacket (mkPtok 1 "options" 1 0 0) (Some (mkPtok 3 "}" 3 29 12)) [(DOption (mkOptionDef (mkSpan (mkPtok 1 "options" 1 0 0) (mkPtok 3 "}" 3 29 12)) (mkPtok 1 "options" 1 0 0) (mkPtok 2 "{" 1 8 1) [(mkOptionDecl (mkSpan (mkPtok 42 "_x" 2 0 2) (mkPtok 41 ";" 3 0 5)) (mkPtok 42 "_x" 2 0 2) (mkPtok 4 "=" 2 3 3) (VDigits (mkSpan (mkPtok 30 "0" 2 5 4) (mkPtok 30 "0" 2 5 4)) (mkPtok 30 "0" 2 5 4)) (Some (mkPtok 41 ";" 3 0 5))); (mkOptionDecl (mkSpan (mkPtok 42 "As" 3 2 6) (mkPtok 41 ";" 3 27 11)) (mkPtok 42 "As" 3 2 6) (mkPtok 4 "=" 3 5 7) (VType (mkSpan (mkPtok 14 "zchar[" 3 7 8) (mkPtok 13 "]" 3 25 10)) (TyFixed (mkSpan (mkPtok 14 "zchar[" 3 7 8) (mkPtok 13 "]" 3 25 10)) (mkFixedString (mkSpan (mkPtok 14 "zchar[" 3 7 8) (mkPtok 13 "]" 3 25 10)) (mkPtok 14 "zchar[" 3 7 8) (mkPtok 30 "4294967296" 3 14 9) (mkPtok 13 "]" 3 25 10)))) (Some (mkPtok 41 ";" 3 27 11)))] (mkPtok 3 "}" 3 29 12)))])).
-Eval vm_compute in ("<<<M374>>>" ++ check (runes_of_ascii "packet
-Header { trueish @calculatedFrom(
-""a	b"")
-,
-    Header@calculatedFrom(
-    ""a\\"" //
-)
-,//	t
-@calculatedFrom(  ""a\\"" )/// triple
-i16	body
-@lengthOf( f32a  ) , // packet A { u8 x, }
-match // packet A { u8 x, }
-stringy as _x{ ""`tick`""
-// trailing space 
-//
-: string_ ,42:u8x , ""\n""
-    :
-    repeatCount, ""a\\"" : options1 ,	[ 4294967296 , ""{,}""
-/// triple
-//x
-,
-    4294967296 ,  """ ++ [28040; 24687]%N ++ runes_of_ascii """ , 3//	t
-,
-""abc"" ]
-:
-    //	t
-    u8x , } , zchar[0123456789
-    ] MetaDataX,@calculatedFrom(
-    ""x y"" //	t
-) @lengthOf( A )	zchar[ //x
-00 ] a1 , match
-// " ++ [128512]%N ++ runes_of_ascii " emoji
-// `tick` ""quote"" 'q'
-options1 as calculatedFrom // packet A { u8 x, }
-{
-    [ ""// no comment""
-    // " ++ [27880; 37322]%N ++ runes_of_ascii "
-    ,  ""abc"" , 65535,	""CRC32""
-, 0
-, ""CRC32"" ]
-: uint8x
-    , ""// no comment"" :
-// " ++ [128512]%N ++ runes_of_ascii " emoji
-// trailing space 
-chars	,	[ """ ++ [233]%N ++ runes_of_ascii "t" ++ [233]%N ++ runes_of_ascii """ , ""a	b"" ]
-    :
-    pack , 10 :	tag ,}  , @tag( 42 )repeat
-    // trailing space 
-    len,
-    @lengthOf( u )char[] f32a
-, // packet A { u8 x, }
-}
-")).
-Eval vm_compute in ("<<<M406>>>" ++ check (runes_of_ascii "
-packet u {@calculatedFrom(""// no comment""  ) string
-//	t
-// a // b
-string_
-,@calculatedFrom( //	t
-""\" ++ [233]%N ++ runes_of_ascii """ ) match string_ as
-len  { """ ++ [233]%N ++ runes_of_ascii "t" ++ [233]%N ++ runes_of_ascii """ :
-    roots ,	[""a\""b""
-,
-""x y"" , """", // `tick` ""quote"" 'q'
-""" ++ [28040; 24687]%N ++ runes_of_ascii """ ,""packet"" , 7, 3  ]
-    //x
-    : /// triple
-As, [ """ ++ [128512]%N ++ runes_of_ascii """ ,
-    ""// no comment""	, 10 ,
-    //
-    10] : roots ,""" ++ [28040; 24687]%N ++ runes_of_ascii """ : packetx
-    , //
-[""1""] :	calculatedFrom ,[1
-]
-    :len , }, x_y_z
-    @calculatedFrom( ""a\""b"") `say ""hi""` , As
-    @lengthOf(
-    roots
-    ) ,
-    // a // b
-    @calculatedFrom( """ ++ [233]%N ++ runes_of_ascii "t" ++ [233]%N ++ runes_of_ascii """ ) char  i64_
-@lengthOf(Header ) , //
-u8 int
-    @lengthOf(	i64_ )
-    `crlf
-line` ,// `tick` ""quote"" 'q'
-@calculatedFrom( // " ++ [27880; 37322]%N ++ runes_of_ascii "
-""1"" ) zchar[3 ] Packet
-,
-// `tick` ""quote"" 'q'
-//x
-uint8
-    u128`line1
-line2`
-    ,
-    }	options
-    { Header = true
-    ;  Packet
-    // a // b
-    =
-    0123456789
-    matchKey=
-    /// triple
-    zchar[ 4294967296] }
-")).
-Eval vm_compute in ("<<<M438>>>" ++ check (runes_of_ascii "options
-    {
-    Foo =  u16
-;
-    As
-=
-char lengthOf = 00 As =
-false ;
-    }
-")).
-Eval vm_compute in ("<<<M470>>>" ++ check (runes_of_ascii "
-packet tag {
-float32 repeatCount @calculatedFrom( ""// no comment"") ,}
-    packet i64_{
-char[00 ] calculatedFrom ,// " ++ [128512]%N ++ runes_of_ascii " emoji
-@calculatedFrom( ""packet"" ) i16  Packet ,
-    falsey
-    { char[]
-    // c
-    calculatedFrom @lengthOf( stringy )
-    // `tick` ""quote"" 'q'
-    `` ,}//
-, repeat i32 matchKey , repeat char[ 7
-    ]/// triple
-tag`// not a comment` ,leftPad
-{// @lengthOf(
-char[]
-    i8i8 , }
-,  @lengthOf(x_y_z) char[ 3 ] matchKey ``  ,float { char[] chars, repeat
-    zchar[  1 ]x_y_z ,
-} , i8 x_y_z
-//	t
-//
-,
-string asx //
-,} root packet
-int{  chars @lengthOf(
-    Foo	)
-`a\`,  repeat
-    char[ 0123456789
-]
-    BodyLength , i8 T
-    , @rightPad
-(
-    ) u64 lengthOf	, }
-")).
-Eval vm_compute in ("<<<M502>>>" ++ check (runes_of_ascii "MetaData a1{ f64
-    int
-    , i32
-o	`two words` ,
-char[3	] lengthOf
-    , zchar[ 7
-] Header , u32 x_y_z , char[3 ] matchKey
-    ,
-    }packet falsey{@lengthOf(
-    i8i8 ) match MetaDataX	as calculatedFrom  { 00
-:
-float  , // " ++ [27880; 37322]%N ++ runes_of_ascii "
-7 // " ++ [128512]%N ++ runes_of_ascii " emoji
-: MetaDataX
-,""" ++ [28040; 24687]%N ++ runes_of_ascii """ :
-    options1 , [ ""a\\"" // packet A { u8 x, }
-]: charz	,
-},match T
-    // trailing space 
-    as Z9_ { [
-    ""it's"" ] : falsey //
-,
-255	:Foo , ""a\\""
-    : Header , }, }
-    MetaData
-    lengthOf { As rootA `doc` , }
-")).
-Eval vm_compute in ("<<<M534>>>" ++ check (runes_of_ascii "packet Foo{
-    char[ 10
-]f32a
-@lengthOf(
-calculatedFrom )
-    `crlf
-line`
-    , match pack as A// `tick` ""quote"" 'q'
-{ """ ++ [233]%N ++ runes_of_ascii "t" ++ [233]%N ++ runes_of_ascii """ :	f32a /// triple
-,[ ""x y"" , ""`tick`"" ] : falsey , ""x y""
-    //x
-    : Foo ,
-    7 : chars// c
-,""{,}""  :u128 , 255:
-A , } ,string
-//x
-// trailing space 
-T `
-` ,} /// triple")).
-Eval vm_compute in ("<<<M566>>>" ++ check (runes_of_ascii "options
-    { // " ++ [27880; 37322]%N ++ runes_of_ascii "
-i64_//x
-= ""1""
-} options {matchKey =
-65535 Header = ""x y"" stringy
-=
-//	t
-// a // b
-true;  } MetaData int {	i8i8
-charz `u8 x,` ,
-    } 	 ")).
-Eval vm_compute in ("<<<T566>>>" ++ terms [mkTok 1 "options" 1 0 false; mkTok 2 "{" 2 4 false; mkTok 44 (string_of_bytes [47; 47; 32; 230; 179; 168; 233; 135; 138]%N) 2 6 true; mkTok 42 "i64_" 3 0 false; mkTok 44 "//x" 3 4 true; mkTok 4 "=" 4 0 false; mkTok 31 """1""" 4 2 false; mkTok 3 "}" 5 0 false; mkTok 1 "options" 5 2 false; mkTok 2 "{" 5 10 false; mkTok 42 "matchKey" 5 11 false; mkTok 4 "=" 5 20 false; mkTok 30 "65535" 6 0 false; mkTok 42 "Header" 6 6 false; mkTok 4 "=" 6 13 false; mkTok 31 """x y""" 6 15 false; mkTok 42 "stringy" 6 21 false; mkTok 4 "=" 7 0 false; mkTok 44 (string_of_bytes [47; 47; 9; 116]%N) 8 0 true; mkTok 44 "// a // b" 9 0 true; mkTok 10 "true" 10 0 false; mkTok 41 ";" 10 4 false; mkTok 3 "}" 10 7 false; mkTok 37 "MetaData" 10 9 false; mkTok 42 "int" 10 18 false; mkTok 2 "{" 10 22 false; mkTok 42 "i8i8" 10 24 false; mkTok 42 "charz" 11 0 false; mkTok 43 "`u8 x,`" 11 6 false; mkTok 40 "," 11 14 false; mkTok 3 "}" 12 4 false; mkTok 0 "<EOF>" 12 8 false] (mkPacket (mkPtok 1 "options" 1 0 0) (Some (mkPtok 3 "}" 12 4 30)) [(DOption (mkOptionDef (mkSpan (mkPtok 1 "options" 1 0 0) (mkPtok 3 "}" 5 0 7)) (mkPtok 1 "options" 1 0 0) (mkPtok 2 "{" 2 4 1) [(mkOptionDecl (mkSpan (mkPtok 42 "i64_" 3 0 3) (mkPtok 31 """1""" 4 2 6)) (mkPtok 42 "i64_" 3 0 3) (mkPtok 4 "=" 4 0 5) (VString (mkSpan (mkPtok 31 """1""" 4 2 6) (mkPtok 31 """1""" 4 2 6)) (mkPtok 31 """1""" 4 2 6)) None)] (mkPtok 3 "}" 5 0 7))); (DOption (mkOptionDef (mkSpan (mkPtok 1 "options" 5 2 8) (mkPtok 3 "}" 10 7 22)) (mkPtok 1 "options" 5 2 8) (mkPtok 2 "{" 5 10 9) [(mkOptionDecl (mkSpan (mkPtok 42 "matchKey" 5 11 10) (mkPtok 30 "65535" 6 0 12)) (mkPtok 42 "matchKey" 5 11 10) (mkPtok 4 "=" 5 20 11) (VDigits (mkSpan (mkPtok 30 "65535" 6 0 12) (mkPtok 30 "65535" 6 0 12)) (mkPtok 30 "65535" 6 0 12)) None); (mkOptionDecl (mkSpan (mkPtok 42 "Header" 6 6 13) (mkPtok 31 """x y""" 6 15 15)) (mkPtok 42 "Header" 6 6 13) (mkPtok 4 "=" 6 13 14) (VString (mkSpan (mkPtok 31 """x y""" 6 15 15) (mkPtok 31 """x y""" 6 15 15)) (mkPtok 31 """x y""" 6 15 15)) None); (mkOptionDecl (mkSpan (mkPtok 42 "stringy" 6 21 16) (mkPtok 41 ";" 10 4 21)) (mkPtok 42 "stringy" 6 21 16) (mkPtok 4 "=" 7 0 17) (VTrue (mkSpan (mkPtok 10 "true" 10 0 20) (mkPtok 10 "true" 10 0 20)) (mkPtok 10 "true" 10 0 20)) (Some (mkPtok 41 ";" 10 4 21)))] (mkPtok 3 "}" 10 7 22))); (DMeta (mkMetaDef (mkSpan (mkPtok 37 "MetaData" 10 9 23) (mkPtok 3 "}" 12 4 30)) (mkPtok 37 "MetaData" 10 9 23) (mkPtok 42 "int" 10 18 24) (mkPtok 2 "{" 10 22 25) [(MIRef (mkRefMetaDecl (mkSpan (mkPtok 42 "i8i8" 10 24 26) (mkPtok 40 "," 11 14 29)) (mkPtok 42 "i8i8" 10 24 26) (mkPtok 42 "charz" 11 0 27) (Some (mkPtok 43 "`u8 x,`" 11 6 28)) (mkPtok 40 "," 11 14 29)))] (mkPtok 3 "}" 12 4 30)))])).
-Eval vm_compute in ("<<<M598>>>" ++ check (runes_of_ascii "
-packet
-    a1 /// triple
-{ @lengthOf(
-    As
-)uint16 // " ++ [128512]%N ++ runes_of_ascii " emoji
-matchKey
-`line1
-line2` , }
-options { pack = 7 } packet
-    // " ++ [128512]%N ++ runes_of_ascii " emoji
-    packetx {@calculatedFrom(  ""packet"" ) int8 metadata
-@lengthOf(
-metadata
-    ) , @tag(	7 )
-    lengthOf @lengthOf( u128) // " ++ [128512]%N ++ runes_of_ascii " emoji
-, @rightPad (
-    )Header
-@lengthOf( msg_type
-)  ``,
-leftPad ,
-}
-packet
-    // packet A { u8 x, }
-    string_{ }  packet f32a { @leftPad ( '0'
-) @leftPad ( ' '
-    /// triple
-    )
-@leftPad (' '
-) x_y_z { char charz @calculatedFrom(
-""""  )
-//	t
-// trailing space 
-,
-repeat rootA
-repeatCount ,
-    // packet A { u8 x, }
-    repeat u128 f32a `// not a comment` ,},
-// " ++ [27880; 37322]%N ++ runes_of_ascii "
-// trailing space 
-} // packet A { u8 x, }")).
-Eval vm_compute in ("<<<M630>>>" ++ check (runes_of_ascii "MetaData
-packetx  { string
-//	t
-//
-matchKey, /// triple
-u8
-    trueish
-    ,
-// packet A { u8 x, }
-// `tick` ""quote"" 'q'
-} // a // b")).
-Eval vm_compute in ("<<<M662>>>" ++ check (runes_of_ascii "
-options { i64_ = int16; } packet
-    // @lengthOf(
-    crc
-{ @tag(
-0123456789)
-    // a // b
-    repeat
-crc
-{ char[ 1]	As @lengthOf(//
-repeatCount) ,}, } root packet
-falsey
-{ repeat
-repeatCount	{repeat Header {
-calculatedFrom float `u8 x,` , } //
-,
-string u8x @lengthOf( zchar)
-,	char[ 255]
-    Foo , // " ++ [27880; 37322]%N ++ runes_of_ascii "
-} // `tick` ""quote"" 'q'
-,	@lengthOf( Z9_ ) packetx , /// triple
-repeat
-    // " ++ [128512]%N ++ runes_of_ascii " emoji
-    string
-BodyLength
-    , @rightPad ( ' '
-)
-crc @calculatedFrom( // c
-""\n"") , repeat options1
-{ match Z9_
-as A { 0 :
-    matchKey ,	[ 00,
-    10 ,
-    0,
-    """ ++ [233]%N ++ runes_of_ascii "t" ++ [233]%N ++ runes_of_ascii """ ]
-    : zchar ,	""1"" : trueish ,""abc"" :
-metadata ,
-    255
-    : matchKey
-    ,
-    },packetx @calculatedFrom( ""a\""b"" ) `
-` , // packet A { u8 x, }
-} , @tag(
-    0
-    )i32 A	, @calculatedFrom(  ""{,}"" ) @tag(
-    3
-    )
-    As ,
-    repeat f64 zchar`// not a comment`// a // b
-,
-}  packet rootA  {  @leftPad
-(	'0')
-trueish stringy`{ , }` , @calculatedFrom( ""{,}"" ) @tag( 3 )  u64	Pad@calculatedFrom( ""a	b"" ),uint16 _x @lengthOf(int) ``
-,
-    }MetaData
-    int{ }
-")).
-Eval vm_compute in ("<<<M694>>>" ++ check (runes_of_ascii "root packet
-string_{
-@calculatedFrom( ""`tick`"" )
-    uint8 stringy `a\` //
-, int16 Packet @calculatedFrom( ""it's"" ), }")).
-Eval vm_compute in ("<<<M726>>>" ++ check (runes_of_ascii "packet len { @tag( 4294967296 ) repeat f32 a1 `" ++ [28040; 24687; 31867; 22411]%N ++ runes_of_ascii "`
-    ,
-uint8x
-`
-`
-//
-//	t
-,} root packet rootA
-    { match crc
-    as // packet A { u8 x, }
-i8i8 // c
-{ ""a\""b"" : _x
-00 :
-Packet , ""// no comment"" : MetaDataX , // c
-[  """ ++ [28040; 24687]%N ++ runes_of_ascii """//x
-, 007 ] : MetaDataX 42:  charz , [ """ ++ [233]%N ++ runes_of_ascii "t" ++ [233]%N ++ runes_of_ascii """	, // a // b
-""abc"" ]: _x, } , uint16 Logon, @leftPad
-    (
-' ' ) // packet A { u8 x, }
-@leftPad
-( // " ++ [27880; 37322]%N ++ runes_of_ascii "
-' ' ) uint8  stringy @lengthOf(
-    msg_type ) `
-`
-    , }")).
-Eval vm_compute in ("<<<M758>>>" ++ check (runes_of_ascii "options
-{ }  root packet a1 { @tag( 00
-)Logon , @calculatedFrom( ""{,}""
-)repeatCount
-// a // b
-// packet A { u8 x, }
-{ repeat float i64_ ,
-    match u8x // trailing space 
-as
-leftPad
-    // `tick` ""quote"" 'q'
-    {3 :u128 ,1	: i8i8
-//	t
-// " ++ [128512]%N ++ runes_of_ascii " emoji
-, 42 :
-    u128
-, """ ++ [233]%N ++ runes_of_ascii "t" ++ [233]%N ++ runes_of_ascii """
-: msg_type , [ 1,
-42 ] : A , } ,
-    repeat
-    i64 metadata ,
-} ,
-    match	len
-as	Z9_ { 255 :o,
-    0123456789 :Pad ,//
-[ 7
-, ""{,}""
-    , // trailing space 
-""abc"" , 007 ] :chars
-, 3
-: // packet A { u8 x, }
-packetx 00 ://
-o, /// triple
-} ,  zchar[ 0123456789
-    ]
-i64_
-@lengthOf(	chars ) , float32 trueish `" ++ [28040; 24687; 31867; 22411]%N ++ runes_of_ascii "` ,}
-")).
-Eval vm_compute in ("<<<M790>>>" ++ check (runes_of_ascii "
-packet msg_type{ repeat
-i64 MetaDataX
-`line1
-line2` // trailing space 
-,  repeat char[] //
-u128 ,
+    `{ , }` , // 50% %s
 @tag(
-42
-    ) // @lengthOf(
-@lengthOf( u )
-@lengthOf( body )repeat
-zchar[ 255
-    //
-    ]
-// `tick` ""quote"" 'q'
-// trailing space 
-As	,calculatedFrom
-    //x
-    f32a
-    // trailing space 
-    ,}
-options
-{// @lengthOf(
-x
-    =  3 msg_type = ""`tick`"" falsey= ""CRC32""
-    ;
-    // trailing space 
-    body=
-    char[ 00] ; uint8x  = ""x y"" } options// @lengthOf(
-{//
-A
-    =
-    uint16
-}root packet BodyLength { @lengthOf( pack )
-    repeat
-    metadata T
-`{ , }`
-// packet A { u8 x, }
-//	t
-,}packet chars{ }
-// packet A { u8 x, }
-")).
-Eval vm_compute in ("<<<T790>>>" ++ terms [mkTok 35 "packet" 2 0 false; mkTok 42 "msg_type" 2 7 false; mkTok 2 "{" 2 15 false; mkTok 36 "repeat" 2 17 false; mkTok 27 "i64" 3 0 false; mkTok 42 "MetaDataX" 3 4 false; mkTok 43 (string_of_bytes [96; 108; 105; 110; 101; 49; 10; 108; 105; 110; 101; 50; 96]%N) 4 0 false; mkTok 44 "// trailing space " 5 7 true; mkTok 40 "," 6 0 false; mkTok 36 "repeat" 6 3 false; mkTok 16 "char[]" 6 10 false; mkTok 44 "//" 6 17 true; mkTok 42 "u128" 7 0 false; mkTok 40 "," 7 5 false; mkTok 9 "@tag(" 8 0 false; mkTok 30 "42" 9 0 false; mkTok 6 ")" 10 4 false; mkTok 44 "// @lengthOf(" 10 6 true; mkTok 7 "@lengthOf(" 11 0 false; mkTok 42 "u" 11 11 false; mkTok 6 ")" 11 13 false; mkTok 7 "@lengthOf(" 12 0 false; mkTok 42 "body" 12 11 false; mkTok 6 ")" 12 16 false; mkTok 36 "repeat" 12 17 false; mkTok 14 "zchar[" 13 0 false; mkTok 30 "255" 13 7 false; mkTok 44 "//" 14 4 true; mkTok 13 "]" 15 4 false; mkTok 44 "// `tick` ""quote"" 'q'" 16 0 true; mkTok 44 "// trailing space " 17 0 true; mkTok 42 "As" 18 0 false; mkTok 40 "," 18 3 false; mkTok 42 "calculatedFrom" 18 4 false; mkTok 44 "//x" 19 4 true; mkTok 42 "f32a" 20 4 false; mkTok 44 "// trailing space " 21 4 true; mkTok 40 "," 22 4 false; mkTok 3 "}" 22 5 false; mkTok 1 "options" 23 0 false; mkTok 2 "{" 24 0 false; mkTok 44 "// @lengthOf(" 24 1 true; mkTok 42 "x" 25 0 false; mkTok 4 "=" 26 4 false; mkTok 30 "3" 26 7 false; mkTok 42 "msg_type" 26 9 false; mkTok 4 "=" 26 18 false; mkTok 31 """`tick`""" 26 20 false; mkTok 42 "falsey" 26 29 false; mkTok 4 "=" 26 35 false; mkTok 31 """CRC32""" 26 37 false; mkTok 41 ";" 27 4 false; mkTok 44 "// trailing space " 28 4 true; mkTok 42 "body" 29 4 false; mkTok 4 "=" 29 8 false; mkTok 12 "char[" 30 4 false; mkTok 30 "00" 30 10 false; mkTok 13 "]" 30 12 false; mkTok 41 ";" 30 14 false; mkTok 42 "uint8x" 30 16 false; mkTok 4 "=" 30 24 false; mkTok 31 """x y""" 30 26 false; mkTok 3 "}" 30 32 false; mkTok 1 "options" 30 34 false; mkTok 44 "// @lengthOf(" 30 41 true; mkTok 2 "{" 31 0 false; mkTok 44 "//" 31 1 true; mkTok 42 "A" 32 0 false; mkTok 4 "=" 33 4 false; mkTok 21 "uint16" 34 4 false; mkTok 3 "}" 35 0 false; mkTok 34 "root" 35 1 false; mkTok 35 "packet" 35 6 false; mkTok 42 "BodyLength" 35 13 false; mkTok 2 "{" 35 24 false; mkTok 7 "@lengthOf(" 35 26 false; mkTok 42 "pack" 35 37 false; mkTok 6 ")" 35 42 false; mkTok 36 "repeat" 36 4 false; mkTok 42 "metadata" 37 4 false; mkTok 42 "T" 37 13 false; mkTok 43 "`{ , }`" 38 0 false; mkTok 44 "// packet A { u8 x, }" 39 0 true; mkTok 44 (string_of_bytes [47; 47; 9; 116]%N) 40 0 true; mkTok 40 "," 41 0 false; mkTok 3 "}" 41 1 false; mkTok 35 "packet" 41 2 false; mkTok 42 "chars" 41 9 false; mkTok 2 "{" 41 14 false; mkTok 3 "}" 41 16 false; mkTok 44 "// packet A { u8 x, }" 42 0 true; mkTok 0 "<EOF>" 43 0 false] (mkPacket (mkPtok 35 "packet" 2 0 0) (Some (mkPtok 3 "}" 41 16 89)) [(DPacket (mkPacketDef (mkSpan (mkPtok 35 "packet" 2 0 0) (mkPtok 3 "}" 22 5 38)) None (mkPtok 35 "packet" 2 0 0) (mkPtok 42 "msg_type" 2 7 1) (mkPtok 2 "{" 2 15 2) [(mkFieldWithAttr (mkSpan (mkPtok 36 "repeat" 2 17 3) (mkPtok 40 "," 6 0 8)) [] (MetaField (mkSpan (mkPtok 36 "repeat" 2 17 3) (mkPtok 40 "," 6 0 8)) (Some (mkPtok 36 "repeat" 2 17 3)) (mkMetaDecl (mkSpan (mkPtok 27 "i64" 3 0 4) (mkPtok 40 "," 6 0 8)) (TyBasic (mkSpan (mkPtok 27 "i64" 3 0 4) (mkPtok 27 "i64" 3 0 4)) (mkBasicType (mkSpan (mkPtok 27 "i64" 3 0 4) (mkPtok 27 "i64" 3 0 4)) (mkPtok 27 "i64" 3 0 4))) (mkPtok 42 "MetaDataX" 3 4 5) (Some (mkPtok 43 (string_of_bytes [96; 108; 105; 110; 101; 49; 10; 108; 105; 110; 101; 50; 96]%N) 4 0 6)) (mkPtok 40 "," 6 0 8)))); (mkFieldWithAttr (mkSpan (mkPtok 36 "repeat" 6 3 9) (mkPtok 40 "," 7 5 13)) [] (MetaField (mkSpan (mkPtok 36 "repeat" 6 3 9) (mkPtok 40 "," 7 5 13)) (Some (mkPtok 36 "repeat" 6 3 9)) (mkMetaDecl (mkSpan (mkPtok 16 "char[]" 6 10 10) (mkPtok 40 "," 7 5 13)) (TyDynamic (mkSpan (mkPtok 16 "char[]" 6 10 10) (mkPtok 16 "char[]" 6 10 10)) (mkDynamicString (mkSpan (mkPtok 16 "char[]" 6 10 10) (mkPtok 16 "char[]" 6 10 10)) (mkPtok 16 "char[]" 6 10 10))) (mkPtok 42 "u128" 7 0 12) None (mkPtok 40 "," 7 5 13)))); (mkFieldWithAttr (mkSpan (mkPtok 9 "@tag(" 8 0 14) (mkPtok 40 "," 18 3 32)) [(FATag (mkSpan (mkPtok 9 "@tag(" 8 0 14) (mkPtok 6 ")" 10 4 16)) (mkTagAttr (mkSpan (mkPtok 9 "@tag(" 8 0 14) (mkPtok 6 ")" 10 4 16)) (mkPtok 9 "@tag(" 8 0 14) (mkPtok 30 "42" 9 0 15) (mkPtok 6 ")" 10 4 16))); (FALengthOf (mkSpan (mkPtok 7 "@lengthOf(" 11 0 18) (mkPtok 6 ")" 11 13 20)) (mkLengthOf (mkSpan (mkPtok 7 "@lengthOf(" 11 0 18) (mkPtok 6 ")" 11 13 20)) (mkPtok 7 "@lengthOf(" 11 0 18) (mkPtok 42 "u" 11 11 19) (mkPtok 6 ")" 11 13 20))); (FALengthOf (mkSpan (mkPtok 7 "@lengthOf(" 12 0 21) (mkPtok 6 ")" 12 16 23)) (mkLengthOf (mkSpan (mkPtok 7 "@lengthOf(" 12 0 21) (mkPtok 6 ")" 12 16 23)) (mkPtok 7 "@lengthOf(" 12 0 21) (mkPtok 42 "body" 12 11 22) (mkPtok 6 ")" 12 16 23)))] (MetaField (mkSpan (mkPtok 36 "repeat" 12 17 24) (mkPtok 40 "," 18 3 32)) (Some (mkPtok 36 "repeat" 12 17 24)) (mkMetaDecl (mkSpan (mkPtok 14 "zchar[" 13 0 25) (mkPtok 40 "," 18 3 32)) (TyFixed (mkSpan (mkPtok 14 "zchar[" 13 0 25) (mkPtok 13 "]" 15 4 28)) (mkFixedString (mkSpan (mkPtok 14 "zchar[" 13 0 25) (mkPtok 13 "]" 15 4 28)) (mkPtok 14 "zchar[" 13 0 25) (mkPtok 30 "255" 13 7 26) (mkPtok 13 "]" 15 4 28))) (mkPtok 42 "As" 18 0 31) None (mkPtok 40 "," 18 3 32)))); (mkFieldWithAttr (mkSpan (mkPtok 42 "calculatedFrom" 18 4 33) (mkPtok 40 "," 22 4 37)) [] (ObjectField (mkSpan (mkPtok 42 "calculatedFrom" 18 4 33) (mkPtok 40 "," 22 4 37)) None (mkPtok 42 "calculatedFrom" 18 4 33) (Some (mkPtok 42 "f32a" 20 4 35)) None (mkPtok 40 "," 22 4 37)))] (mkPtok 3 "}" 22 5 38))); (DOption (mkOptionDef (mkSpan (mkPtok 1 "options" 23 0 39) (mkPtok 3 "}" 30 32 62)) (mkPtok 1 "options" 23 0 39) (mkPtok 2 "{" 24 0 40) [(mkOptionDecl (mkSpan (mkPtok 42 "x" 25 0 42) (mkPtok 30 "3" 26 7 44)) (mkPtok 42 "x" 25 0 42) (mkPtok 4 "=" 26 4 43) (VDigits (mkSpan (mkPtok 30 "3" 26 7 44) (mkPtok 30 "3" 26 7 44)) (mkPtok 30 "3" 26 7 44)) None); (mkOptionDecl (mkSpan (mkPtok 42 "msg_type" 26 9 45) (mkPtok 31 """`tick`""" 26 20 47)) (mkPtok 42 "msg_type" 26 9 45) (mkPtok 4 "=" 26 18 46) (VString (mkSpan (mkPtok 31 """`tick`""" 26 20 47) (mkPtok 31 """`tick`""" 26 20 47)) (mkPtok 31 """`tick`""" 26 20 47)) None); (mkOptionDecl (mkSpan (mkPtok 42 "falsey" 26 29 48) (mkPtok 41 ";" 27 4 51)) (mkPtok 42 "falsey" 26 29 48) (mkPtok 4 "=" 26 35 49) (VString (mkSpan (mkPtok 31 """CRC32""" 26 37 50) (mkPtok 31 """CRC32""" 26 37 50)) (mkPtok 31 """CRC32""" 26 37 50)) (Some (mkPtok 41 ";" 27 4 51))); (mkOptionDecl (mkSpan (mkPtok 42 "body" 29 4 53) (mkPtok 41 ";" 30 14 58)) (mkPtok 42 "body" 29 4 53) (mkPtok 4 "=" 29 8 54) (VType (mkSpan (mkPtok 12 "char[" 30 4 55) (mkPtok 13 "]" 30 12 57)) (TyFixed (mkSpan (mkPtok 12 "char[" 30 4 55) (mkPtok 13 "]" 30 12 57)) (mkFixedString (mkSpan (mkPtok 12 "char[" 30 4 55) (mkPtok 13 "]" 30 12 57)) (mkPtok 12 "char[" 30 4 55) (mkPtok 30 "00" 30 10 56) (mkPtok 13 "]" 30 12 57)))) (Some (mkPtok 41 ";" 30 14 58))); (mkOptionDecl (mkSpan (mkPtok 42 "uint8x" 30 16 59) (mkPtok 31 """x y""" 30 26 61)) (mkPtok 42 "uint8x" 30 16 59) (mkPtok 4 "=" 30 24 60) (VString (mkSpan (mkPtok 31 """x y""" 30 26 61) (mkPtok 31 """x y""" 30 26 61)) (mkPtok 31 """x y""" 30 26 61)) None)] (mkPtok 3 "}" 30 32 62))); (DOption (mkOptionDef (mkSpan (mkPtok 1 "options" 30 34 63) (mkPtok 3 "}" 35 0 70)) (mkPtok 1 "options" 30 34 63) (mkPtok 2 "{" 31 0 65) [(mkOptionDecl (mkSpan (mkPtok 42 "A" 32 0 67) (mkPtok 21 "uint16" 34 4 69)) (mkPtok 42 "A" 32 0 67) (mkPtok 4 "=" 33 4 68) (VType (mkSpan (mkPtok 21 "uint16" 34 4 69) (mkPtok 21 "uint16" 34 4 69)) (TyBasic (mkSpan (mkPtok 21 "uint16" 34 4 69) (mkPtok 21 "uint16" 34 4 69)) (mkBasicType (mkSpan (mkPtok 21 "uint16" 34 4 69) (mkPtok 21 "uint16" 34 4 69)) (mkPtok 21 "uint16" 34 4 69)))) None)] (mkPtok 3 "}" 35 0 70))); (DPacket (mkPacketDef (mkSpan (mkPtok 34 "root" 35 1 71) (mkPtok 3 "}" 41 1 85)) (Some (mkPtok 34 "root" 35 1 71)) (mkPtok 35 "packet" 35 6 72) (mkPtok 42 "BodyLength" 35 13 73) (mkPtok 2 "{" 35 24 74) [(mkFieldWithAttr (mkSpan (mkPtok 7 "@lengthOf(" 35 26 75) (mkPtok 40 "," 41 0 84)) [(FALengthOf (mkSpan (mkPtok 7 "@lengthOf(" 35 26 75) (mkPtok 6 ")" 35 42 77)) (mkLengthOf (mkSpan (mkPtok 7 "@lengthOf(" 35 26 75) (mkPtok 6 ")" 35 42 77)) (mkPtok 7 "@lengthOf(" 35 26 75) (mkPtok 42 "pack" 35 37 76) (mkPtok 6 ")" 35 42 77)))] (ObjectField (mkSpan (mkPtok 36 "repeat" 36 4 78) (mkPtok 40 "," 41 0 84)) (Some (mkPtok 36 "repeat" 36 4 78)) (mkPtok 42 "metadata" 37 4 79) (Some (mkPtok 42 "T" 37 13 80)) (Some (mkPtok 43 "`{ , }`" 38 0 81)) (mkPtok 40 "," 41 0 84)))] (mkPtok 3 "}" 41 1 85))); (DPacket (mkPacketDef (mkSpan (mkPtok 35 "packet" 41 2 86) (mkPtok 3 "}" 41 16 89)) None (mkPtok 35 "packet" 41 2 86) (mkPtok 42 "chars" 41 9 87) (mkPtok 2 "{" 41 14 88) [] (mkPtok 3 "}" 41 16 89)))])).
-Eval vm_compute in ("<<<M822>>>" ++ check (runes_of_ascii "MetaData
-chars{ zchar[// " ++ [27880; 37322]%N ++ runes_of_ascii "
-3] As `say ""hi""` , }root packet lengthOf
-{
-//
-/// triple
-@rightPad( ' '
-// " ++ [27880; 37322]%N ++ runes_of_ascii "
-// @lengthOf(
-) f32 MetaDataX  @calculatedFrom( """"
-    )`{ , }` , match string_
-as // trailing space 
-x_y_z { 42
-: lengthOf,00  :chars ""// no comment"" : BodyLength , ""// no comment"":	tag ,255 : a1 ,
-""""	:
-stringy
-,
-    },
-    }
-")).
-Eval vm_compute in ("<<<M854>>>" ++ check (runes_of_ascii "MetaData charz {
-//
-//	t
-f32a stringy
-    ,	}
-")).
-Eval vm_compute in ("<<<M886>>>" ++ check (runes_of_ascii "
-")).
-Eval vm_compute in ("<<<M918>>>" ++ check (runes_of_ascii "packet  MetaDataX
-{
-char
-    falsey,
-    zchar[ 1
-]a1 @calculatedFrom( ""a\\""
-), }packet
-calculatedFrom{ zchar[42 ]
-_x `tab	here` , string roots@lengthOf( chars) , }")).
-Eval vm_compute in ("<<<M950>>>" ++ check (runes_of_ascii "  
-// @lengthOf(
-")).
-Eval vm_compute in ("<<<M982>>>" ++ check (runes_of_ascii "root packet lengthOf { int32 body@lengthOf( Z9_
-)
-    `// not a comment` ,}
-options { charz /// triple
-=
-    true }
-    packet
-asx { @tag(
-// `tick` ""quote"" 'q'
-// trailing space 
-255 ) msg_type
-// trailing space 
-// `tick` ""quote"" 'q'
-{ repeat
-crc	charz
-    //
-    ,} , }")).
-Eval vm_compute in ("<<<M1014>>>" ++ check (runes_of_ascii "
-options { msg_type
-=
-    42;
-    metadata  =
-""""
-;matchKey
-=
-// packet A { u8 x, }
-// `tick` ""quote"" 'q'
-u8 }
-")).
-Eval vm_compute in ("<<<T1014>>>" ++ terms [mkTok 1 "options" 2 0 false; mkTok 2 "{" 2 8 false; mkTok 42 "msg_type" 2 10 false; mkTok 4 "=" 3 0 false; mkTok 30 "42" 4 4 false; mkTok 41 ";" 4 6 false; mkTok 42 "metadata" 5 4 false; mkTok 4 "=" 5 14 false; mkTok 31 """""" 6 0 false; mkTok 41 ";" 7 0 false; mkTok 42 "matchKey" 7 1 false; mkTok 4 "=" 8 0 false; mkTok 44 "// packet A { u8 x, }" 9 0 true; mkTok 44 "// `tick` ""quote"" 'q'" 10 0 true; mkTok 20 "u8" 11 0 false; mkTok 3 "}" 11 3 false; mkTok 0 "<EOF>" 12 0 false] (mkPacket (mkPtok 1 "options" 2 0 0) (Some (mkPtok 3 "}" 11 3 15)) [(DOption (mkOptionDef (mkSpan (mkPtok 1 "options" 2 0 0) (mkPtok 3 "}" 11 3 15)) (mkPtok 1 "options" 2 0 0) (mkPtok 2 "{" 2 8 1) [(mkOptionDecl (mkSpan (mkPtok 42 "msg_type" 2 10 2) (mkPtok 41 ";" 4 6 5)) (mkPtok 42 "msg_type" 2 10 2) (mkPtok 4 "=" 3 0 3) (VDigits (mkSpan (mkPtok 30 "42" 4 4 4) (mkPtok 30 "42" 4 4 4)) (mkPtok 30 "42" 4 4 4)) (Some (mkPtok 41 ";" 4 6 5))); (mkOptionDecl (mkSpan (mkPtok 42 "metadata" 5 4 6) (mkPtok 41 ";" 7 0 9)) (mkPtok 42 "metadata" 5 4 6) (mkPtok 4 "=" 5 14 7) (VString (mkSpan (mkPtok 31 """""" 6 0 8) (mkPtok 31 """""" 6 0 8)) (mkPtok 31 """""" 6 0 8)) (Some (mkPtok 41 ";" 7 0 9))); (mkOptionDecl (mkSpan (mkPtok 42 "matchKey" 7 1 10) (mkPtok 20 "u8" 11 0 14)) (mkPtok 42 "matchKey" 7 1 10) (mkPtok 4 "=" 8 0 11) (VType (mkSpan (mkPtok 20 "u8" 11 0 14) (mkPtok 20 "u8" 11 0 14)) (TyBasic (mkSpan (mkPtok 20 "u8" 11 0 14) (mkPtok 20 "u8" 11 0 14)) (mkBasicType (mkSpan (mkPtok 20 "u8" 11 0 14) (mkPtok 20 "u8" 11 0 14)) (mkPtok 20 "u8" 11 0 14)))) None)] (mkPtok 3 "}" 11 3 15)))])).
-Eval vm_compute in ("<<<M1046>>>" ++ check (runes_of_ascii "packet u/// triple
-{
-@calculatedFrom( ""1"" ) match o as float{
-""x y""	:
-    u
-    , }
-    ,match packetx as
-    f32a {
-// a // b
-// c
-[ 4294967296 ,3] :
-x , 10
-: i8i8, """ ++ [233]%N ++ runes_of_ascii "t" ++ [233]%N ++ runes_of_ascii """ : _x [
-    // `tick` ""quote"" 'q'
-    ""a	b""
-, """ ++ [28040; 24687]%N ++ runes_of_ascii """
-    //	t
-    ,
-    ""1"",""a\\"" ,42 , 4294967296
-    , ""a	b""] :
-    Header ,//
-65535 : i8i8 , 0123456789 :repeatCount ,
-    }
-    ,
-repeat
-stringy { //	t
-char[	0
-]
-Logon	`{ , }`, Pad `a\`
-, asx
-    BodyLength`line1
-line2` ,
-    repeat string
-    Z9_, } ,
-    f32a metadata `" ++ [28040; 24687; 31867; 22411]%N ++ runes_of_ascii "`
-, @calculatedFrom(
-""a\""b"" )
-    metadata { Z9_ @calculatedFrom( """ ++ [233]%N ++ runes_of_ascii "t" ++ [233]%N ++ runes_of_ascii """ ) ,  repeat zchar[  1 ] //
-options1 `say ""hi""` , i8 options1,
-    roots
-{string packetx ,
-repeat char[//x
-65535 ] x // trailing space 
-,
-    // c
-    }
-, } , int8 matchKey
-    ,
-metadata @lengthOf( roots )
-// packet A { u8 x, }
-//	t
-,  string u// " ++ [27880; 37322]%N ++ runes_of_ascii "
+    42 ) @rightPad ('0' )	@calculatedFrom( ""a\""b"") repeat int32 Header ,float @lengthOf(falsey  ) , @leftPad
+    ( ) uint32
+    options1
 @lengthOf(
-    As
-)
-    , } packet //x
-x_y_z {
-    // " ++ [128512]%N ++ runes_of_ascii " emoji
-    len o, match
-string_ as
-Foo {
-[
-    255
-    ,
-""" ++ [233]%N ++ runes_of_ascii "t" ++ [233]%N ++ runes_of_ascii """
+Pad)`a\` , }")).
+Eval vm_compute in ("<<<M118>>>" ++ check (runes_of_ascii "options
+{ u // packet A { u8 x, }
+=// 50% %s
+int32 packetx	= ""`tick`"" ;
+    matchKey= // trailing space 
+'0'As = 3
+// packet A { u8 x, }
+//x
+; Packet=true; } root packet
+tag { // @lengthOf(
+u64 stringy , repeat options1
+{ zchar[ 4294967296
+] f32a `` , match tag as
     //
-    , 255 , 007 , ""a\""b""
-    // " ++ [27880; 37322]%N ++ runes_of_ascii "
-    , ""abc""  ]
-: a1
-    // @lengthOf(
-    ,""CRC32""
-:matchKey } ,@lengthOf(
-int )	@calculatedFrom(//	t
-""1""// " ++ [27880; 37322]%N ++ runes_of_ascii "
-)
-@calculatedFrom(//
-""it's"") char[ 0 ]
-matchKey @calculatedFrom(
-""`tick`"" )
-    , match a1
-as Z9_
-{ [ ""CRC32"" , 65535 ] :
-    x [ 0123456789 ,  """ ++ [233]%N ++ runes_of_ascii "t" ++ [233]%N ++ runes_of_ascii """]	: packetx ,
-    ""packet"" :
-//	t
-// a // b
-msg_type , 10 : // " ++ [27880; 37322]%N ++ runes_of_ascii "
-o// " ++ [128512]%N ++ runes_of_ascii " emoji
-, }, @lengthOf( repeatCount )
-    f32 As , @tag( 3
-    )
-    string_, } 	 ")).
-Eval vm_compute in ("<<<M1078>>>" ++ check (runes_of_ascii "MetaData roots{ }MetaData x_y_z// trailing space 
-{
-zchar[	42 ]
-    i8i8
-, options1 _x`doc` ,i8 zchar
-    , uint16 Pad`u8 x,`,	} packet MetaDataX{
-    zchar[
-4294967296 ] rootA  ,
-//
-//x
-}	packet
-    T { //x
-@lengthOf( len	) @tag( 42) int64 float `{ , }` // c
-, @lengthOf(i64_)As @lengthOf(falsey
-    // a // b
-    ) ,
-int64 Pad	@lengthOf( _x)
-`it's` , @lengthOf( len
-    ) char[
-255
-]Pad`" ++ [28040; 24687; 31867; 22411]%N ++ runes_of_ascii "`, }
-    MetaData Foo
-{// " ++ [27880; 37322]%N ++ runes_of_ascii "
-char[	1 ] As ,}
-")).
-Eval vm_compute in ("<<<M1110>>>" ++ check (runes_of_ascii "
-")).
-Eval vm_compute in ("<<<M1142>>>" ++ check (runes_of_ascii "
-packet
-// c
-// @lengthOf(
-int{ @lengthOf( //
-pack
-    ) f64 asx @calculatedFrom( ""abc"" )
-    , @calculatedFrom( ""\" ++ [233]%N ++ runes_of_ascii """ ) f64 //	t
-u
-`// not a comment`
-,// " ++ [128512]%N ++ runes_of_ascii " emoji
-@lengthOf( stringy) @tag( 3 )
-    @rightPad  ()repeat float32
-    rootA , msg_type@lengthOf(
-    packetx
-    // " ++ [27880; 37322]%N ++ runes_of_ascii "
-    ), @lengthOf( repeatCount
-) //x
-@calculatedFrom(
-""`tick`"" )  float lengthOf ,
-} packet Pad { repeat uint8x body`u8 x,` ,	zchar	{
-    u8 trueish, float `
-` ,
-    } , @lengthOf(
-uint8x
-) @lengthOf( //x
-float ) u64 T @calculatedFrom( ""// no comment"" ) , @rightPad ()
-    repeat options1//x
-int ,
-@tag( 00
+    options1 {
+    10 : A
 // c
 // c
-)
-    @lengthOf( string_
-// c
-/// triple
-)
-@lengthOf( f32a	)
-string
-/// triple
-//	t
-u , match
-    // trailing space 
-    x as uint8x
-    {[
-    ""it's"" , ""x y""
-, ""it's""  ] : // " ++ [128512]%N ++ runes_of_ascii " emoji
-i64_	,// c
-}
-    ,} root packet
-trueish{ i8i8`line1
-line2` , } // " ++ [27880; 37322]%N ++ runes_of_ascii "
-packet tag { //	t
-float64 // packet A { u8 x, }
-Foo
-    `` , }
-")).
-Eval vm_compute in ("<<<M1174>>>" ++ check (runes_of_ascii "options { int// a // b
-=7 ;float = int64;
-/// triple
-// a // b
-stringy= 3 rootA
+,  007
+    : Pad , 0123456789
+    : calculatedFrom 7 :	stringy ,
+[ // 50% %s
+""a\""b"" ,// " ++ [27880; 37322]%N ++ runes_of_ascii "
+0123456789 ] : options1 , 3
+:
+u8x,
     // packet A { u8 x, }
-    =""CRC32"" x = // c
-true // " ++ [128512]%N ++ runes_of_ascii " emoji
-} options{ A=uint16
-    // @lengthOf(
-    ; metadata = ""1""
-// trailing space 
+    } ,} ,
+    }packet len {	@calculatedFrom(
+// packet A { u8 x, }
 // `tick` ""quote"" 'q'
-packetx=10// " ++ [128512]%N ++ runes_of_ascii " emoji
-} MetaData Packet { T int	`u8 x,` , o _x
-    ,
-falsey chars ,
-} root packet string_
-{ packetx Pad`a\`
-    , trueish x_y_z ,body , repeat char[ 3]  options1 `it's` , }")).
-Eval vm_compute in ("<<<M1206>>>" ++ check (runes_of_ascii "options {T = zchar[ 0123456789
-    ] }root packet Pad { match repeatCount  as pack{[ 3 ,
-    /// triple
-    255, ""// no comment""
-, """ ++ [28040; 24687]%N ++ runes_of_ascii """ , ""it's"",
-255
-, ""it's"" ]:
-packetx
-    // `tick` ""quote"" 'q'
-    ,
-} ,
-@calculatedFrom( ""CRC32""
-) @lengthOf( Header)	@lengthOf( u ) match As
-    as  calculatedFrom// c
-{ [	255, 00]
-// trailing space 
-/// triple
-:// " ++ [128512]%N ++ runes_of_ascii " emoji
-Z9_ ,
-[""a	b""]:// packet A { u8 x, }
-Header}
-// trailing space 
+""" ++ [233]%N ++ runes_of_ascii "t" ++ [233]%N ++ runes_of_ascii """ )i8
+// `tick` ""quote"" 'q'
+//	t
+repeatCount @lengthOf(
+// `tick` ""quote"" 'q'
 // " ++ [128512]%N ++ runes_of_ascii " emoji
-,  x_y_z
-,
-    // packet A { u8 x, }
-    }
-")).
-Eval vm_compute in ("<<<M1238>>>" ++ check (runes_of_ascii "
-root packet options1
-    { uint64	x ,	@lengthOf( i8i8
-    ) repeat
-char[ 0] len, crc `u8 x,`, As
-@calculatedFrom(""a	b""
-/// triple
-// @lengthOf(
-), @rightPad () @calculatedFrom( ""1""//x
-) string charz @calculatedFrom(
-""" ++ [233]%N ++ runes_of_ascii "t" ++ [233]%N ++ runes_of_ascii """	)`two words` , @tag( 00 )f32a
-//x
-//	t
-{ char[] trueish@lengthOf( //	t
-MetaDataX ) `// not a comment`
-,repeat	int16 float
-,
-body `u8 x,` , } //x
-, @calculatedFrom( // a // b
-""x y""  )
-//x
-//
-match Header as falsey { 7  :f32a , } ,  @tag( 00 )	match zchar
-as
-    Logon {
-[7
-, 7 ,
-    ""`tick`"",
-""\" ++ [233]%N ++ runes_of_ascii """ , 255] : A
-, [ 1 ]  :Z9_ [ ""1"" , 1 ,
-    ""`tick`"" ,""a	b""
-,
-//	t
-// a // b
-""\" ++ [233]%N ++ runes_of_ascii """ , """ ++ [28040; 24687]%N ++ runes_of_ascii """ ]	:
-Pad [ ""1"" // " ++ [128512]%N ++ runes_of_ascii " emoji
-, """" ,
-1	,
-00  ,""" ++ [128512]%N ++ runes_of_ascii """ , ""1"" , 1 , ""{,}"" ]
-: Z9_ ,10:
-A,
-    """ ++ [233]%N ++ runes_of_ascii "t" ++ [233]%N ++ runes_of_ascii """
-    : u8x
-    // " ++ [128512]%N ++ runes_of_ascii " emoji
-    , } , repeat int64 metadata ,
-    @rightPad (
-'0' )match tag as BodyLength
-    {""CRC32"" : asx , 10:
-    metadata , }
-    ,}")).
-Eval vm_compute in ("<<<T1238>>>" ++ terms [mkTok 34 "root" 2 0 false; mkTok 35 "packet" 2 5 false; mkTok 42 "options1" 2 12 false; mkTok 2 "{" 3 4 false; mkTok 23 "uint64" 3 6 false; mkTok 42 "x" 3 13 false; mkTok 40 "," 3 15 false; mkTok 7 "@lengthOf(" 3 17 false; mkTok 42 "i8i8" 3 28 false; mkTok 6 ")" 4 4 false; mkTok 36 "repeat" 4 6 false; mkTok 12 "char[" 5 0 false; mkTok 30 "0" 5 6 false; mkTok 13 "]" 5 7 false; mkTok 42 "len" 5 9 false; mkTok 40 "," 5 12 false; mkTok 42 "crc" 5 14 false; mkTok 43 "`u8 x,`" 5 18 false; mkTok 40 "," 5 25 false; mkTok 42 "As" 5 27 false; mkTok 5 "@calculatedFrom(" 6 0 false; mkTok 31 (string_of_bytes [34; 97; 9; 98; 34]%N) 6 16 false; mkTok 44 "/// triple" 7 0 true; mkTok 44 "// @lengthOf(" 8 0 true; mkTok 6 ")" 9 0 false; mkTok 40 "," 9 1 false; mkTok 32 "@rightPad" 9 3 false; mkTok 8 "(" 9 13 false; mkTok 6 ")" 9 14 false; mkTok 5 "@calculatedFrom(" 9 16 false; mkTok 31 """1""" 9 33 false; mkTok 44 "//x" 9 36 true; mkTok 6 ")" 10 0 false; mkTok 15 "string" 10 2 false; mkTok 42 "charz" 10 9 false; mkTok 5 "@calculatedFrom(" 10 15 false; mkTok 31 (string_of_bytes [34; 195; 169; 116; 195; 169; 34]%N) 11 0 false; mkTok 6 ")" 11 6 false; mkTok 43 "`two words`" 11 7 false; mkTok 40 "," 11 19 false; mkTok 9 "@tag(" 11 21 false; mkTok 30 "00" 11 27 false; mkTok 6 ")" 11 30 false; mkTok 42 "f32a" 11 31 false; mkTok 44 "//x" 12 0 true; mkTok 44 (string_of_bytes [47; 47; 9; 116]%N) 13 0 true; mkTok 2 "{" 14 0 false; mkTok 16 "char[]" 14 2 false; mkTok 42 "trueish" 14 9 false; mkTok 7 "@lengthOf(" 14 16 false; mkTok 44 (string_of_bytes [47; 47; 9; 116]%N) 14 27 true; mkTok 42 "MetaDataX" 15 0 false; mkTok 6 ")" 15 10 false; mkTok 43 "`// not a comment`" 15 12 false; mkTok 40 "," 16 0 false; mkTok 36 "repeat" 16 1 false; mkTok 25 "int16" 16 8 false; mkTok 42 "float" 16 14 false; mkTok 40 "," 17 0 false; mkTok 42 "body" 18 0 false; mkTok 43 "`u8 x,`" 18 5 false; mkTok 40 "," 18 13 false; mkTok 3 "}" 18 15 false; mkTok 44 "//x" 18 17 true; mkTok 40 "," 19 0 false; mkTok 5 "@calculatedFrom(" 19 2 false; mkTok 44 "// a // b" 19 19 true; mkTok 31 """x y""" 20 0 false; mkTok 6 ")" 20 7 false; mkTok 44 "//x" 21 0 true; mkTok 44 "//" 22 0 true; mkTok 38 "match" 23 0 false; mkTok 42 "Header" 23 6 false; mkTok 17 "as" 23 13 false; mkTok 42 "falsey" 23 16 false; mkTok 2 "{" 23 23 false; mkTok 30 "7" 23 25 false; mkTok 39 ":" 23 28 false; mkTok 42 "f32a" 23 29 false; mkTok 40 "," 23 34 false; mkTok 3 "}" 23 36 false; mkTok 40 "," 23 38 false; mkTok 9 "@tag(" 23 41 false; mkTok 30 "00" 23 47 false; mkTok 6 ")" 23 50 false; mkTok 38 "match" 23 52 false; mkTok 42 "zchar" 23 58 false; mkTok 17 "as" 24 0 false; mkTok 42 "Logon" 25 4 false; mkTok 2 "{" 25 10 false; mkTok 18 "[" 26 0 false; mkTok 30 "7" 26 1 false; mkTok 40 "," 27 0 false; mkTok 30 "7" 27 2 false; mkTok 40 "," 27 4 false; mkTok 31 """`tick`""" 28 4 false; mkTok 40 "," 28 12 false; mkTok 31 (string_of_bytes [34; 92; 195; 169; 34]%N) 29 0 false; mkTok 40 "," 29 5 false; mkTok 30 "255" 29 7 false; mkTok 13 "]" 29 10 false; mkTok 39 ":" 29 12 false; mkTok 42 "A" 29 14 false; mkTok 40 "," 30 0 false; mkTok 18 "[" 30 2 false; mkTok 30 "1" 30 4 false; mkTok 13 "]" 30 6 false; mkTok 39 ":" 30 9 false; mkTok 42 "Z9_" 30 10 false; mkTok 18 "[" 30 14 false; mkTok 31 """1""" 30 16 false; mkTok 40 "," 30 20 false; mkTok 30 "1" 30 22 false; mkTok 40 "," 30 24 false; mkTok 31 """`tick`""" 31 4 false; mkTok 40 "," 31 13 false; mkTok 31 (string_of_bytes [34; 97; 9; 98; 34]%N) 31 14 false; mkTok 40 "," 32 0 false; mkTok 44 (string_of_bytes [47; 47; 9; 116]%N) 33 0 true; mkTok 44 "// a // b" 34 0 true; mkTok 31 (string_of_bytes [34; 92; 195; 169; 34]%N) 35 0 false; mkTok 40 "," 35 5 false; mkTok 31 (string_of_bytes [34; 230; 182; 136; 230; 129; 175; 34]%N) 35 7 false; mkTok 13 "]" 35 12 false; mkTok 39 ":" 35 14 false; mkTok 42 "Pad" 36 0 false; mkTok 18 "[" 36 4 false; mkTok 31 """1""" 36 6 false; mkTok 44 (string_of_bytes [47; 47; 32; 240; 159; 152; 128; 32; 101; 109; 111; 106; 105]%N) 36 10 true; mkTok 40 "," 37 0 false; mkTok 31 """""" 37 2 false; mkTok 40 "," 37 5 false; mkTok 30 "1" 38 0 false; mkTok 40 "," 38 2 false; mkTok 30 "00" 39 0 false; mkTok 40 "," 39 4 false; mkTok 31 (string_of_bytes [34; 240; 159; 152; 128; 34]%N) 39 5 false; mkTok 40 "," 39 9 false; mkTok 31 """1""" 39 11 false; mkTok 40 "," 39 15 false; mkTok 30 "1" 39 17 false; mkTok 40 "," 39 19 false; mkTok 31 """{,}""" 39 21 false; mkTok 13 "]" 39 27 false; mkTok 39 ":" 40 0 false; mkTok 42 "Z9_" 40 2 false; mkTok 40 "," 40 6 false; mkTok 30 "10" 40 7 false; mkTok 39 ":" 40 9 false; mkTok 42 "A" 41 0 false; mkTok 40 "," 41 1 false; mkTok 31 (string_of_bytes [34; 195; 169; 116; 195; 169; 34]%N) 42 4 false; mkTok 39 ":" 43 4 false; mkTok 42 "u8x" 43 6 false; mkTok 44 (string_of_bytes [47; 47; 32; 240; 159; 152; 128; 32; 101; 109; 111; 106; 105]%N) 44 4 true; mkTok 40 "," 45 4 false; mkTok 3 "}" 45 6 false; mkTok 40 "," 45 8 false; mkTok 36 "repeat" 45 10 false; mkTok 27 "int64" 45 17 false; mkTok 42 "metadata" 45 23 false; mkTok 40 "," 45 32 false; mkTok 32 "@rightPad" 46 4 false; mkTok 8 "(" 46 14 false; mkTok 33 "'0'" 47 0 false; mkTok 6 ")" 47 4 false; mkTok 38 "match" 47 5 false; mkTok 42 "tag" 47 11 false; mkTok 17 "as" 47 15 false; mkTok 42 "BodyLength" 47 18 false; mkTok 2 "{" 48 4 false; mkTok 31 """CRC32""" 48 5 false; mkTok 39 ":" 48 13 false; mkTok 42 "asx" 48 15 false; mkTok 40 "," 48 19 false; mkTok 30 "10" 48 21 false; mkTok 39 ":" 48 23 false; mkTok 42 "metadata" 49 4 false; mkTok 40 "," 49 13 false; mkTok 3 "}" 49 15 false; mkTok 40 "," 50 4 false; mkTok 3 "}" 50 5 false; mkTok 0 "<EOF>" 50 6 false] (mkPacket (mkPtok 34 "root" 2 0 0) (Some (mkPtok 3 "}" 50 5 181)) [(DPacket (mkPacketDef (mkSpan (mkPtok 34 "root" 2 0 0) (mkPtok 3 "}" 50 5 181)) (Some (mkPtok 34 "root" 2 0 0)) (mkPtok 35 "packet" 2 5 1) (mkPtok 42 "options1" 2 12 2) (mkPtok 2 "{" 3 4 3) [(mkFieldWithAttr (mkSpan (mkPtok 23 "uint64" 3 6 4) (mkPtok 40 "," 3 15 6)) [] (MetaField (mkSpan (mkPtok 23 "uint64" 3 6 4) (mkPtok 40 "," 3 15 6)) None (mkMetaDecl (mkSpan (mkPtok 23 "uint64" 3 6 4) (mkPtok 40 "," 3 15 6)) (TyBasic (mkSpan (mkPtok 23 "uint64" 3 6 4) (mkPtok 23 "uint64" 3 6 4)) (mkBasicType (mkSpan (mkPtok 23 "uint64" 3 6 4) (mkPtok 23 "uint64" 3 6 4)) (mkPtok 23 "uint64" 3 6 4))) (mkPtok 42 "x" 3 13 5) None (mkPtok 40 "," 3 15 6)))); (mkFieldWithAttr (mkSpan (mkPtok 7 "@lengthOf(" 3 17 7) (mkPtok 40 "," 5 12 15)) [(FALengthOf (mkSpan (mkPtok 7 "@lengthOf(" 3 17 7) (mkPtok 6 ")" 4 4 9)) (mkLengthOf (mkSpan (mkPtok 7 "@lengthOf(" 3 17 7) (mkPtok 6 ")" 4 4 9)) (mkPtok 7 "@lengthOf(" 3 17 7) (mkPtok 42 "i8i8" 3 28 8) (mkPtok 6 ")" 4 4 9)))] (MetaField (mkSpan (mkPtok 36 "repeat" 4 6 10) (mkPtok 40 "," 5 12 15)) (Some (mkPtok 36 "repeat" 4 6 10)) (mkMetaDecl (mkSpan (mkPtok 12 "char[" 5 0 11) (mkPtok 40 "," 5 12 15)) (TyFixed (mkSpan (mkPtok 12 "char[" 5 0 11) (mkPtok 13 "]" 5 7 13)) (mkFixedString (mkSpan (mkPtok 12 "char[" 5 0 11) (mkPtok 13 "]" 5 7 13)) (mkPtok 12 "char[" 5 0 11) (mkPtok 30 "0" 5 6 12) (mkPtok 13 "]" 5 7 13))) (mkPtok 42 "len" 5 9 14) None (mkPtok 40 "," 5 12 15)))); (mkFieldWithAttr (mkSpan (mkPtok 42 "crc" 5 14 16) (mkPtok 40 "," 5 25 18)) [] (ObjectField (mkSpan (mkPtok 42 "crc" 5 14 16) (mkPtok 40 "," 5 25 18)) None (mkPtok 42 "crc" 5 14 16) None (Some (mkPtok 43 "`u8 x,`" 5 18 17)) (mkPtok 40 "," 5 25 18))); (mkFieldWithAttr (mkSpan (mkPtok 42 "As" 5 27 19) (mkPtok 40 "," 9 1 25)) [] (CheckSumField (mkSpan (mkPtok 42 "As" 5 27 19) (mkPtok 40 "," 9 1 25)) (mkChecksumFieldDecl (mkSpan (mkPtok 42 "As" 5 27 19) (mkPtok 40 "," 9 1 25)) None (mkPtok 42 "As" 5 27 19) (mkCalculatedFrom (mkSpan (mkPtok 5 "@calculatedFrom(" 6 0 20) (mkPtok 6 ")" 9 0 24)) (mkPtok 5 "@calculatedFrom(" 6 0 20) (mkPtok 31 (string_of_bytes [34; 97; 9; 98; 34]%N) 6 16 21) (mkPtok 6 ")" 9 0 24)) None (mkPtok 40 "," 9 1 25)))); (mkFieldWithAttr (mkSpan (mkPtok 32 "@rightPad" 9 3 26) (mkPtok 40 "," 11 19 39)) [(FAPadding (mkSpan (mkPtok 32 "@rightPad" 9 3 26) (mkPtok 6 ")" 9 14 28)) (mkPaddingAttr (mkSpan (mkPtok 32 "@rightPad" 9 3 26) (mkPtok 6 ")" 9 14 28)) (mkPtok 32 "@rightPad" 9 3 26) (mkPtok 8 "(" 9 13 27) None (mkPtok 6 ")" 9 14 28))); (FACalculatedFrom (mkSpan (mkPtok 5 "@calculatedFrom(" 9 16 29) (mkPtok 6 ")" 10 0 32)) (mkCalculatedFrom (mkSpan (mkPtok 5 "@calculatedFrom(" 9 16 29) (mkPtok 6 ")" 10 0 32)) (mkPtok 5 "@calculatedFrom(" 9 16 29) (mkPtok 31 """1""" 9 33 30) (mkPtok 6 ")" 10 0 32)))] (CheckSumField (mkSpan (mkPtok 15 "string" 10 2 33) (mkPtok 40 "," 11 19 39)) (mkChecksumFieldDecl (mkSpan (mkPtok 15 "string" 10 2 33) (mkPtok 40 "," 11 19 39)) (Some (TyDynamic (mkSpan (mkPtok 15 "string" 10 2 33) (mkPtok 15 "string" 10 2 33)) (mkDynamicString (mkSpan (mkPtok 15 "string" 10 2 33) (mkPtok 15 "string" 10 2 33)) (mkPtok 15 "string" 10 2 33)))) (mkPtok 42 "charz" 10 9 34) (mkCalculatedFrom (mkSpan (mkPtok 5 "@calculatedFrom(" 10 15 35) (mkPtok 6 ")" 11 6 37)) (mkPtok 5 "@calculatedFrom(" 10 15 35) (mkPtok 31 (string_of_bytes [34; 195; 169; 116; 195; 169; 34]%N) 11 0 36) (mkPtok 6 ")" 11 6 37)) (Some (mkPtok 43 "`two words`" 11 7 38)) (mkPtok 40 "," 11 19 39)))); (mkFieldWithAttr (mkSpan (mkPtok 9 "@tag(" 11 21 40) (mkPtok 40 "," 19 0 64)) [(FATag (mkSpan (mkPtok 9 "@tag(" 11 21 40) (mkPtok 6 ")" 11 30 42)) (mkTagAttr (mkSpan (mkPtok 9 "@tag(" 11 21 40) (mkPtok 6 ")" 11 30 42)) (mkPtok 9 "@tag(" 11 21 40) (mkPtok 30 "00" 11 27 41) (mkPtok 6 ")" 11 30 42)))] (InerObjectField (mkSpan (mkPtok 42 "f32a" 11 31 43) (mkPtok 40 "," 19 0 64)) None (InerObjectDecl (mkSpan (mkPtok 42 "f32a" 11 31 43) (mkPtok 3 "}" 18 15 62)) (mkPtok 42 "f32a" 11 31 43) (mkPtok 2 "{" 14 0 46) [(LengthField (mkSpan (mkPtok 16 "char[]" 14 2 47) (mkPtok 40 "," 16 0 54)) (mkLengthFieldDecl (mkSpan (mkPtok 16 "char[]" 14 2 47) (mkPtok 40 "," 16 0 54)) (Some (TyDynamic (mkSpan (mkPtok 16 "char[]" 14 2 47) (mkPtok 16 "char[]" 14 2 47)) (mkDynamicString (mkSpan (mkPtok 16 "char[]" 14 2 47) (mkPtok 16 "char[]" 14 2 47)) (mkPtok 16 "char[]" 14 2 47)))) (mkPtok 42 "trueish" 14 9 48) (mkLengthOf (mkSpan (mkPtok 7 "@lengthOf(" 14 16 49) (mkPtok 6 ")" 15 10 52)) (mkPtok 7 "@lengthOf(" 14 16 49) (mkPtok 42 "MetaDataX" 15 0 51) (mkPtok 6 ")" 15 10 52)) (Some (mkPtok 43 "`// not a comment`" 15 12 53)) (mkPtok 40 "," 16 0 54))); (MetaField (mkSpan (mkPtok 36 "repeat" 16 1 55) (mkPtok 40 "," 17 0 58)) (Some (mkPtok 36 "repeat" 16 1 55)) (mkMetaDecl (mkSpan (mkPtok 25 "int16" 16 8 56) (mkPtok 40 "," 17 0 58)) (TyBasic (mkSpan (mkPtok 25 "int16" 16 8 56) (mkPtok 25 "int16" 16 8 56)) (mkBasicType (mkSpan (mkPtok 25 "int16" 16 8 56) (mkPtok 25 "int16" 16 8 56)) (mkPtok 25 "int16" 16 8 56))) (mkPtok 42 "float" 16 14 57) None (mkPtok 40 "," 17 0 58))); (ObjectField (mkSpan (mkPtok 42 "body" 18 0 59) (mkPtok 40 "," 18 13 61)) None (mkPtok 42 "body" 18 0 59) None (Some (mkPtok 43 "`u8 x,`" 18 5 60)) (mkPtok 40 "," 18 13 61))] (mkPtok 3 "}" 18 15 62)) (mkPtok 40 "," 19 0 64))); (mkFieldWithAttr (mkSpan (mkPtok 5 "@calculatedFrom(" 19 2 65) (mkPtok 40 "," 23 38 81)) [(FACalculatedFrom (mkSpan (mkPtok 5 "@calculatedFrom(" 19 2 65) (mkPtok 6 ")" 20 7 68)) (mkCalculatedFrom (mkSpan (mkPtok 5 "@calculatedFrom(" 19 2 65) (mkPtok 6 ")" 20 7 68)) (mkPtok 5 "@calculatedFrom(" 19 2 65) (mkPtok 31 """x y""" 20 0 67) (mkPtok 6 ")" 20 7 68)))] (MatchField (mkSpan (mkPtok 38 "match" 23 0 71) (mkPtok 40 "," 23 38 81)) (mkMatchFieldDecl (mkSpan (mkPtok 38 "match" 23 0 71) (mkPtok 3 "}" 23 36 80)) (mkPtok 38 "match" 23 0 71) (mkPtok 42 "Header" 23 6 72) (mkPtok 17 "as" 23 13 73) (mkPtok 42 "falsey" 23 16 74) (mkPtok 2 "{" 23 23 75) [(mkMatchPair (mkSpan (mkPtok 30 "7" 23 25 76) (mkPtok 40 "," 23 34 79)) (MKDigits (mkPtok 30 "7" 23 25 76)) (mkPtok 39 ":" 23 28 77) (mkPtok 42 "f32a" 23 29 78) (Some (mkPtok 40 "," 23 34 79)))] (mkPtok 3 "}" 23 36 80)) (mkPtok 40 "," 23 38 81))); (mkFieldWithAttr (mkSpan (mkPtok 9 "@tag(" 23 41 82) (mkPtok 40 "," 45 8 157)) [(FATag (mkSpan (mkPtok 9 "@tag(" 23 41 82) (mkPtok 6 ")" 23 50 84)) (mkTagAttr (mkSpan (mkPtok 9 "@tag(" 23 41 82) (mkPtok 6 ")" 23 50 84)) (mkPtok 9 "@tag(" 23 41 82) (mkPtok 30 "00" 23 47 83) (mkPtok 6 ")" 23 50 84)))] (MatchField (mkSpan (mkPtok 38 "match" 23 52 85) (mkPtok 40 "," 45 8 157)) (mkMatchFieldDecl (mkSpan (mkPtok 38 "match" 23 52 85) (mkPtok 3 "}" 45 6 156)) (mkPtok 38 "match" 23 52 85) (mkPtok 42 "zchar" 23 58 86) (mkPtok 17 "as" 24 0 87) (mkPtok 42 "Logon" 25 4 88) (mkPtok 2 "{" 25 10 89) [(mkMatchPair (mkSpan (mkPtok 18 "[" 26 0 90) (mkPtok 40 "," 30 0 103)) (MKList (mkKeyList (mkSpan (mkPtok 18 "[" 26 0 90) (mkPtok 13 "]" 29 10 100)) (mkPtok 18 "[" 26 0 90) (mkPtok 30 "7" 26 1 91) [((mkPtok 40 "," 27 0 92), (mkPtok 30 "7" 27 2 93)); ((mkPtok 40 "," 27 4 94), (mkPtok 31 """`tick`""" 28 4 95)); ((mkPtok 40 "," 28 12 96), (mkPtok 31 (string_of_bytes [34; 92; 195; 169; 34]%N) 29 0 97)); ((mkPtok 40 "," 29 5 98), (mkPtok 30 "255" 29 7 99))] (mkPtok 13 "]" 29 10 100))) (mkPtok 39 ":" 29 12 101) (mkPtok 42 "A" 29 14 102) (Some (mkPtok 40 "," 30 0 103))); (mkMatchPair (mkSpan (mkPtok 18 "[" 30 2 104) (mkPtok 42 "Z9_" 30 10 108)) (MKList (mkKeyList (mkSpan (mkPtok 18 "[" 30 2 104) (mkPtok 13 "]" 30 6 106)) (mkPtok 18 "[" 30 2 104) (mkPtok 30 "1" 30 4 105) [] (mkPtok 13 "]" 30 6 106))) (mkPtok 39 ":" 30 9 107) (mkPtok 42 "Z9_" 30 10 108) None); (mkMatchPair (mkSpan (mkPtok 18 "[" 30 14 109) (mkPtok 42 "Pad" 36 0 125)) (MKList (mkKeyList (mkSpan (mkPtok 18 "[" 30 14 109) (mkPtok 13 "]" 35 12 123)) (mkPtok 18 "[" 30 14 109) (mkPtok 31 """1""" 30 16 110) [((mkPtok 40 "," 30 20 111), (mkPtok 30 "1" 30 22 112)); ((mkPtok 40 "," 30 24 113), (mkPtok 31 """`tick`""" 31 4 114)); ((mkPtok 40 "," 31 13 115), (mkPtok 31 (string_of_bytes [34; 97; 9; 98; 34]%N) 31 14 116)); ((mkPtok 40 "," 32 0 117), (mkPtok 31 (string_of_bytes [34; 92; 195; 169; 34]%N) 35 0 120)); ((mkPtok 40 "," 35 5 121), (mkPtok 31 (string_of_bytes [34; 230; 182; 136; 230; 129; 175; 34]%N) 35 7 122))] (mkPtok 13 "]" 35 12 123))) (mkPtok 39 ":" 35 14 124) (mkPtok 42 "Pad" 36 0 125) None); (mkMatchPair (mkSpan (mkPtok 18 "[" 36 4 126) (mkPtok 40 "," 40 6 146)) (MKList (mkKeyList (mkSpan (mkPtok 18 "[" 36 4 126) (mkPtok 13 "]" 39 27 143)) (mkPtok 18 "[" 36 4 126) (mkPtok 31 """1""" 36 6 127) [((mkPtok 40 "," 37 0 129), (mkPtok 31 """""" 37 2 130)); ((mkPtok 40 "," 37 5 131), (mkPtok 30 "1" 38 0 132)); ((mkPtok 40 "," 38 2 133), (mkPtok 30 "00" 39 0 134)); ((mkPtok 40 "," 39 4 135), (mkPtok 31 (string_of_bytes [34; 240; 159; 152; 128; 34]%N) 39 5 136)); ((mkPtok 40 "," 39 9 137), (mkPtok 31 """1""" 39 11 138)); ((mkPtok 40 "," 39 15 139), (mkPtok 30 "1" 39 17 140)); ((mkPtok 40 "," 39 19 141), (mkPtok 31 """{,}""" 39 21 142))] (mkPtok 13 "]" 39 27 143))) (mkPtok 39 ":" 40 0 144) (mkPtok 42 "Z9_" 40 2 145) (Some (mkPtok 40 "," 40 6 146))); (mkMatchPair (mkSpan (mkPtok 30 "10" 40 7 147) (mkPtok 40 "," 41 1 150)) (MKDigits (mkPtok 30 "10" 40 7 147)) (mkPtok 39 ":" 40 9 148) (mkPtok 42 "A" 41 0 149) (Some (mkPtok 40 "," 41 1 150))); (mkMatchPair (mkSpan (mkPtok 31 (string_of_bytes [34; 195; 169; 116; 195; 169; 34]%N) 42 4 151) (mkPtok 40 "," 45 4 155)) (MKString (mkPtok 31 (string_of_bytes [34; 195; 169; 116; 195; 169; 34]%N) 42 4 151)) (mkPtok 39 ":" 43 4 152) (mkPtok 42 "u8x" 43 6 153) (Some (mkPtok 40 "," 45 4 155)))] (mkPtok 3 "}" 45 6 156)) (mkPtok 40 "," 45 8 157))); (mkFieldWithAttr (mkSpan (mkPtok 36 "repeat" 45 10 158) (mkPtok 40 "," 45 32 161)) [] (MetaField (mkSpan (mkPtok 36 "repeat" 45 10 158) (mkPtok 40 "," 45 32 161)) (Some (mkPtok 36 "repeat" 45 10 158)) (mkMetaDecl (mkSpan (mkPtok 27 "int64" 45 17 159) (mkPtok 40 "," 45 32 161)) (TyBasic (mkSpan (mkPtok 27 "int64" 45 17 159) (mkPtok 27 "int64" 45 17 159)) (mkBasicType (mkSpan (mkPtok 27 "int64" 45 17 159) (mkPtok 27 "int64" 45 17 159)) (mkPtok 27 "int64" 45 17 159))) (mkPtok 42 "metadata" 45 23 160) None (mkPtok 40 "," 45 32 161)))); (mkFieldWithAttr (mkSpan (mkPtok 32 "@rightPad" 46 4 162) (mkPtok 40 "," 50 4 180)) [(FAPadding (mkSpan (mkPtok 32 "@rightPad" 46 4 162) (mkPtok 6 ")" 47 4 165)) (mkPaddingAttr (mkSpan (mkPtok 32 "@rightPad" 46 4 162) (mkPtok 6 ")" 47 4 165)) (mkPtok 32 "@rightPad" 46 4 162) (mkPtok 8 "(" 46 14 163) (Some (mkPtok 33 "'0'" 47 0 164)) (mkPtok 6 ")" 47 4 165)))] (MatchField (mkSpan (mkPtok 38 "match" 47 5 166) (mkPtok 40 "," 50 4 180)) (mkMatchFieldDecl (mkSpan (mkPtok 38 "match" 47 5 166) (mkPtok 3 "}" 49 15 179)) (mkPtok 38 "match" 47 5 166) (mkPtok 42 "tag" 47 11 167) (mkPtok 17 "as" 47 15 168) (mkPtok 42 "BodyLength" 47 18 169) (mkPtok 2 "{" 48 4 170) [(mkMatchPair (mkSpan (mkPtok 31 """CRC32""" 48 5 171) (mkPtok 40 "," 48 19 174)) (MKString (mkPtok 31 """CRC32""" 48 5 171)) (mkPtok 39 ":" 48 13 172) (mkPtok 42 "asx" 48 15 173) (Some (mkPtok 40 "," 48 19 174))); (mkMatchPair (mkSpan (mkPtok 30 "10" 48 21 175) (mkPtok 40 "," 49 13 178)) (MKDigits (mkPtok 30 "10" 48 21 175)) (mkPtok 39 ":" 48 23 176) (mkPtok 42 "metadata" 49 4 177) (Some (mkPtok 40 "," 49 13 178)))] (mkPtok 3 "}" 49 15 179)) (mkPtok 40 "," 50 4 180)))] (mkPtok 3 "}" 50 5 181)))])).
-Eval vm_compute in ("<<<M1270>>>" ++ check (runes_of_ascii "options { u = string }
-")).
-Eval vm_compute in ("<<<M1302>>>" ++ check (runes_of_ascii "packet
-float {
-match
-asx as len {255
-:metadata
-},char[ 4294967296] x  @lengthOf( lengthOf ),matchKey int
-,} packet  falsey { @tag( 0123456789	) match
-    u128 // a // b
-as
-stringy  {
-    // " ++ [128512]%N ++ runes_of_ascii " emoji
-    0123456789 :
-u128 // packet A { u8 x, }
-[
-3
-,
-    ""CRC32"" ,	7
-// packet A { u8 x, }
-// @lengthOf(
-, 10
-    , 0 ] :o	, 1 /// triple
-:charz // " ++ [128512]%N ++ runes_of_ascii " emoji
-, 0123456789 :
-u ,255 :
-pack
-, } ,
-    }  packet T
-{
-    // " ++ [27880; 37322]%N ++ runes_of_ascii "
-    @lengthOf(
-    /// triple
-    Z9_ ) @rightPad (  '0' ) @calculatedFrom(
-    ""// no comment"" // `tick` ""quote"" 'q'
-)zchar[
-007
-    ] leftPad ,@calculatedFrom(
-""1"" )char[]As
-`two words` ,
-    @leftPad ( '0' ) repeat char[
-    0123456789
-    ]x `// not a comment`, char[ 1
-// " ++ [27880; 37322]%N ++ runes_of_ascii "
-//x
-]_x// " ++ [128512]%N ++ runes_of_ascii " emoji
-, }")).
-Eval vm_compute in ("<<<M1334>>>" ++ check (runes_of_ascii "//
-options{charz
-= ""1"" trueish = """" ;  asx =
-'0'i8i8 //	t
-=
-    ""it's""	;  }")).
-Eval vm_compute in ("<<<M1366>>>" ++ check (runes_of_ascii "options
-{  trueish  = f32
-;
-    i8i8 = false BodyLength  =
-// " ++ [27880; 37322]%N ++ runes_of_ascii "
-//	t
-float64
-stringy =
-string;Z9_= '\x00' } MetaData falsey { pack
-rootA,
-char[ 7]
-x_y_z `" ++ [233]%N ++ runes_of_ascii "` , uint32
-    string_ ,
-float64 //	t
-lengthOf// trailing space 
-,
-int32	u , }
-")).
-Eval vm_compute in ("<<<M1398>>>" ++ check (runes_of_ascii "packet //	t
-u8x
-{ @leftPad (  '0' ) // trailing space 
-@calculatedFrom( ""1""  )
-@leftPad ('\x00' ) zchar[ 3
-]  zchar
-, // `tick` ""quote"" 'q'
-}options {
-    }
-// @lengthOf(
-")).
-Eval vm_compute in ("<<<M1430>>>" ++ check (runes_of_ascii "  options
-{ Pad =  zchar[ 0 ] ;
-    tag=char[ 4294967296
-    ] ; u128=	false ; } MetaData repeatCount
+roots ) ,
+int32 i64_//
+@calculatedFrom( ""`tick`"" )  ,
+    @rightPad ( ' ' ) repeat
+char[] u8x// " ++ [128512]%N ++ runes_of_ascii " emoji
+,	@rightPad('\x00'	) leftPad{ match lengthOf // c
+as charz { ""1"" :tag  ""// no comment""	:
+x, [
+    """ ++ [233]%N ++ runes_of_ascii "t" ++ [233]%N ++ runes_of_ascii """ ,""CRC32"" ] :	pack 3: charz ,
+}, } , } options
     {
-u16 u128, }  options {
-leftPad
-    = '0'; }")).
-Eval vm_compute in ("<<<M1462>>>" ++ check (runes_of_ascii "options {tag =""`tick`"" }
-options { chars
-// c
-//
-=
-255 ;
-    // packet A { u8 x, }
-    int =
-""abc"" string_
-=
-    true
-    ;
-    body
-=  false asx = """ ++ [233]%N ++ runes_of_ascii "t" ++ [233]%N ++ runes_of_ascii """ ;// packet A { u8 x, }
 }
-    packet _x //x
-{
-repeat
-o  { char[ 00
-] f32a@calculatedFrom(
-    """"
-)	,
-f32a `a\`  , } , }packet falsey {
-} packet Z9_
-{ @tag( 0 ) @calculatedFrom( ""`tick`"" )
-    // a // b
-    @tag( 00 ) char[ 3 // " ++ [27880; 37322]%N ++ runes_of_ascii "
-] x @calculatedFrom( """"	) ,
-// @lengthOf(
-// packet A { u8 x, }
-Pad  @calculatedFrom( ""\" ++ [233]%N ++ runes_of_ascii """) ,@rightPad (  '0' ) char[]
-    trueish @lengthOf( packetx
-)
+    MetaData
+matchKey {uint64 repeatCount,  roots
+x_y_z
+`say ""hi""`
+, roots As , A crc , uint64 f32a // @lengthOf(
 , }
-// c
 ")).
-Eval vm_compute in ("<<<T1462>>>" ++ terms [mkTok 1 "options" 1 0 false; mkTok 2 "{" 1 8 false; mkTok 42 "tag" 1 9 false; mkTok 4 "=" 1 13 false; mkTok 31 """`tick`""" 1 14 false; mkTok 3 "}" 1 23 false; mkTok 1 "options" 2 0 false; mkTok 2 "{" 2 8 false; mkTok 42 "chars" 2 10 false; mkTok 44 "// c" 3 0 true; mkTok 44 "//" 4 0 true; mkTok 4 "=" 5 0 false; mkTok 30 "255" 6 0 false; mkTok 41 ";" 6 4 false; mkTok 44 "// packet A { u8 x, }" 7 4 true; mkTok 42 "int" 8 4 false; mkTok 4 "=" 8 8 false; mkTok 31 """abc""" 9 0 false; mkTok 42 "string_" 9 6 false; mkTok 4 "=" 10 0 false; mkTok 10 "true" 11 4 false; mkTok 41 ";" 12 4 false; mkTok 42 "body" 13 4 false; mkTok 4 "=" 14 0 false; mkTok 11 "false" 14 3 false; mkTok 42 "asx" 14 9 false; mkTok 4 "=" 14 13 false; mkTok 31 (string_of_bytes [34; 195; 169; 116; 195; 169; 34]%N) 14 15 false; mkTok 41 ";" 14 21 false; mkTok 44 "// packet A { u8 x, }" 14 22 true; mkTok 3 "}" 15 0 false; mkTok 35 "packet" 16 4 false; mkTok 42 "_x" 16 11 false; mkTok 44 "//x" 16 14 true; mkTok 2 "{" 17 0 false; mkTok 36 "repeat" 18 0 false; mkTok 42 "o" 19 0 false; mkTok 2 "{" 19 3 false; mkTok 12 "char[" 19 5 false; mkTok 30 "00" 19 11 false; mkTok 13 "]" 20 0 false; mkTok 42 "f32a" 20 2 false; mkTok 5 "@calculatedFrom(" 20 6 false; mkTok 31 """""" 21 4 false; mkTok 6 ")" 22 0 false; mkTok 40 "," 22 2 false; mkTok 42 "f32a" 23 0 false; mkTok 43 "`a\`" 23 5 false; mkTok 40 "," 23 11 false; mkTok 3 "}" 23 13 false; mkTok 40 "," 23 15 false; mkTok 3 "}" 23 17 false; mkTok 35 "packet" 23 18 false; mkTok 42 "falsey" 23 25 false; mkTok 2 "{" 23 32 false; mkTok 3 "}" 24 0 false; mkTok 35 "packet" 24 2 false; mkTok 42 "Z9_" 24 9 false; mkTok 2 "{" 25 0 false; mkTok 9 "@tag(" 25 2 false; mkTok 30 "0" 25 8 false; mkTok 6 ")" 25 10 false; mkTok 5 "@calculatedFrom(" 25 12 false; mkTok 31 """`tick`""" 25 29 false; mkTok 6 ")" 25 38 false; mkTok 44 "// a // b" 26 4 true; mkTok 9 "@tag(" 27 4 false; mkTok 30 "00" 27 10 false; mkTok 6 ")" 27 13 false; mkTok 12 "char[" 27 15 false; mkTok 30 "3" 27 21 false; mkTok 44 (string_of_bytes [47; 47; 32; 230; 179; 168; 233; 135; 138]%N) 27 23 true; mkTok 13 "]" 28 0 false; mkTok 42 "x" 28 2 false; mkTok 5 "@calculatedFrom(" 28 4 false; mkTok 31 """""" 28 21 false; mkTok 6 ")" 28 24 false; mkTok 40 "," 28 26 false; mkTok 44 "// @lengthOf(" 29 0 true; mkTok 44 "// packet A { u8 x, }" 30 0 true; mkTok 42 "Pad" 31 0 false; mkTok 5 "@calculatedFrom(" 31 5 false; mkTok 31 (string_of_bytes [34; 92; 195; 169; 34]%N) 31 22 false; mkTok 6 ")" 31 26 false; mkTok 40 "," 31 28 false; mkTok 32 "@rightPad" 31 29 false; mkTok 8 "(" 31 39 false; mkTok 33 "'0'" 31 42 false; mkTok 6 ")" 31 46 false; mkTok 16 "char[]" 31 48 false; mkTok 42 "trueish" 32 4 false; mkTok 7 "@lengthOf(" 32 12 false; mkTok 42 "packetx" 32 23 false; mkTok 6 ")" 33 0 false; mkTok 40 "," 34 0 false; mkTok 3 "}" 34 2 false; mkTok 44 "// c" 35 0 true; mkTok 0 "<EOF>" 36 0 false] (mkPacket (mkPtok 1 "options" 1 0 0) (Some (mkPtok 3 "}" 34 2 95)) [(DOption (mkOptionDef (mkSpan (mkPtok 1 "options" 1 0 0) (mkPtok 3 "}" 1 23 5)) (mkPtok 1 "options" 1 0 0) (mkPtok 2 "{" 1 8 1) [(mkOptionDecl (mkSpan (mkPtok 42 "tag" 1 9 2) (mkPtok 31 """`tick`""" 1 14 4)) (mkPtok 42 "tag" 1 9 2) (mkPtok 4 "=" 1 13 3) (VString (mkSpan (mkPtok 31 """`tick`""" 1 14 4) (mkPtok 31 """`tick`""" 1 14 4)) (mkPtok 31 """`tick`""" 1 14 4)) None)] (mkPtok 3 "}" 1 23 5))); (DOption (mkOptionDef (mkSpan (mkPtok 1 "options" 2 0 6) (mkPtok 3 "}" 15 0 30)) (mkPtok 1 "options" 2 0 6) (mkPtok 2 "{" 2 8 7) [(mkOptionDecl (mkSpan (mkPtok 42 "chars" 2 10 8) (mkPtok 41 ";" 6 4 13)) (mkPtok 42 "chars" 2 10 8) (mkPtok 4 "=" 5 0 11) (VDigits (mkSpan (mkPtok 30 "255" 6 0 12) (mkPtok 30 "255" 6 0 12)) (mkPtok 30 "255" 6 0 12)) (Some (mkPtok 41 ";" 6 4 13))); (mkOptionDecl (mkSpan (mkPtok 42 "int" 8 4 15) (mkPtok 31 """abc""" 9 0 17)) (mkPtok 42 "int" 8 4 15) (mkPtok 4 "=" 8 8 16) (VString (mkSpan (mkPtok 31 """abc""" 9 0 17) (mkPtok 31 """abc""" 9 0 17)) (mkPtok 31 """abc""" 9 0 17)) None); (mkOptionDecl (mkSpan (mkPtok 42 "string_" 9 6 18) (mkPtok 41 ";" 12 4 21)) (mkPtok 42 "string_" 9 6 18) (mkPtok 4 "=" 10 0 19) (VTrue (mkSpan (mkPtok 10 "true" 11 4 20) (mkPtok 10 "true" 11 4 20)) (mkPtok 10 "true" 11 4 20)) (Some (mkPtok 41 ";" 12 4 21))); (mkOptionDecl (mkSpan (mkPtok 42 "body" 13 4 22) (mkPtok 11 "false" 14 3 24)) (mkPtok 42 "body" 13 4 22) (mkPtok 4 "=" 14 0 23) (VFalse (mkSpan (mkPtok 11 "false" 14 3 24) (mkPtok 11 "false" 14 3 24)) (mkPtok 11 "false" 14 3 24)) None); (mkOptionDecl (mkSpan (mkPtok 42 "asx" 14 9 25) (mkPtok 41 ";" 14 21 28)) (mkPtok 42 "asx" 14 9 25) (mkPtok 4 "=" 14 13 26) (VString (mkSpan (mkPtok 31 (string_of_bytes [34; 195; 169; 116; 195; 169; 34]%N) 14 15 27) (mkPtok 31 (string_of_bytes [34; 195; 169; 116; 195; 169; 34]%N) 14 15 27)) (mkPtok 31 (string_of_bytes [34; 195; 169; 116; 195; 169; 34]%N) 14 15 27)) (Some (mkPtok 41 ";" 14 21 28)))] (mkPtok 3 "}" 15 0 30))); (DPacket (mkPacketDef (mkSpan (mkPtok 35 "packet" 16 4 31) (mkPtok 3 "}" 23 17 51)) None (mkPtok 35 "packet" 16 4 31) (mkPtok 42 "_x" 16 11 32) (mkPtok 2 "{" 17 0 34) [(mkFieldWithAttr (mkSpan (mkPtok 36 "repeat" 18 0 35) (mkPtok 40 "," 23 15 50)) [] (InerObjectField (mkSpan (mkPtok 36 "repeat" 18 0 35) (mkPtok 40 "," 23 15 50)) (Some (mkPtok 36 "repeat" 18 0 35)) (InerObjectDecl (mkSpan (mkPtok 42 "o" 19 0 36) (mkPtok 3 "}" 23 13 49)) (mkPtok 42 "o" 19 0 36) (mkPtok 2 "{" 19 3 37) [(CheckSumField (mkSpan (mkPtok 12 "char[" 19 5 38) (mkPtok 40 "," 22 2 45)) (mkChecksumFieldDecl (mkSpan (mkPtok 12 "char[" 19 5 38) (mkPtok 40 "," 22 2 45)) (Some (TyFixed (mkSpan (mkPtok 12 "char[" 19 5 38) (mkPtok 13 "]" 20 0 40)) (mkFixedString (mkSpan (mkPtok 12 "char[" 19 5 38) (mkPtok 13 "]" 20 0 40)) (mkPtok 12 "char[" 19 5 38) (mkPtok 30 "00" 19 11 39) (mkPtok 13 "]" 20 0 40)))) (mkPtok 42 "f32a" 20 2 41) (mkCalculatedFrom (mkSpan (mkPtok 5 "@calculatedFrom(" 20 6 42) (mkPtok 6 ")" 22 0 44)) (mkPtok 5 "@calculatedFrom(" 20 6 42) (mkPtok 31 """""" 21 4 43) (mkPtok 6 ")" 22 0 44)) None (mkPtok 40 "," 22 2 45))); (ObjectField (mkSpan (mkPtok 42 "f32a" 23 0 46) (mkPtok 40 "," 23 11 48)) None (mkPtok 42 "f32a" 23 0 46) None (Some (mkPtok 43 "`a\`" 23 5 47)) (mkPtok 40 "," 23 11 48))] (mkPtok 3 "}" 23 13 49)) (mkPtok 40 "," 23 15 50)))] (mkPtok 3 "}" 23 17 51))); (DPacket (mkPacketDef (mkSpan (mkPtok 35 "packet" 23 18 52) (mkPtok 3 "}" 24 0 55)) None (mkPtok 35 "packet" 23 18 52) (mkPtok 42 "falsey" 23 25 53) (mkPtok 2 "{" 23 32 54) [] (mkPtok 3 "}" 24 0 55))); (DPacket (mkPacketDef (mkSpan (mkPtok 35 "packet" 24 2 56) (mkPtok 3 "}" 34 2 95)) None (mkPtok 35 "packet" 24 2 56) (mkPtok 42 "Z9_" 24 9 57) (mkPtok 2 "{" 25 0 58) [(mkFieldWithAttr (mkSpan (mkPtok 9 "@tag(" 25 2 59) (mkPtok 40 "," 28 26 77)) [(FATag (mkSpan (mkPtok 9 "@tag(" 25 2 59) (mkPtok 6 ")" 25 10 61)) (mkTagAttr (mkSpan (mkPtok 9 "@tag(" 25 2 59) (mkPtok 6 ")" 25 10 61)) (mkPtok 9 "@tag(" 25 2 59) (mkPtok 30 "0" 25 8 60) (mkPtok 6 ")" 25 10 61))); (FACalculatedFrom (mkSpan (mkPtok 5 "@calculatedFrom(" 25 12 62) (mkPtok 6 ")" 25 38 64)) (mkCalculatedFrom (mkSpan (mkPtok 5 "@calculatedFrom(" 25 12 62) (mkPtok 6 ")" 25 38 64)) (mkPtok 5 "@calculatedFrom(" 25 12 62) (mkPtok 31 """`tick`""" 25 29 63) (mkPtok 6 ")" 25 38 64))); (FATag (mkSpan (mkPtok 9 "@tag(" 27 4 66) (mkPtok 6 ")" 27 13 68)) (mkTagAttr (mkSpan (mkPtok 9 "@tag(" 27 4 66) (mkPtok 6 ")" 27 13 68)) (mkPtok 9 "@tag(" 27 4 66) (mkPtok 30 "00" 27 10 67) (mkPtok 6 ")" 27 13 68)))] (CheckSumField (mkSpan (mkPtok 12 "char[" 27 15 69) (mkPtok 40 "," 28 26 77)) (mkChecksumFieldDecl (mkSpan (mkPtok 12 "char[" 27 15 69) (mkPtok 40 "," 28 26 77)) (Some (TyFixed (mkSpan (mkPtok 12 "char[" 27 15 69) (mkPtok 13 "]" 28 0 72)) (mkFixedString (mkSpan (mkPtok 12 "char[" 27 15 69) (mkPtok 13 "]" 28 0 72)) (mkPtok 12 "char[" 27 15 69) (mkPtok 30 "3" 27 21 70) (mkPtok 13 "]" 28 0 72)))) (mkPtok 42 "x" 28 2 73) (mkCalculatedFrom (mkSpan (mkPtok 5 "@calculatedFrom(" 28 4 74) (mkPtok 6 ")" 28 24 76)) (mkPtok 5 "@calculatedFrom(" 28 4 74) (mkPtok 31 """""" 28 21 75) (mkPtok 6 ")" 28 24 76)) None (mkPtok 40 "," 28 26 77)))); (mkFieldWithAttr (mkSpan (mkPtok 42 "Pad" 31 0 80) (mkPtok 40 "," 31 28 84)) [] (CheckSumField (mkSpan (mkPtok 42 "Pad" 31 0 80) (mkPtok 40 "," 31 28 84)) (mkChecksumFieldDecl (mkSpan (mkPtok 42 "Pad" 31 0 80) (mkPtok 40 "," 31 28 84)) None (mkPtok 42 "Pad" 31 0 80) (mkCalculatedFrom (mkSpan (mkPtok 5 "@calculatedFrom(" 31 5 81) (mkPtok 6 ")" 31 26 83)) (mkPtok 5 "@calculatedFrom(" 31 5 81) (mkPtok 31 (string_of_bytes [34; 92; 195; 169; 34]%N) 31 22 82) (mkPtok 6 ")" 31 26 83)) None (mkPtok 40 "," 31 28 84)))); (mkFieldWithAttr (mkSpan (mkPtok 32 "@rightPad" 31 29 85) (mkPtok 40 "," 34 0 94)) [(FAPadding (mkSpan (mkPtok 32 "@rightPad" 31 29 85) (mkPtok 6 ")" 31 46 88)) (mkPaddingAttr (mkSpan (mkPtok 32 "@rightPad" 31 29 85) (mkPtok 6 ")" 31 46 88)) (mkPtok 32 "@rightPad" 31 29 85) (mkPtok 8 "(" 31 39 86) (Some (mkPtok 33 "'0'" 31 42 87)) (mkPtok 6 ")" 31 46 88)))] (LengthField (mkSpan (mkPtok 16 "char[]" 31 48 89) (mkPtok 40 "," 34 0 94)) (mkLengthFieldDecl (mkSpan (mkPtok 16 "char[]" 31 48 89) (mkPtok 40 "," 34 0 94)) (Some (TyDynamic (mkSpan (mkPtok 16 "char[]" 31 48 89) (mkPtok 16 "char[]" 31 48 89)) (mkDynamicString (mkSpan (mkPtok 16 "char[]" 31 48 89) (mkPtok 16 "char[]" 31 48 89)) (mkPtok 16 "char[]" 31 48 89)))) (mkPtok 42 "trueish" 32 4 90) (mkLengthOf (mkSpan (mkPtok 7 "@lengthOf(" 32 12 91) (mkPtok 6 ")" 33 0 93)) (mkPtok 7 "@lengthOf(" 32 12 91) (mkPtok 42 "packetx" 32 23 92) (mkPtok 6 ")" 33 0 93)) None (mkPtok 40 "," 34 0 94))))] (mkPtok 3 "}" 34 2 95)))])).
-Eval vm_compute in ("<<<M1494>>>" ++ check (runes_of_ascii "root packet
-//	t
-/// triple
-calculatedFrom { char[0 ]
-Packet, }
-")).
-Eval vm_compute in ("<<<M1526>>>" ++ check (runes_of_ascii "
-packet charz { body{  zchar { repeat tag o ,} , int64
-    x ,
+Eval vm_compute in ("<<<T118>>>" ++ terms [mkTok 1 "options" 1 0 false; mkTok 2 "{" 2 0 false; mkTok 42 "u" 2 2 false; mkTok 44 "// packet A { u8 x, }" 2 4 true; mkTok 4 "=" 3 0 false; mkTok 44 "// 50% %s" 3 1 true; mkTok 26 "int32" 4 0 false; mkTok 42 "packetx" 4 6 false; mkTok 4 "=" 4 14 false; mkTok 31 """`tick`""" 4 16 false; mkTok 41 ";" 4 25 false; mkTok 42 "matchKey" 5 4 false; mkTok 4 "=" 5 12 false; mkTok 44 "// trailing space " 5 14 true; mkTok 33 "'0'" 6 0 false; mkTok 42 "As" 6 3 false; mkTok 4 "=" 6 6 false; mkTok 30 "3" 6 8 false; mkTok 44 "// packet A { u8 x, }" 7 0 true; mkTok 44 "//x" 8 0 true; mkTok 41 ";" 9 0 false; mkTok 42 "Packet" 9 2 false; mkTok 4 "=" 9 8 false; mkTok 10 "true" 9 9 false; mkTok 41 ";" 9 13 false; mkTok 3 "}" 9 15 false; mkTok 34 "root" 9 17 false; mkTok 35 "packet" 9 22 false; mkTok 42 "tag" 10 0 false; mkTok 2 "{" 10 4 false; mkTok 44 "// @lengthOf(" 10 6 true; mkTok 23 "u64" 11 0 false; mkTok 42 "stringy" 11 4 false; mkTok 40 "," 11 12 false; mkTok 36 "repeat" 11 14 false; mkTok 42 "options1" 11 21 false; mkTok 2 "{" 12 0 false; mkTok 14 "zchar[" 12 2 false; mkTok 30 "4294967296" 12 9 false; mkTok 13 "]" 13 0 false; mkTok 42 "f32a" 13 2 false; mkTok 43 "``" 13 7 false; mkTok 40 "," 13 10 false; mkTok 38 "match" 13 12 false; mkTok 42 "tag" 13 18 false; mkTok 17 "as" 13 22 false; mkTok 44 "//" 14 4 true; mkTok 42 "options1" 15 4 false; mkTok 2 "{" 15 13 false; mkTok 30 "10" 16 4 false; mkTok 39 ":" 16 7 false; mkTok 42 "A" 16 9 false; mkTok 44 "// c" 17 0 true; mkTok 44 "// c" 18 0 true; mkTok 40 "," 19 0 false; mkTok 30 "007" 19 3 false; mkTok 39 ":" 20 4 false; mkTok 42 "Pad" 20 6 false; mkTok 40 "," 20 10 false; mkTok 30 "0123456789" 20 12 false; mkTok 39 ":" 21 4 false; mkTok 42 "calculatedFrom" 21 6 false; mkTok 30 "7" 21 21 false; mkTok 39 ":" 21 23 false; mkTok 42 "stringy" 21 25 false; mkTok 40 "," 21 33 false; mkTok 18 "[" 22 0 false; mkTok 44 "// 50% %s" 22 2 true; mkTok 31 """a\""b""" 23 0 false; mkTok 40 "," 23 7 false; mkTok 44 (string_of_bytes [47; 47; 32; 230; 179; 168; 233; 135; 138]%N) 23 8 true; mkTok 30 "0123456789" 24 0 false; mkTok 13 "]" 24 11 false; mkTok 39 ":" 24 13 false; mkTok 42 "options1" 24 15 false; mkTok 40 "," 24 24 false; mkTok 30 "3" 24 26 false; mkTok 39 ":" 25 0 false; mkTok 42 "u8x" 26 0 false; mkTok 40 "," 26 3 false; mkTok 44 "// packet A { u8 x, }" 27 4 true; mkTok 3 "}" 28 4 false; mkTok 40 "," 28 6 false; mkTok 3 "}" 28 7 false; mkTok 40 "," 28 9 false; mkTok 3 "}" 29 4 false; mkTok 35 "packet" 29 5 false; mkTok 42 "len" 29 12 false; mkTok 2 "{" 29 16 false; mkTok 5 "@calculatedFrom(" 29 18 false; mkTok 44 "// packet A { u8 x, }" 30 0 true; mkTok 44 "// `tick` ""quote"" 'q'" 31 0 true; mkTok 31 (string_of_bytes [34; 195; 169; 116; 195; 169; 34]%N) 32 0 false; mkTok 6 ")" 32 6 false; mkTok 24 "i8" 32 7 false; mkTok 44 "// `tick` ""quote"" 'q'" 33 0 true; mkTok 44 (string_of_bytes [47; 47; 9; 116]%N) 34 0 true; mkTok 42 "repeatCount" 35 0 false; mkTok 7 "@lengthOf(" 35 12 false; mkTok 44 "// `tick` ""quote"" 'q'" 36 0 true; mkTok 44 (string_of_bytes [47; 47; 32; 240; 159; 152; 128; 32; 101; 109; 111; 106; 105]%N) 37 0 true; mkTok 42 "roots" 38 0 false; mkTok 6 ")" 38 6 false; mkTok 40 "," 38 8 false; mkTok 26 "int32" 39 0 false; mkTok 42 "i64_" 39 6 false; mkTok 44 "//" 39 10 true; mkTok 5 "@calculatedFrom(" 40 0 false; mkTok 31 """`tick`""" 40 17 false; mkTok 6 ")" 40 26 false; mkTok 40 "," 40 29 false; mkTok 32 "@rightPad" 41 4 false; mkTok 8 "(" 41 14 false; mkTok 33 "' '" 41 16 false; mkTok 6 ")" 41 20 false; mkTok 36 "repeat" 41 22 false; mkTok 16 "char[]" 42 0 false; mkTok 42 "u8x" 42 7 false; mkTok 44 (string_of_bytes [47; 47; 32; 240; 159; 152; 128; 32; 101; 109; 111; 106; 105]%N) 42 10 true; mkTok 40 "," 43 0 false; mkTok 32 "@rightPad" 43 2 false; mkTok 8 "(" 43 11 false; mkTok 33 "'\x00'" 43 12 false; mkTok 6 ")" 43 19 false; mkTok 42 "leftPad" 43 21 false; mkTok 2 "{" 43 28 false; mkTok 38 "match" 43 30 false; mkTok 42 "lengthOf" 43 36 false; mkTok 44 "// c" 43 45 true; mkTok 17 "as" 44 0 false; mkTok 42 "charz" 44 3 false; mkTok 2 "{" 44 9 false; mkTok 31 """1""" 44 11 false; mkTok 39 ":" 44 15 false; mkTok 42 "tag" 44 16 false; mkTok 31 """// no comment""" 44 21 false; mkTok 39 ":" 44 37 false; mkTok 42 "x" 45 0 false; mkTok 40 "," 45 1 false; mkTok 18 "[" 45 3 false; mkTok 31 (string_of_bytes [34; 195; 169; 116; 195; 169; 34]%N) 46 4 false; mkTok 40 "," 46 10 false; mkTok 31 """CRC32""" 46 11 false; mkTok 13 "]" 46 19 false; mkTok 39 ":" 46 21 false; mkTok 42 "pack" 46 23 false; mkTok 30 "3" 46 28 false; mkTok 39 ":" 46 29 false; mkTok 42 "charz" 46 31 false; mkTok 40 "," 46 37 false; mkTok 3 "}" 47 0 false; mkTok 40 "," 47 1 false; mkTok 3 "}" 47 3 false; mkTok 40 "," 47 5 false; mkTok 3 "}" 47 7 false; mkTok 1 "options" 47 9 false; mkTok 2 "{" 48 4 false; mkTok 3 "}" 49 0 false; mkTok 37 "MetaData" 50 4 false; mkTok 42 "matchKey" 51 0 false; mkTok 2 "{" 51 9 false; mkTok 23 "uint64" 51 10 false; mkTok 42 "repeatCount" 51 17 false; mkTok 40 "," 51 28 false; mkTok 42 "roots" 51 31 false; mkTok 42 "x_y_z" 52 0 false; mkTok 43 "`say ""hi""`" 53 0 false; mkTok 40 "," 54 0 false; mkTok 42 "roots" 54 2 false; mkTok 42 "As" 54 8 false; mkTok 40 "," 54 11 false; mkTok 42 "A" 54 13 false; mkTok 42 "crc" 54 15 false; mkTok 40 "," 54 19 false; mkTok 23 "uint64" 54 21 false; mkTok 42 "f32a" 54 28 false; mkTok 44 "// @lengthOf(" 54 33 true; mkTok 40 "," 55 0 false; mkTok 3 "}" 55 2 false; mkTok 0 "<EOF>" 56 0 false] (mkPacket (mkPtok 1 "options" 1 0 0) (Some (mkPtok 3 "}" 55 2 178)) [(DOption (mkOptionDef (mkSpan (mkPtok 1 "options" 1 0 0) (mkPtok 3 "}" 9 15 25)) (mkPtok 1 "options" 1 0 0) (mkPtok 2 "{" 2 0 1) [(mkOptionDecl (mkSpan (mkPtok 42 "u" 2 2 2) (mkPtok 26 "int32" 4 0 6)) (mkPtok 42 "u" 2 2 2) (mkPtok 4 "=" 3 0 4) (VType (mkSpan (mkPtok 26 "int32" 4 0 6) (mkPtok 26 "int32" 4 0 6)) (TyBasic (mkSpan (mkPtok 26 "int32" 4 0 6) (mkPtok 26 "int32" 4 0 6)) (mkBasicType (mkSpan (mkPtok 26 "int32" 4 0 6) (mkPtok 26 "int32" 4 0 6)) (mkPtok 26 "int32" 4 0 6)))) None); (mkOptionDecl (mkSpan (mkPtok 42 "packetx" 4 6 7) (mkPtok 41 ";" 4 25 10)) (mkPtok 42 "packetx" 4 6 7) (mkPtok 4 "=" 4 14 8) (VString (mkSpan (mkPtok 31 """`tick`""" 4 16 9) (mkPtok 31 """`tick`""" 4 16 9)) (mkPtok 31 """`tick`""" 4 16 9)) (Some (mkPtok 41 ";" 4 25 10))); (mkOptionDecl (mkSpan (mkPtok 42 "matchKey" 5 4 11) (mkPtok 33 "'0'" 6 0 14)) (mkPtok 42 "matchKey" 5 4 11) (mkPtok 4 "=" 5 12 12) (VPaddingChar (mkSpan (mkPtok 33 "'0'" 6 0 14) (mkPtok 33 "'0'" 6 0 14)) (mkPtok 33 "'0'" 6 0 14)) None); (mkOptionDecl (mkSpan (mkPtok 42 "As" 6 3 15) (mkPtok 41 ";" 9 0 20)) (mkPtok 42 "As" 6 3 15) (mkPtok 4 "=" 6 6 16) (VDigits (mkSpan (mkPtok 30 "3" 6 8 17) (mkPtok 30 "3" 6 8 17)) (mkPtok 30 "3" 6 8 17)) (Some (mkPtok 41 ";" 9 0 20))); (mkOptionDecl (mkSpan (mkPtok 42 "Packet" 9 2 21) (mkPtok 41 ";" 9 13 24)) (mkPtok 42 "Packet" 9 2 21) (mkPtok 4 "=" 9 8 22) (VTrue (mkSpan (mkPtok 10 "true" 9 9 23) (mkPtok 10 "true" 9 9 23)) (mkPtok 10 "true" 9 9 23)) (Some (mkPtok 41 ";" 9 13 24)))] (mkPtok 3 "}" 9 15 25))); (DPacket (mkPacketDef (mkSpan (mkPtok 34 "root" 9 17 26) (mkPtok 3 "}" 29 4 85)) (Some (mkPtok 34 "root" 9 17 26)) (mkPtok 35 "packet" 9 22 27) (mkPtok 42 "tag" 10 0 28) (mkPtok 2 "{" 10 4 29) [(mkFieldWithAttr (mkSpan (mkPtok 23 "u64" 11 0 31) (mkPtok 40 "," 11 12 33)) [] (MetaField (mkSpan (mkPtok 23 "u64" 11 0 31) (mkPtok 40 "," 11 12 33)) None (mkMetaDecl (mkSpan (mkPtok 23 "u64" 11 0 31) (mkPtok 40 "," 11 12 33)) (TyBasic (mkSpan (mkPtok 23 "u64" 11 0 31) (mkPtok 23 "u64" 11 0 31)) (mkBasicType (mkSpan (mkPtok 23 "u64" 11 0 31) (mkPtok 23 "u64" 11 0 31)) (mkPtok 23 "u64" 11 0 31))) (mkPtok 42 "stringy" 11 4 32) None (mkPtok 40 "," 11 12 33)))); (mkFieldWithAttr (mkSpan (mkPtok 36 "repeat" 11 14 34) (mkPtok 40 "," 28 9 84)) [] (InerObjectField (mkSpan (mkPtok 36 "repeat" 11 14 34) (mkPtok 40 "," 28 9 84)) (Some (mkPtok 36 "repeat" 11 14 34)) (InerObjectDecl (mkSpan (mkPtok 42 "options1" 11 21 35) (mkPtok 3 "}" 28 7 83)) (mkPtok 42 "options1" 11 21 35) (mkPtok 2 "{" 12 0 36) [(MetaField (mkSpan (mkPtok 14 "zchar[" 12 2 37) (mkPtok 40 "," 13 10 42)) None (mkMetaDecl (mkSpan (mkPtok 14 "zchar[" 12 2 37) (mkPtok 40 "," 13 10 42)) (TyFixed (mkSpan (mkPtok 14 "zchar[" 12 2 37) (mkPtok 13 "]" 13 0 39)) (mkFixedString (mkSpan (mkPtok 14 "zchar[" 12 2 37) (mkPtok 13 "]" 13 0 39)) (mkPtok 14 "zchar[" 12 2 37) (mkPtok 30 "4294967296" 12 9 38) (mkPtok 13 "]" 13 0 39))) (mkPtok 42 "f32a" 13 2 40) (Some (mkPtok 43 "``" 13 7 41)) (mkPtok 40 "," 13 10 42))); (MatchField (mkSpan (mkPtok 38 "match" 13 12 43) (mkPtok 40 "," 28 6 82)) (mkMatchFieldDecl (mkSpan (mkPtok 38 "match" 13 12 43) (mkPtok 3 "}" 28 4 81)) (mkPtok 38 "match" 13 12 43) (mkPtok 42 "tag" 13 18 44) (mkPtok 17 "as" 13 22 45) (mkPtok 42 "options1" 15 4 47) (mkPtok 2 "{" 15 13 48) [(mkMatchPair (mkSpan (mkPtok 30 "10" 16 4 49) (mkPtok 40 "," 19 0 54)) (MKDigits (mkPtok 30 "10" 16 4 49)) (mkPtok 39 ":" 16 7 50) (mkPtok 42 "A" 16 9 51) (Some (mkPtok 40 "," 19 0 54))); (mkMatchPair (mkSpan (mkPtok 30 "007" 19 3 55) (mkPtok 40 "," 20 10 58)) (MKDigits (mkPtok 30 "007" 19 3 55)) (mkPtok 39 ":" 20 4 56) (mkPtok 42 "Pad" 20 6 57) (Some (mkPtok 40 "," 20 10 58))); (mkMatchPair (mkSpan (mkPtok 30 "0123456789" 20 12 59) (mkPtok 42 "calculatedFrom" 21 6 61)) (MKDigits (mkPtok 30 "0123456789" 20 12 59)) (mkPtok 39 ":" 21 4 60) (mkPtok 42 "calculatedFrom" 21 6 61) None); (mkMatchPair (mkSpan (mkPtok 30 "7" 21 21 62) (mkPtok 40 "," 21 33 65)) (MKDigits (mkPtok 30 "7" 21 21 62)) (mkPtok 39 ":" 21 23 63) (mkPtok 42 "stringy" 21 25 64) (Some (mkPtok 40 "," 21 33 65))); (mkMatchPair (mkSpan (mkPtok 18 "[" 22 0 66) (mkPtok 40 "," 24 24 75)) (MKList (mkKeyList (mkSpan (mkPtok 18 "[" 22 0 66) (mkPtok 13 "]" 24 11 72)) (mkPtok 18 "[" 22 0 66) (mkPtok 31 """a\""b""" 23 0 68) [((mkPtok 40 "," 23 7 69), (mkPtok 30 "0123456789" 24 0 71))] (mkPtok 13 "]" 24 11 72))) (mkPtok 39 ":" 24 13 73) (mkPtok 42 "options1" 24 15 74) (Some (mkPtok 40 "," 24 24 75))); (mkMatchPair (mkSpan (mkPtok 30 "3" 24 26 76) (mkPtok 40 "," 26 3 79)) (MKDigits (mkPtok 30 "3" 24 26 76)) (mkPtok 39 ":" 25 0 77) (mkPtok 42 "u8x" 26 0 78) (Some (mkPtok 40 "," 26 3 79)))] (mkPtok 3 "}" 28 4 81)) (mkPtok 40 "," 28 6 82))] (mkPtok 3 "}" 28 7 83)) (mkPtok 40 "," 28 9 84)))] (mkPtok 3 "}" 29 4 85))); (DPacket (mkPacketDef (mkSpan (mkPtok 35 "packet" 29 5 86) (mkPtok 3 "}" 47 7 154)) None (mkPtok 35 "packet" 29 5 86) (mkPtok 42 "len" 29 12 87) (mkPtok 2 "{" 29 16 88) [(mkFieldWithAttr (mkSpan (mkPtok 5 "@calculatedFrom(" 29 18 89) (mkPtok 40 "," 38 8 103)) [(FACalculatedFrom (mkSpan (mkPtok 5 "@calculatedFrom(" 29 18 89) (mkPtok 6 ")" 32 6 93)) (mkCalculatedFrom (mkSpan (mkPtok 5 "@calculatedFrom(" 29 18 89) (mkPtok 6 ")" 32 6 93)) (mkPtok 5 "@calculatedFrom(" 29 18 89) (mkPtok 31 (string_of_bytes [34; 195; 169; 116; 195; 169; 34]%N) 32 0 92) (mkPtok 6 ")" 32 6 93)))] (LengthField (mkSpan (mkPtok 24 "i8" 32 7 94) (mkPtok 40 "," 38 8 103)) (mkLengthFieldDecl (mkSpan (mkPtok 24 "i8" 32 7 94) (mkPtok 40 "," 38 8 103)) (Some (TyBasic (mkSpan (mkPtok 24 "i8" 32 7 94) (mkPtok 24 "i8" 32 7 94)) (mkBasicType (mkSpan (mkPtok 24 "i8" 32 7 94) (mkPtok 24 "i8" 32 7 94)) (mkPtok 24 "i8" 32 7 94)))) (mkPtok 42 "repeatCount" 35 0 97) (mkLengthOf (mkSpan (mkPtok 7 "@lengthOf(" 35 12 98) (mkPtok 6 ")" 38 6 102)) (mkPtok 7 "@lengthOf(" 35 12 98) (mkPtok 42 "roots" 38 0 101) (mkPtok 6 ")" 38 6 102)) None (mkPtok 40 "," 38 8 103)))); (mkFieldWithAttr (mkSpan (mkPtok 26 "int32" 39 0 104) (mkPtok 40 "," 40 29 110)) [] (CheckSumField (mkSpan (mkPtok 26 "int32" 39 0 104) (mkPtok 40 "," 40 29 110)) (mkChecksumFieldDecl (mkSpan (mkPtok 26 "int32" 39 0 104) (mkPtok 40 "," 40 29 110)) (Some (TyBasic (mkSpan (mkPtok 26 "int32" 39 0 104) (mkPtok 26 "int32" 39 0 104)) (mkBasicType (mkSpan (mkPtok 26 "int32" 39 0 104) (mkPtok 26 "int32" 39 0 104)) (mkPtok 26 "int32" 39 0 104)))) (mkPtok 42 "i64_" 39 6 105) (mkCalculatedFrom (mkSpan (mkPtok 5 "@calculatedFrom(" 40 0 107) (mkPtok 6 ")" 40 26 109)) (mkPtok 5 "@calculatedFrom(" 40 0 107) (mkPtok 31 """`tick`""" 40 17 108) (mkPtok 6 ")" 40 26 109)) None (mkPtok 40 "," 40 29 110)))); (mkFieldWithAttr (mkSpan (mkPtok 32 "@rightPad" 41 4 111) (mkPtok 40 "," 43 0 119)) [(FAPadding (mkSpan (mkPtok 32 "@rightPad" 41 4 111) (mkPtok 6 ")" 41 20 114)) (mkPaddingAttr (mkSpan (mkPtok 32 "@rightPad" 41 4 111) (mkPtok 6 ")" 41 20 114)) (mkPtok 32 "@rightPad" 41 4 111) (mkPtok 8 "(" 41 14 112) (Some (mkPtok 33 "' '" 41 16 113)) (mkPtok 6 ")" 41 20 114)))] (MetaField (mkSpan (mkPtok 36 "repeat" 41 22 115) (mkPtok 40 "," 43 0 119)) (Some (mkPtok 36 "repeat" 41 22 115)) (mkMetaDecl (mkSpan (mkPtok 16 "char[]" 42 0 116) (mkPtok 40 "," 43 0 119)) (TyDynamic (mkSpan (mkPtok 16 "char[]" 42 0 116) (mkPtok 16 "char[]" 42 0 116)) (mkDynamicString (mkSpan (mkPtok 16 "char[]" 42 0 116) (mkPtok 16 "char[]" 42 0 116)) (mkPtok 16 "char[]" 42 0 116))) (mkPtok 42 "u8x" 42 7 117) None (mkPtok 40 "," 43 0 119)))); (mkFieldWithAttr (mkSpan (mkPtok 32 "@rightPad" 43 2 120) (mkPtok 40 "," 47 5 153)) [(FAPadding (mkSpan (mkPtok 32 "@rightPad" 43 2 120) (mkPtok 6 ")" 43 19 123)) (mkPaddingAttr (mkSpan (mkPtok 32 "@rightPad" 43 2 120) (mkPtok 6 ")" 43 19 123)) (mkPtok 32 "@rightPad" 43 2 120) (mkPtok 8 "(" 43 11 121) (Some (mkPtok 33 "'\x00'" 43 12 122)) (mkPtok 6 ")" 43 19 123)))] (InerObjectField (mkSpan (mkPtok 42 "leftPad" 43 21 124) (mkPtok 40 "," 47 5 153)) None (InerObjectDecl (mkSpan (mkPtok 42 "leftPad" 43 21 124) (mkPtok 3 "}" 47 3 152)) (mkPtok 42 "leftPad" 43 21 124) (mkPtok 2 "{" 43 28 125) [(MatchField (mkSpan (mkPtok 38 "match" 43 30 126) (mkPtok 40 "," 47 1 151)) (mkMatchFieldDecl (mkSpan (mkPtok 38 "match" 43 30 126) (mkPtok 3 "}" 47 0 150)) (mkPtok 38 "match" 43 30 126) (mkPtok 42 "lengthOf" 43 36 127) (mkPtok 17 "as" 44 0 129) (mkPtok 42 "charz" 44 3 130) (mkPtok 2 "{" 44 9 131) [(mkMatchPair (mkSpan (mkPtok 31 """1""" 44 11 132) (mkPtok 42 "tag" 44 16 134)) (MKString (mkPtok 31 """1""" 44 11 132)) (mkPtok 39 ":" 44 15 133) (mkPtok 42 "tag" 44 16 134) None); (mkMatchPair (mkSpan (mkPtok 31 """// no comment""" 44 21 135) (mkPtok 40 "," 45 1 138)) (MKString (mkPtok 31 """// no comment""" 44 21 135)) (mkPtok 39 ":" 44 37 136) (mkPtok 42 "x" 45 0 137) (Some (mkPtok 40 "," 45 1 138))); (mkMatchPair (mkSpan (mkPtok 18 "[" 45 3 139) (mkPtok 42 "pack" 46 23 145)) (MKList (mkKeyList (mkSpan (mkPtok 18 "[" 45 3 139) (mkPtok 13 "]" 46 19 143)) (mkPtok 18 "[" 45 3 139) (mkPtok 31 (string_of_bytes [34; 195; 169; 116; 195; 169; 34]%N) 46 4 140) [((mkPtok 40 "," 46 10 141), (mkPtok 31 """CRC32""" 46 11 142))] (mkPtok 13 "]" 46 19 143))) (mkPtok 39 ":" 46 21 144) (mkPtok 42 "pack" 46 23 145) None); (mkMatchPair (mkSpan (mkPtok 30 "3" 46 28 146) (mkPtok 40 "," 46 37 149)) (MKDigits (mkPtok 30 "3" 46 28 146)) (mkPtok 39 ":" 46 29 147) (mkPtok 42 "charz" 46 31 148) (Some (mkPtok 40 "," 46 37 149)))] (mkPtok 3 "}" 47 0 150)) (mkPtok 40 "," 47 1 151))] (mkPtok 3 "}" 47 3 152)) (mkPtok 40 "," 47 5 153)))] (mkPtok 3 "}" 47 7 154))); (DOption (mkOptionDef (mkSpan (mkPtok 1 "options" 47 9 155) (mkPtok 3 "}" 49 0 157)) (mkPtok 1 "options" 47 9 155) (mkPtok 2 "{" 48 4 156) [] (mkPtok 3 "}" 49 0 157))); (DMeta (mkMetaDef (mkSpan (mkPtok 37 "MetaData" 50 4 158) (mkPtok 3 "}" 55 2 178)) (mkPtok 37 "MetaData" 50 4 158) (mkPtok 42 "matchKey" 51 0 159) (mkPtok 2 "{" 51 9 160) [(MIDecl (mkMetaDecl (mkSpan (mkPtok 23 "uint64" 51 10 161) (mkPtok 40 "," 51 28 163)) (TyBasic (mkSpan (mkPtok 23 "uint64" 51 10 161) (mkPtok 23 "uint64" 51 10 161)) (mkBasicType (mkSpan (mkPtok 23 "uint64" 51 10 161) (mkPtok 23 "uint64" 51 10 161)) (mkPtok 23 "uint64" 51 10 161))) (mkPtok 42 "repeatCount" 51 17 162) None (mkPtok 40 "," 51 28 163))); (MIRef (mkRefMetaDecl (mkSpan (mkPtok 42 "roots" 51 31 164) (mkPtok 40 "," 54 0 167)) (mkPtok 42 "roots" 51 31 164) (mkPtok 42 "x_y_z" 52 0 165) (Some (mkPtok 43 "`say ""hi""`" 53 0 166)) (mkPtok 40 "," 54 0 167))); (MIRef (mkRefMetaDecl (mkSpan (mkPtok 42 "roots" 54 2 168) (mkPtok 40 "," 54 11 170)) (mkPtok 42 "roots" 54 2 168) (mkPtok 42 "As" 54 8 169) None (mkPtok 40 "," 54 11 170))); (MIRef (mkRefMetaDecl (mkSpan (mkPtok 42 "A" 54 13 171) (mkPtok 40 "," 54 19 173)) (mkPtok 42 "A" 54 13 171) (mkPtok 42 "crc" 54 15 172) None (mkPtok 40 "," 54 19 173))); (MIDecl (mkMetaDecl (mkSpan (mkPtok 23 "uint64" 54 21 174) (mkPtok 40 "," 55 0 177)) (TyBasic (mkSpan (mkPtok 23 "uint64" 54 21 174) (mkPtok 23 "uint64" 54 21 174)) (mkBasicType (mkSpan (mkPtok 23 "uint64" 54 21 174) (mkPtok 23 "uint64" 54 21 174)) (mkPtok 23 "uint64" 54 21 174))) (mkPtok 42 "f32a" 54 28 175) None (mkPtok 40 "," 55 0 177)))] (mkPtok 3 "}" 55 2 178)))])).
+Eval vm_compute in ("<<<M150>>>" ++ check (runes_of_ascii "packet u8x{ float32
+roots `u8 x,`
+,  repeat float32 crc
+    `" ++ [28040; 24687; 31867; 22411]%N ++ runes_of_ascii "`
+    ,u32
+pack
+// 50% %s
+// " ++ [27880; 37322]%N ++ runes_of_ascii "
+@lengthOf(f32a ) `100% of %d`,// " ++ [128512]%N ++ runes_of_ascii " emoji
+match u128
+as _x
+// trailing space 
+// packet A { u8 x, }
+{[ 65535 ]
+:MetaDataX ,//x
+}
+, }packet x_y_z {	@rightPad
+( '\x00' )i64
+    /// triple
+    roots, @calculatedFrom(
+// " ++ [27880; 37322]%N ++ runes_of_ascii "
+//
+""packet"" ) match o as
+    trueish	{	[ 1
+    ,
+0123456789
+] :  u8x	,
+    //	t
     } , }
 ")).
-Eval vm_compute in ("<<<M1558>>>" ++ check (runes_of_ascii "// " ++ [128512]%N ++ runes_of_ascii " emoji
-packet u128 {crc , @tag( 255
-    )
-@calculatedFrom( ""abc"" )As
-, @lengthOf( //x
-Pad
-    ) options1
-    //
-    `two words`
-    , }")).
-Eval vm_compute in ("<<<M1590>>>" ++ check (runes_of_ascii "packet  packetx {@lengthOf( stringy ) repeat zchar[00
-] lengthOf, repeat
-    body pack `` , int64 leftPad ,
-} root packet MetaDataX{crc uint8x//
-, @tag( 65535) @leftPad (	)
-    tag
-{ msg_type crc  ,	}
-, u8x @lengthOf(zchar	) `u8 x,`
-    // trailing space 
-    ,@lengthOf(a1
-    ) @tag( 42  ) match chars as BodyLength
-{// a // b
-00 :
-BodyLength""x y"":packetx , 3 : uint8x} , }
-packet x { @tag( 1 )int16 As @lengthOf(
-leftPad ) `a\` ,
-    // c
-    metadata `say ""hi""`
-    , @lengthOf(
-    o )string
-Logon@calculatedFrom( ""{,}"") `doc` , }
-")).
-Eval vm_compute in ("<<<M1622>>>" ++ check (runes_of_ascii "root
-    packet body // @lengthOf(
-{
-} root
-    packet int
-    {
-} options
-{ MetaDataX =u32 x =""1"" ; }packet Z9_{ repeatCount @lengthOf(i64_
-)  ,
-@lengthOf( Logon) match
-    asx // @lengthOf(
-as // packet A { u8 x, }
-crc {
-0123456789: charz,	""\" ++ [233]%N ++ runes_of_ascii """  :
-    A 00
-    :Packet ,[
-""// no comment""
-] : Header ,},@calculatedFrom(	""abc"" ) string As `tab	here` , }
+Eval vm_compute in ("<<<M182>>>" ++ check (runes_of_ascii "
 
 ")).
-Eval vm_compute in ("<<<M1654>>>" ++ check (runes_of_ascii "MetaData
-u8x {	u64 calculatedFrom
-,
-    }MetaData Packet { Foo Logon	, } MetaData tag{ }
+Eval vm_compute in ("<<<M214>>>" ++ check (runes_of_ascii "
 ")).
-Eval vm_compute in ("<<<M1686>>>" ++ check (runes_of_ascii "packet repeatCount{ char[ 7 ] /// triple
-pack ,	@tag(
-7 ) repeat//
-uint8x roots , @tag( 255 ) repeat
-    u32 matchKey `two words` ,
-@lengthOf(
-_x// @lengthOf(
-)
-    repeat char[]// a // b
-i64_ //x
-`tab	here`
-// `tick` ""quote"" 'q'
-// " ++ [128512]%N ++ runes_of_ascii " emoji
-,
-    } 	 ")).
-Eval vm_compute in ("<<<T1686>>>" ++ terms [mkTok 35 "packet" 1 0 false; mkTok 42 "repeatCount" 1 7 false; mkTok 2 "{" 1 18 false; mkTok 12 "char[" 1 20 false; mkTok 30 "7" 1 26 false; mkTok 13 "]" 1 28 false; mkTok 44 "/// triple" 1 30 true; mkTok 42 "pack" 2 0 false; mkTok 40 "," 2 5 false; mkTok 9 "@tag(" 2 7 false; mkTok 30 "7" 3 0 false; mkTok 6 ")" 3 2 false; mkTok 36 "repeat" 3 4 false; mkTok 44 "//" 3 10 true; mkTok 42 "uint8x" 4 0 false; mkTok 42 "roots" 4 7 false; mkTok 40 "," 4 13 false; mkTok 9 "@tag(" 4 15 false; mkTok 30 "255" 4 21 false; mkTok 6 ")" 4 25 false; mkTok 36 "repeat" 4 27 false; mkTok 22 "u32" 5 4 false; mkTok 42 "matchKey" 5 8 false; mkTok 43 "`two words`" 5 17 false; mkTok 40 "," 5 29 false; mkTok 7 "@lengthOf(" 6 0 false; mkTok 42 "_x" 7 0 false; mkTok 44 "// @lengthOf(" 7 2 true; mkTok 6 ")" 8 0 false; mkTok 36 "repeat" 9 4 false; mkTok 16 "char[]" 9 11 false; mkTok 44 "// a // b" 9 17 true; mkTok 42 "i64_" 10 0 false; mkTok 44 "//x" 10 5 true; mkTok 43 (string_of_bytes [96; 116; 97; 98; 9; 104; 101; 114; 101; 96]%N) 11 0 false; mkTok 44 "// `tick` ""quote"" 'q'" 12 0 true; mkTok 44 (string_of_bytes [47; 47; 32; 240; 159; 152; 128; 32; 101; 109; 111; 106; 105]%N) 13 0 true; mkTok 40 "," 14 0 false; mkTok 3 "}" 15 4 false; mkTok 0 "<EOF>" 15 8 false] (mkPacket (mkPtok 35 "packet" 1 0 0) (Some (mkPtok 3 "}" 15 4 38)) [(DPacket (mkPacketDef (mkSpan (mkPtok 35 "packet" 1 0 0) (mkPtok 3 "}" 15 4 38)) None (mkPtok 35 "packet" 1 0 0) (mkPtok 42 "repeatCount" 1 7 1) (mkPtok 2 "{" 1 18 2) [(mkFieldWithAttr (mkSpan (mkPtok 12 "char[" 1 20 3) (mkPtok 40 "," 2 5 8)) [] (MetaField (mkSpan (mkPtok 12 "char[" 1 20 3) (mkPtok 40 "," 2 5 8)) None (mkMetaDecl (mkSpan (mkPtok 12 "char[" 1 20 3) (mkPtok 40 "," 2 5 8)) (TyFixed (mkSpan (mkPtok 12 "char[" 1 20 3) (mkPtok 13 "]" 1 28 5)) (mkFixedString (mkSpan (mkPtok 12 "char[" 1 20 3) (mkPtok 13 "]" 1 28 5)) (mkPtok 12 "char[" 1 20 3) (mkPtok 30 "7" 1 26 4) (mkPtok 13 "]" 1 28 5))) (mkPtok 42 "pack" 2 0 7) None (mkPtok 40 "," 2 5 8)))); (mkFieldWithAttr (mkSpan (mkPtok 9 "@tag(" 2 7 9) (mkPtok 40 "," 4 13 16)) [(FATag (mkSpan (mkPtok 9 "@tag(" 2 7 9) (mkPtok 6 ")" 3 2 11)) (mkTagAttr (mkSpan (mkPtok 9 "@tag(" 2 7 9) (mkPtok 6 ")" 3 2 11)) (mkPtok 9 "@tag(" 2 7 9) (mkPtok 30 "7" 3 0 10) (mkPtok 6 ")" 3 2 11)))] (ObjectField (mkSpan (mkPtok 36 "repeat" 3 4 12) (mkPtok 40 "," 4 13 16)) (Some (mkPtok 36 "repeat" 3 4 12)) (mkPtok 42 "uint8x" 4 0 14) (Some (mkPtok 42 "roots" 4 7 15)) None (mkPtok 40 "," 4 13 16))); (mkFieldWithAttr (mkSpan (mkPtok 9 "@tag(" 4 15 17) (mkPtok 40 "," 5 29 24)) [(FATag (mkSpan (mkPtok 9 "@tag(" 4 15 17) (mkPtok 6 ")" 4 25 19)) (mkTagAttr (mkSpan (mkPtok 9 "@tag(" 4 15 17) (mkPtok 6 ")" 4 25 19)) (mkPtok 9 "@tag(" 4 15 17) (mkPtok 30 "255" 4 21 18) (mkPtok 6 ")" 4 25 19)))] (MetaField (mkSpan (mkPtok 36 "repeat" 4 27 20) (mkPtok 40 "," 5 29 24)) (Some (mkPtok 36 "repeat" 4 27 20)) (mkMetaDecl (mkSpan (mkPtok 22 "u32" 5 4 21) (mkPtok 40 "," 5 29 24)) (TyBasic (mkSpan (mkPtok 22 "u32" 5 4 21) (mkPtok 22 "u32" 5 4 21)) (mkBasicType (mkSpan (mkPtok 22 "u32" 5 4 21) (mkPtok 22 "u32" 5 4 21)) (mkPtok 22 "u32" 5 4 21))) (mkPtok 42 "matchKey" 5 8 22) (Some (mkPtok 43 "`two words`" 5 17 23)) (mkPtok 40 "," 5 29 24)))); (mkFieldWithAttr (mkSpan (mkPtok 7 "@lengthOf(" 6 0 25) (mkPtok 40 "," 14 0 37)) [(FALengthOf (mkSpan (mkPtok 7 "@lengthOf(" 6 0 25) (mkPtok 6 ")" 8 0 28)) (mkLengthOf (mkSpan (mkPtok 7 "@lengthOf(" 6 0 25) (mkPtok 6 ")" 8 0 28)) (mkPtok 7 "@lengthOf(" 6 0 25) (mkPtok 42 "_x" 7 0 26) (mkPtok 6 ")" 8 0 28)))] (MetaField (mkSpan (mkPtok 36 "repeat" 9 4 29) (mkPtok 40 "," 14 0 37)) (Some (mkPtok 36 "repeat" 9 4 29)) (mkMetaDecl (mkSpan (mkPtok 16 "char[]" 9 11 30) (mkPtok 40 "," 14 0 37)) (TyDynamic (mkSpan (mkPtok 16 "char[]" 9 11 30) (mkPtok 16 "char[]" 9 11 30)) (mkDynamicString (mkSpan (mkPtok 16 "char[]" 9 11 30) (mkPtok 16 "char[]" 9 11 30)) (mkPtok 16 "char[]" 9 11 30))) (mkPtok 42 "i64_" 10 0 32) (Some (mkPtok 43 (string_of_bytes [96; 116; 97; 98; 9; 104; 101; 114; 101; 96]%N) 11 0 34)) (mkPtok 40 "," 14 0 37))))] (mkPtok 3 "}" 15 4 38)))])).
-Eval vm_compute in ("<<<M1718>>>" ++ check (runes_of_ascii "
-packet body{ stringy{
-repeatCount @lengthOf(
-float )
-, // " ++ [27880; 37322]%N ++ runes_of_ascii "
-asx options1
-// " ++ [27880; 37322]%N ++ runes_of_ascii "
-// @lengthOf(
-,charz `tab	here`
-/// triple
-// " ++ [128512]%N ++ runes_of_ascii " emoji
-,repeat /// triple
-f32 Foo
-,}
-,
-    }")).
-Eval vm_compute in ("<<<M1750>>>" ++ check (runes_of_ascii "
-")).
-Eval vm_compute in ("<<<M1782>>>" ++ check (runes_of_ascii "options
-    {stringy
-=	7 ; }")).
-Eval vm_compute in ("<<<M1814>>>" ++ check (runes_of_ascii "options { i64_ = char[ 4294967296
-    ];trueish
-= //x
-""CRC32""
-    Pad
-    =/// triple
-float32 Pad = """ ++ [128512]%N ++ runes_of_ascii """ ; // a // b
-f32a = zchar[00
-]
-//x
-// " ++ [27880; 37322]%N ++ runes_of_ascii "
-;
-    } packet repeatCount { @lengthOf(trueish ) char[65535 ]x_y_z	@lengthOf( Header
-)
-    `say ""hi""`, repeat crc
-, match
-uint8x
-as
-    // @lengthOf(
-    _x {
-[ ""\" ++ [233]%N ++ runes_of_ascii """ ]
-    // " ++ [128512]%N ++ runes_of_ascii " emoji
-    : int ,"""": T, """" : tag
-// @lengthOf(
-// " ++ [27880; 37322]%N ++ runes_of_ascii "
-,}, repeat char[ 4294967296]  chars
-,
-char[
-00
-] pack , charz ,
-    @tag( 10
-    // trailing space 
-    )	char[]
-//x
-// " ++ [128512]%N ++ runes_of_ascii " emoji
-u128@calculatedFrom(""a	b"" ) , char[
-3]
-Logon@lengthOf(Packet
-    )`" ++ [233]%N ++ runes_of_ascii "`,crc  ,
-    char  _x`crlf
-line` , }	MetaData
-asx {
-    T Logon ,u32
-chars, i32	stringy
-    `tab	here`	,string metadata  ,	repeatCount Logon
-    //
-    , u32 falsey
-,
-}
-MetaData	float { // packet A { u8 x, }
-zchar[3
-    ] T , }options
-{ float = zchar[ 3 ]; lengthOf =false ; f32a
-=// c
-""// no comment"" ; } 	 ")).
-Eval vm_compute in ("<<<M1846>>>" ++ check (runes_of_ascii "//
-packet float
-{  @calculatedFrom( """ ++ [233]%N ++ runes_of_ascii "t" ++ [233]%N ++ runes_of_ascii """ ) @lengthOf( calculatedFrom) zchar[// " ++ [128512]%N ++ runes_of_ascii " emoji
-7	]
-stringy	@calculatedFrom(""it's""
-// `tick` ""quote"" 'q'
-// `tick` ""quote"" 'q'
-)
-`it's`
+Eval vm_compute in ("<<<M246>>>" ++ check (runes_of_ascii "root packet calculatedFrom
+{}	packet
+u
+    { u64  len
 , }
-root
-    packet MetaDataX{ } root packet i64_ {u falsey , }")).
-Eval vm_compute in ("<<<M1878>>>" ++ check (runes_of_ascii "packet
-x {
-}  packet	MetaDataX {
+")).
+Eval vm_compute in ("<<<M278>>>" ++ check (runes_of_ascii "packet As { // c
+repeat int32
+charz `doc` , }
+MetaData options1 //x
+{ } MetaData BodyLength { falsey u8x
+// a // b
+// packet A { u8 x, }
+`two words`, string_ u8x
+`{ , }` , string_	i64_
+//x
+// " ++ [128512]%N ++ runes_of_ascii " emoji
+`100% of %d`,
+int8 asx
+`tab	here`
+    ,
+    } packet f32a{ @leftPad ( ' ') char[ 1 ] msg_type
+@calculatedFrom( ""it's"" ),  msg_type, }
+")).
+Eval vm_compute in ("<<<M310>>>" ++ check (runes_of_ascii "
+")).
+Eval vm_compute in ("<<<M342>>>" ++ check (runes_of_ascii "//	t
+options
+    { // 50% %s
+body = 3
     }
 ")).
-Eval vm_compute in ("<<<M1910>>>" ++ check (@nil rune)).
-Eval vm_compute in ("<<<T1910>>>" ++ terms [mkTok 0 "<EOF>" 1 0 false] (mkPacket (mkPtok 0 "<EOF>" 1 0 0) None [])).
-Eval vm_compute in ("<<<M1942>>>" ++ check (runes_of_ascii "options { falsey = 10 ; } packet zchar { @leftPad( '\x00'	) match packetx
-    as
-rootA
+Eval vm_compute in ("<<<T342>>>" ++ terms [mkTok 44 (string_of_bytes [47; 47; 9; 116]%N) 1 0 true; mkTok 1 "options" 2 0 false; mkTok 2 "{" 3 4 false; mkTok 44 "// 50% %s" 3 6 true; mkTok 42 "body" 4 0 false; mkTok 4 "=" 4 5 false; mkTok 30 "3" 4 7 false; mkTok 3 "}" 5 4 false; mkTok 0 "<EOF>" 6 0 false] (mkPacket (mkPtok 1 "options" 2 0 1) (Some (mkPtok 3 "}" 5 4 7)) [(DOption (mkOptionDef (mkSpan (mkPtok 1 "options" 2 0 1) (mkPtok 3 "}" 5 4 7)) (mkPtok 1 "options" 2 0 1) (mkPtok 2 "{" 3 4 2) [(mkOptionDecl (mkSpan (mkPtok 42 "body" 4 0 4) (mkPtok 30 "3" 4 7 6)) (mkPtok 42 "body" 4 0 4) (mkPtok 4 "=" 4 5 5) (VDigits (mkSpan (mkPtok 30 "3" 4 7 6) (mkPtok 30 "3" 4 7 6)) (mkPtok 30 "3" 4 7 6)) None)] (mkPtok 3 "}" 5 4 7)))])).
+Eval vm_compute in ("<<<M374>>>" ++ check (runes_of_ascii "packet Z9_ {
+@lengthOf( i8i8)
+match
+    A as Z9_ { 0123456789
+    // 50% %s
+    :	tag, 00 : leftPad
+    ,
+""packet"":
+    trueish
+,
+[ 65535
+]
+: // trailing space 
+T , }
+,// 50% %s
+zchar[ 255 ] i8i8
+, }root// a // b
+packet  leftPad { // c
+repeat charz	{	repeat  i8 stringy
+,	} , asx  {  char[ 42 ]
+    //	t
+    a1 `// not a comment` ,
+    //x
+    char[4294967296
+] A@calculatedFrom( ""a\\"" )
+,	i8
+    _x ,  } ,uint8x msg_type
+// @lengthOf(
+// @lengthOf(
+, roots falsey , }
+MetaData Pad { float32 repeatCount
+// " ++ [27880; 37322]%N ++ runes_of_ascii "
 // `tick` ""quote"" 'q'
-// trailing space 
-{ // @lengthOf(
-"""" :a1 [
-""CRC32""
-    ] // trailing space 
-: packetx // " ++ [27880; 37322]%N ++ runes_of_ascii "
-""`tick`"" : BodyLength,
-}
-    ,float32
-    int @lengthOf(	Foo ), @leftPad ( '\x00'
-    ) zchar[ 10 ]
-    roots `{ , }`,  x @lengthOf( x_y_z ) , match
-i64_
-    as roots
-{ 007 : uint8x,  ""abc"" :	len ,//x
-} // c
-, a1 `it's`, repeat
-pack {lengthOf@lengthOf(
-string_) , // c
-charz ,
-// c
-// " ++ [128512]%N ++ runes_of_ascii " emoji
-u32
-    stringy, i64_ `
+, }
+MetaData int
+{ char[]
+repeatCount , }
+")).
+Eval vm_compute in ("<<<M406>>>" ++ check (runes_of_ascii "
+options{ msg_type	= ""it's"" }
+    // c
+    root packet // @lengthOf(
+stringy
+    { @rightPad
+(
+    // " ++ [128512]%N ++ runes_of_ascii " emoji
+    '0' ) //	t
+char[ 42 ] calculatedFrom@lengthOf( _x ) ,@calculatedFrom(
+""a\\"" // c
+)
+@lengthOf(// a // b
+falsey  ) int16 repeatCount// @lengthOf(
+@lengthOf( falsey )
+    `it's`, // `tick` ""quote"" 'q'
+tag //
+{
+match
+    f32a as/// triple
+zchar { 42: // 50% %s
+string_	,// a // b
+},
+    }
+, string_ @calculatedFrom(
+""`tick`"" ) `` ,@lengthOf( leftPad ) i32 A
+    `u8 x,`
+    // a // b
+    , @lengthOf( falsey ) zchar[
+255] rootA
+    // packet A { u8 x, }
+    @lengthOf(  T  ) `" ++ [233]%N ++ runes_of_ascii "`, @lengthOf(
+crc ) char[] // @lengthOf(
+len	, } MetaData roots
+{ As Pad, }")).
+Eval vm_compute in ("<<<M438>>>" ++ check (runes_of_ascii "
+packet
+Logon { // c
+crc @lengthOf(
+matchKey ) `line1
+line2` ,
+    }
+
+")).
+Eval vm_compute in ("<<<M470>>>" ++ check (runes_of_ascii "options { int =zchar[ 1 ] }
+")).
+Eval vm_compute in ("<<<M502>>>" ++ check (runes_of_ascii "// c
+MetaData crc // `tick` ""quote"" 'q'
+{ }
+")).
+Eval vm_compute in ("<<<M534>>>" ++ check (runes_of_ascii "packet // @lengthOf(
+As{ zchar[ 7 ] chars
+@lengthOf( As
+)
+, }
+")).
+Eval vm_compute in ("<<<M566>>>" ++ check (runes_of_ascii "  MetaData chars {
+char[ 10 ]
+falsey // `tick` ""quote"" 'q'
 `
+` , }
+packet matchKey { @lengthOf( packetx
+    ) char[
+    65535 ]
+// packet A { u8 x, }
+// c
+pack, repeat
+    As{ //
+zchar[ 10 ]Logon @calculatedFrom( ""a	b"" ) , //
+}	, // @lengthOf(
+u64 roots , }packet Header{u8x // packet A { u8 x, }
+@lengthOf(
+    f32a )
+    , msg_type { u8 Z9_ , repeat chars { repeat	u128	{ repeat uint8
+x ,u128 ,
+    int32 asx , char pack
+`" ++ [233]%N ++ runes_of_ascii "`
+, /// triple
+} , } , match
+    options1 as repeatCount{65535 : tag
+    ,42 : stringy , } , } , repeat zchar[42 ]
+// packet A { u8 x, }
+//	t
+metadata  `100% of %d`, // c
+BodyLength @lengthOf( charz ) ,
+// c
+// a // b
+u32 int @lengthOf(
+i64_
+//	t
+// a // b
+)`crlf
+line`  , repeat u32 a1	`tab	here`
+, } packet
+    metadata
+    {
+repeat
+// " ++ [128512]%N ++ runes_of_ascii " emoji
+// packet A { u8 x, }
+options1{// 50% %s
+string_
+`u8 x,`,char[] // " ++ [27880; 37322]%N ++ runes_of_ascii "
+i8i8,
+// trailing space 
+//x
+char[]Logon@calculatedFrom( ""1"" ) , a1 MetaDataX`u8 x,` , // " ++ [128512]%N ++ runes_of_ascii " emoji
+} ,
+}
+")).
+Eval vm_compute in ("<<<T566>>>" ++ terms [mkTok 37 "MetaData" 1 2 false; mkTok 42 "chars" 1 11 false; mkTok 2 "{" 1 17 false; mkTok 12 "char[" 2 0 false; mkTok 30 "10" 2 6 false; mkTok 13 "]" 2 9 false; mkTok 42 "falsey" 3 0 false; mkTok 44 "// `tick` ""quote"" 'q'" 3 7 true; mkTok 43 (string_of_bytes [96; 10; 96]%N) 4 0 false; mkTok 40 "," 5 2 false; mkTok 3 "}" 5 4 false; mkTok 35 "packet" 6 0 false; mkTok 42 "matchKey" 6 7 false; mkTok 2 "{" 6 16 false; mkTok 7 "@lengthOf(" 6 18 false; mkTok 42 "packetx" 6 29 false; mkTok 6 ")" 7 4 false; mkTok 12 "char[" 7 6 false; mkTok 30 "65535" 8 4 false; mkTok 13 "]" 8 10 false; mkTok 44 "// packet A { u8 x, }" 9 0 true; mkTok 44 "// c" 10 0 true; mkTok 42 "pack" 11 0 false; mkTok 40 "," 11 4 false; mkTok 36 "repeat" 11 6 false; mkTok 42 "As" 12 4 false; mkTok 2 "{" 12 6 false; mkTok 44 "//" 12 8 true; mkTok 14 "zchar[" 13 0 false; mkTok 30 "10" 13 7 false; mkTok 13 "]" 13 10 false; mkTok 42 "Logon" 13 11 false; mkTok 5 "@calculatedFrom(" 13 17 false; mkTok 31 (string_of_bytes [34; 97; 9; 98; 34]%N) 13 34 false; mkTok 6 ")" 13 40 false; mkTok 40 "," 13 42 false; mkTok 44 "//" 13 44 true; mkTok 3 "}" 14 0 false; mkTok 40 "," 14 2 false; mkTok 44 "// @lengthOf(" 14 4 true; mkTok 23 "u64" 15 0 false; mkTok 42 "roots" 15 4 false; mkTok 40 "," 15 10 false; mkTok 3 "}" 15 12 false; mkTok 35 "packet" 15 13 false; mkTok 42 "Header" 15 20 false; mkTok 2 "{" 15 26 false; mkTok 42 "u8x" 15 27 false; mkTok 44 "// packet A { u8 x, }" 15 31 true; mkTok 7 "@lengthOf(" 16 0 false; mkTok 42 "f32a" 17 4 false; mkTok 6 ")" 17 9 false; mkTok 40 "," 18 4 false; mkTok 42 "msg_type" 18 6 false; mkTok 2 "{" 18 15 false; mkTok 20 "u8" 18 17 false; mkTok 42 "Z9_" 18 20 false; mkTok 40 "," 18 24 false; mkTok 36 "repeat" 18 26 false; mkTok 42 "chars" 18 33 false; mkTok 2 "{" 18 39 false; mkTok 36 "repeat" 18 41 false; mkTok 42 "u128" 18 48 false; mkTok 2 "{" 18 53 false; mkTok 36 "repeat" 18 55 false; mkTok 20 "uint8" 18 62 false; mkTok 42 "x" 19 0 false; mkTok 40 "," 19 2 false; mkTok 42 "u128" 19 3 false; mkTok 40 "," 19 8 false; mkTok 26 "int32" 20 4 false; mkTok 42 "asx" 20 10 false; mkTok 40 "," 20 14 false; mkTok 19 "char" 20 16 false; mkTok 42 "pack" 20 21 false; mkTok 43 (string_of_bytes [96; 195; 169; 96]%N) 21 0 false; mkTok 40 "," 22 0 false; mkTok 44 "/// triple" 22 2 true; mkTok 3 "}" 23 0 false; mkTok 40 "," 23 2 false; mkTok 3 "}" 23 4 false; mkTok 40 "," 23 6 false; mkTok 38 "match" 23 8 false; mkTok 42 "options1" 24 4 false; mkTok 17 "as" 24 13 false; mkTok 42 "repeatCount" 24 16 false; mkTok 2 "{" 24 27 false; mkTok 30 "65535" 24 28 false; mkTok 39 ":" 24 34 false; mkTok 42 "tag" 24 36 false; mkTok 40 "," 25 4 false; mkTok 30 "42" 25 5 false; mkTok 39 ":" 25 8 false; mkTok 42 "stringy" 25 10 false; mkTok 40 "," 25 18 false; mkTok 3 "}" 25 20 false; mkTok 40 "," 25 22 false; mkTok 3 "}" 25 24 false; mkTok 40 "," 25 26 false; mkTok 36 "repeat" 25 28 false; mkTok 14 "zchar[" 25 35 false; mkTok 30 "42" 25 41 false; mkTok 13 "]" 25 44 false; mkTok 44 "// packet A { u8 x, }" 26 0 true; mkTok 44 (string_of_bytes [47; 47; 9; 116]%N) 27 0 true; mkTok 42 "metadata" 28 0 false; mkTok 43 "`100% of %d`" 28 10 false; mkTok 40 "," 28 22 false; mkTok 44 "// c" 28 24 true; mkTok 42 "BodyLength" 29 0 false; mkTok 7 "@lengthOf(" 29 11 false; mkTok 42 "charz" 29 22 false; mkTok 6 ")" 29 28 false; mkTok 40 "," 29 30 false; mkTok 44 "// c" 30 0 true; mkTok 44 "// a // b" 31 0 true; mkTok 22 "u32" 32 0 false; mkTok 42 "int" 32 4 false; mkTok 7 "@lengthOf(" 32 8 false; mkTok 42 "i64_" 33 0 false; mkTok 44 (string_of_bytes [47; 47; 9; 116]%N) 34 0 true; mkTok 44 "// a // b" 35 0 true; mkTok 6 ")" 36 0 false; mkTok 43 (string_of_bytes [96; 99; 114; 108; 102; 13; 10; 108; 105; 110; 101; 96]%N) 36 1 false; mkTok 40 "," 37 7 false; mkTok 36 "repeat" 37 9 false; mkTok 22 "u32" 37 16 false; mkTok 42 "a1" 37 20 false; mkTok 43 (string_of_bytes [96; 116; 97; 98; 9; 104; 101; 114; 101; 96]%N) 37 23 false; mkTok 40 "," 38 0 false; mkTok 3 "}" 38 2 false; mkTok 35 "packet" 38 4 false; mkTok 42 "metadata" 39 4 false; mkTok 2 "{" 40 4 false; mkTok 36 "repeat" 41 0 false; mkTok 44 (string_of_bytes [47; 47; 32; 240; 159; 152; 128; 32; 101; 109; 111; 106; 105]%N) 42 0 true; mkTok 44 "// packet A { u8 x, }" 43 0 true; mkTok 42 "options1" 44 0 false; mkTok 2 "{" 44 8 false; mkTok 44 "// 50% %s" 44 9 true; mkTok 42 "string_" 45 0 false; mkTok 43 "`u8 x,`" 46 0 false; mkTok 40 "," 46 7 false; mkTok 16 "char[]" 46 8 false; mkTok 44 (string_of_bytes [47; 47; 32; 230; 179; 168; 233; 135; 138]%N) 46 15 true; mkTok 42 "i8i8" 47 0 false; mkTok 40 "," 47 4 false; mkTok 44 "// trailing space " 48 0 true; mkTok 44 "//x" 49 0 true; mkTok 16 "char[]" 50 0 false; mkTok 42 "Logon" 50 6 false; mkTok 5 "@calculatedFrom(" 50 11 false; mkTok 31 """1""" 50 28 false; mkTok 6 ")" 50 32 false; mkTok 40 "," 50 34 false; mkTok 42 "a1" 50 36 false; mkTok 42 "MetaDataX" 50 39 false; mkTok 43 "`u8 x,`" 50 48 false; mkTok 40 "," 50 56 false; mkTok 44 (string_of_bytes [47; 47; 32; 240; 159; 152; 128; 32; 101; 109; 111; 106; 105]%N) 50 58 true; mkTok 3 "}" 51 0 false; mkTok 40 "," 51 2 false; mkTok 3 "}" 52 0 false; mkTok 0 "<EOF>" 53 0 false] (mkPacket (mkPtok 37 "MetaData" 1 2 0) (Some (mkPtok 3 "}" 52 0 162)) [(DMeta (mkMetaDef (mkSpan (mkPtok 37 "MetaData" 1 2 0) (mkPtok 3 "}" 5 4 10)) (mkPtok 37 "MetaData" 1 2 0) (mkPtok 42 "chars" 1 11 1) (mkPtok 2 "{" 1 17 2) [(MIDecl (mkMetaDecl (mkSpan (mkPtok 12 "char[" 2 0 3) (mkPtok 40 "," 5 2 9)) (TyFixed (mkSpan (mkPtok 12 "char[" 2 0 3) (mkPtok 13 "]" 2 9 5)) (mkFixedString (mkSpan (mkPtok 12 "char[" 2 0 3) (mkPtok 13 "]" 2 9 5)) (mkPtok 12 "char[" 2 0 3) (mkPtok 30 "10" 2 6 4) (mkPtok 13 "]" 2 9 5))) (mkPtok 42 "falsey" 3 0 6) (Some (mkPtok 43 (string_of_bytes [96; 10; 96]%N) 4 0 8)) (mkPtok 40 "," 5 2 9)))] (mkPtok 3 "}" 5 4 10))); (DPacket (mkPacketDef (mkSpan (mkPtok 35 "packet" 6 0 11) (mkPtok 3 "}" 15 12 43)) None (mkPtok 35 "packet" 6 0 11) (mkPtok 42 "matchKey" 6 7 12) (mkPtok 2 "{" 6 16 13) [(mkFieldWithAttr (mkSpan (mkPtok 7 "@lengthOf(" 6 18 14) (mkPtok 40 "," 11 4 23)) [(FALengthOf (mkSpan (mkPtok 7 "@lengthOf(" 6 18 14) (mkPtok 6 ")" 7 4 16)) (mkLengthOf (mkSpan (mkPtok 7 "@lengthOf(" 6 18 14) (mkPtok 6 ")" 7 4 16)) (mkPtok 7 "@lengthOf(" 6 18 14) (mkPtok 42 "packetx" 6 29 15) (mkPtok 6 ")" 7 4 16)))] (MetaField (mkSpan (mkPtok 12 "char[" 7 6 17) (mkPtok 40 "," 11 4 23)) None (mkMetaDecl (mkSpan (mkPtok 12 "char[" 7 6 17) (mkPtok 40 "," 11 4 23)) (TyFixed (mkSpan (mkPtok 12 "char[" 7 6 17) (mkPtok 13 "]" 8 10 19)) (mkFixedString (mkSpan (mkPtok 12 "char[" 7 6 17) (mkPtok 13 "]" 8 10 19)) (mkPtok 12 "char[" 7 6 17) (mkPtok 30 "65535" 8 4 18) (mkPtok 13 "]" 8 10 19))) (mkPtok 42 "pack" 11 0 22) None (mkPtok 40 "," 11 4 23)))); (mkFieldWithAttr (mkSpan (mkPtok 36 "repeat" 11 6 24) (mkPtok 40 "," 14 2 38)) [] (InerObjectField (mkSpan (mkPtok 36 "repeat" 11 6 24) (mkPtok 40 "," 14 2 38)) (Some (mkPtok 36 "repeat" 11 6 24)) (InerObjectDecl (mkSpan (mkPtok 42 "As" 12 4 25) (mkPtok 3 "}" 14 0 37)) (mkPtok 42 "As" 12 4 25) (mkPtok 2 "{" 12 6 26) [(CheckSumField (mkSpan (mkPtok 14 "zchar[" 13 0 28) (mkPtok 40 "," 13 42 35)) (mkChecksumFieldDecl (mkSpan (mkPtok 14 "zchar[" 13 0 28) (mkPtok 40 "," 13 42 35)) (Some (TyFixed (mkSpan (mkPtok 14 "zchar[" 13 0 28) (mkPtok 13 "]" 13 10 30)) (mkFixedString (mkSpan (mkPtok 14 "zchar[" 13 0 28) (mkPtok 13 "]" 13 10 30)) (mkPtok 14 "zchar[" 13 0 28) (mkPtok 30 "10" 13 7 29) (mkPtok 13 "]" 13 10 30)))) (mkPtok 42 "Logon" 13 11 31) (mkCalculatedFrom (mkSpan (mkPtok 5 "@calculatedFrom(" 13 17 32) (mkPtok 6 ")" 13 40 34)) (mkPtok 5 "@calculatedFrom(" 13 17 32) (mkPtok 31 (string_of_bytes [34; 97; 9; 98; 34]%N) 13 34 33) (mkPtok 6 ")" 13 40 34)) None (mkPtok 40 "," 13 42 35)))] (mkPtok 3 "}" 14 0 37)) (mkPtok 40 "," 14 2 38))); (mkFieldWithAttr (mkSpan (mkPtok 23 "u64" 15 0 40) (mkPtok 40 "," 15 10 42)) [] (MetaField (mkSpan (mkPtok 23 "u64" 15 0 40) (mkPtok 40 "," 15 10 42)) None (mkMetaDecl (mkSpan (mkPtok 23 "u64" 15 0 40) (mkPtok 40 "," 15 10 42)) (TyBasic (mkSpan (mkPtok 23 "u64" 15 0 40) (mkPtok 23 "u64" 15 0 40)) (mkBasicType (mkSpan (mkPtok 23 "u64" 15 0 40) (mkPtok 23 "u64" 15 0 40)) (mkPtok 23 "u64" 15 0 40))) (mkPtok 42 "roots" 15 4 41) None (mkPtok 40 "," 15 10 42))))] (mkPtok 3 "}" 15 12 43))); (DPacket (mkPacketDef (mkSpan (mkPtok 35 "packet" 15 13 44) (mkPtok 3 "}" 38 2 130)) None (mkPtok 35 "packet" 15 13 44) (mkPtok 42 "Header" 15 20 45) (mkPtok 2 "{" 15 26 46) [(mkFieldWithAttr (mkSpan (mkPtok 42 "u8x" 15 27 47) (mkPtok 40 "," 18 4 52)) [] (LengthField (mkSpan (mkPtok 42 "u8x" 15 27 47) (mkPtok 40 "," 18 4 52)) (mkLengthFieldDecl (mkSpan (mkPtok 42 "u8x" 15 27 47) (mkPtok 40 "," 18 4 52)) None (mkPtok 42 "u8x" 15 27 47) (mkLengthOf (mkSpan (mkPtok 7 "@lengthOf(" 16 0 49) (mkPtok 6 ")" 17 9 51)) (mkPtok 7 "@lengthOf(" 16 0 49) (mkPtok 42 "f32a" 17 4 50) (mkPtok 6 ")" 17 9 51)) None (mkPtok 40 "," 18 4 52)))); (mkFieldWithAttr (mkSpan (mkPtok 42 "msg_type" 18 6 53) (mkPtok 40 "," 25 26 98)) [] (InerObjectField (mkSpan (mkPtok 42 "msg_type" 18 6 53) (mkPtok 40 "," 25 26 98)) None (InerObjectDecl (mkSpan (mkPtok 42 "msg_type" 18 6 53) (mkPtok 3 "}" 25 24 97)) (mkPtok 42 "msg_type" 18 6 53) (mkPtok 2 "{" 18 15 54) [(MetaField (mkSpan (mkPtok 20 "u8" 18 17 55) (mkPtok 40 "," 18 24 57)) None (mkMetaDecl (mkSpan (mkPtok 20 "u8" 18 17 55) (mkPtok 40 "," 18 24 57)) (TyBasic (mkSpan (mkPtok 20 "u8" 18 17 55) (mkPtok 20 "u8" 18 17 55)) (mkBasicType (mkSpan (mkPtok 20 "u8" 18 17 55) (mkPtok 20 "u8" 18 17 55)) (mkPtok 20 "u8" 18 17 55))) (mkPtok 42 "Z9_" 18 20 56) None (mkPtok 40 "," 18 24 57))); (InerObjectField (mkSpan (mkPtok 36 "repeat" 18 26 58) (mkPtok 40 "," 23 6 81)) (Some (mkPtok 36 "repeat" 18 26 58)) (InerObjectDecl (mkSpan (mkPtok 42 "chars" 18 33 59) (mkPtok 3 "}" 23 4 80)) (mkPtok 42 "chars" 18 33 59) (mkPtok 2 "{" 18 39 60) [(InerObjectField (mkSpan (mkPtok 36 "repeat" 18 41 61) (mkPtok 40 "," 23 2 79)) (Some (mkPtok 36 "repeat" 18 41 61)) (InerObjectDecl (mkSpan (mkPtok 42 "u128" 18 48 62) (mkPtok 3 "}" 23 0 78)) (mkPtok 42 "u128" 18 48 62) (mkPtok 2 "{" 18 53 63) [(MetaField (mkSpan (mkPtok 36 "repeat" 18 55 64) (mkPtok 40 "," 19 2 67)) (Some (mkPtok 36 "repeat" 18 55 64)) (mkMetaDecl (mkSpan (mkPtok 20 "uint8" 18 62 65) (mkPtok 40 "," 19 2 67)) (TyBasic (mkSpan (mkPtok 20 "uint8" 18 62 65) (mkPtok 20 "uint8" 18 62 65)) (mkBasicType (mkSpan (mkPtok 20 "uint8" 18 62 65) (mkPtok 20 "uint8" 18 62 65)) (mkPtok 20 "uint8" 18 62 65))) (mkPtok 42 "x" 19 0 66) None (mkPtok 40 "," 19 2 67))); (ObjectField (mkSpan (mkPtok 42 "u128" 19 3 68) (mkPtok 40 "," 19 8 69)) None (mkPtok 42 "u128" 19 3 68) None None (mkPtok 40 "," 19 8 69)); (MetaField (mkSpan (mkPtok 26 "int32" 20 4 70) (mkPtok 40 "," 20 14 72)) None (mkMetaDecl (mkSpan (mkPtok 26 "int32" 20 4 70) (mkPtok 40 "," 20 14 72)) (TyBasic (mkSpan (mkPtok 26 "int32" 20 4 70) (mkPtok 26 "int32" 20 4 70)) (mkBasicType (mkSpan (mkPtok 26 "int32" 20 4 70) (mkPtok 26 "int32" 20 4 70)) (mkPtok 26 "int32" 20 4 70))) (mkPtok 42 "asx" 20 10 71) None (mkPtok 40 "," 20 14 72))); (MetaField (mkSpan (mkPtok 19 "char" 20 16 73) (mkPtok 40 "," 22 0 76)) None (mkMetaDecl (mkSpan (mkPtok 19 "char" 20 16 73) (mkPtok 40 "," 22 0 76)) (TyBasic (mkSpan (mkPtok 19 "char" 20 16 73) (mkPtok 19 "char" 20 16 73)) (mkBasicType (mkSpan (mkPtok 19 "char" 20 16 73) (mkPtok 19 "char" 20 16 73)) (mkPtok 19 "char" 20 16 73))) (mkPtok 42 "pack" 20 21 74) (Some (mkPtok 43 (string_of_bytes [96; 195; 169; 96]%N) 21 0 75)) (mkPtok 40 "," 22 0 76)))] (mkPtok 3 "}" 23 0 78)) (mkPtok 40 "," 23 2 79))] (mkPtok 3 "}" 23 4 80)) (mkPtok 40 "," 23 6 81)); (MatchField (mkSpan (mkPtok 38 "match" 23 8 82) (mkPtok 40 "," 25 22 96)) (mkMatchFieldDecl (mkSpan (mkPtok 38 "match" 23 8 82) (mkPtok 3 "}" 25 20 95)) (mkPtok 38 "match" 23 8 82) (mkPtok 42 "options1" 24 4 83) (mkPtok 17 "as" 24 13 84) (mkPtok 42 "repeatCount" 24 16 85) (mkPtok 2 "{" 24 27 86) [(mkMatchPair (mkSpan (mkPtok 30 "65535" 24 28 87) (mkPtok 40 "," 25 4 90)) (MKDigits (mkPtok 30 "65535" 24 28 87)) (mkPtok 39 ":" 24 34 88) (mkPtok 42 "tag" 24 36 89) (Some (mkPtok 40 "," 25 4 90))); (mkMatchPair (mkSpan (mkPtok 30 "42" 25 5 91) (mkPtok 40 "," 25 18 94)) (MKDigits (mkPtok 30 "42" 25 5 91)) (mkPtok 39 ":" 25 8 92) (mkPtok 42 "stringy" 25 10 93) (Some (mkPtok 40 "," 25 18 94)))] (mkPtok 3 "}" 25 20 95)) (mkPtok 40 "," 25 22 96))] (mkPtok 3 "}" 25 24 97)) (mkPtok 40 "," 25 26 98))); (mkFieldWithAttr (mkSpan (mkPtok 36 "repeat" 25 28 99) (mkPtok 40 "," 28 22 107)) [] (MetaField (mkSpan (mkPtok 36 "repeat" 25 28 99) (mkPtok 40 "," 28 22 107)) (Some (mkPtok 36 "repeat" 25 28 99)) (mkMetaDecl (mkSpan (mkPtok 14 "zchar[" 25 35 100) (mkPtok 40 "," 28 22 107)) (TyFixed (mkSpan (mkPtok 14 "zchar[" 25 35 100) (mkPtok 13 "]" 25 44 102)) (mkFixedString (mkSpan (mkPtok 14 "zchar[" 25 35 100) (mkPtok 13 "]" 25 44 102)) (mkPtok 14 "zchar[" 25 35 100) (mkPtok 30 "42" 25 41 101) (mkPtok 13 "]" 25 44 102))) (mkPtok 42 "metadata" 28 0 105) (Some (mkPtok 43 "`100% of %d`" 28 10 106)) (mkPtok 40 "," 28 22 107)))); (mkFieldWithAttr (mkSpan (mkPtok 42 "BodyLength" 29 0 109) (mkPtok 40 "," 29 30 113)) [] (LengthField (mkSpan (mkPtok 42 "BodyLength" 29 0 109) (mkPtok 40 "," 29 30 113)) (mkLengthFieldDecl (mkSpan (mkPtok 42 "BodyLength" 29 0 109) (mkPtok 40 "," 29 30 113)) None (mkPtok 42 "BodyLength" 29 0 109) (mkLengthOf (mkSpan (mkPtok 7 "@lengthOf(" 29 11 110) (mkPtok 6 ")" 29 28 112)) (mkPtok 7 "@lengthOf(" 29 11 110) (mkPtok 42 "charz" 29 22 111) (mkPtok 6 ")" 29 28 112)) None (mkPtok 40 "," 29 30 113)))); (mkFieldWithAttr (mkSpan (mkPtok 22 "u32" 32 0 116) (mkPtok 40 "," 37 7 124)) [] (LengthField (mkSpan (mkPtok 22 "u32" 32 0 116) (mkPtok 40 "," 37 7 124)) (mkLengthFieldDecl (mkSpan (mkPtok 22 "u32" 32 0 116) (mkPtok 40 "," 37 7 124)) (Some (TyBasic (mkSpan (mkPtok 22 "u32" 32 0 116) (mkPtok 22 "u32" 32 0 116)) (mkBasicType (mkSpan (mkPtok 22 "u32" 32 0 116) (mkPtok 22 "u32" 32 0 116)) (mkPtok 22 "u32" 32 0 116)))) (mkPtok 42 "int" 32 4 117) (mkLengthOf (mkSpan (mkPtok 7 "@lengthOf(" 32 8 118) (mkPtok 6 ")" 36 0 122)) (mkPtok 7 "@lengthOf(" 32 8 118) (mkPtok 42 "i64_" 33 0 119) (mkPtok 6 ")" 36 0 122)) (Some (mkPtok 43 (string_of_bytes [96; 99; 114; 108; 102; 13; 10; 108; 105; 110; 101; 96]%N) 36 1 123)) (mkPtok 40 "," 37 7 124)))); (mkFieldWithAttr (mkSpan (mkPtok 36 "repeat" 37 9 125) (mkPtok 40 "," 38 0 129)) [] (MetaField (mkSpan (mkPtok 36 "repeat" 37 9 125) (mkPtok 40 "," 38 0 129)) (Some (mkPtok 36 "repeat" 37 9 125)) (mkMetaDecl (mkSpan (mkPtok 22 "u32" 37 16 126) (mkPtok 40 "," 38 0 129)) (TyBasic (mkSpan (mkPtok 22 "u32" 37 16 126) (mkPtok 22 "u32" 37 16 126)) (mkBasicType (mkSpan (mkPtok 22 "u32" 37 16 126) (mkPtok 22 "u32" 37 16 126)) (mkPtok 22 "u32" 37 16 126))) (mkPtok 42 "a1" 37 20 127) (Some (mkPtok 43 (string_of_bytes [96; 116; 97; 98; 9; 104; 101; 114; 101; 96]%N) 37 23 128)) (mkPtok 40 "," 38 0 129))))] (mkPtok 3 "}" 38 2 130))); (DPacket (mkPacketDef (mkSpan (mkPtok 35 "packet" 38 4 131) (mkPtok 3 "}" 52 0 162)) None (mkPtok 35 "packet" 38 4 131) (mkPtok 42 "metadata" 39 4 132) (mkPtok 2 "{" 40 4 133) [(mkFieldWithAttr (mkSpan (mkPtok 36 "repeat" 41 0 134) (mkPtok 40 "," 51 2 161)) [] (InerObjectField (mkSpan (mkPtok 36 "repeat" 41 0 134) (mkPtok 40 "," 51 2 161)) (Some (mkPtok 36 "repeat" 41 0 134)) (InerObjectDecl (mkSpan (mkPtok 42 "options1" 44 0 137) (mkPtok 3 "}" 51 0 160)) (mkPtok 42 "options1" 44 0 137) (mkPtok 2 "{" 44 8 138) [(ObjectField (mkSpan (mkPtok 42 "string_" 45 0 140) (mkPtok 40 "," 46 7 142)) None (mkPtok 42 "string_" 45 0 140) None (Some (mkPtok 43 "`u8 x,`" 46 0 141)) (mkPtok 40 "," 46 7 142)); (MetaField (mkSpan (mkPtok 16 "char[]" 46 8 143) (mkPtok 40 "," 47 4 146)) None (mkMetaDecl (mkSpan (mkPtok 16 "char[]" 46 8 143) (mkPtok 40 "," 47 4 146)) (TyDynamic (mkSpan (mkPtok 16 "char[]" 46 8 143) (mkPtok 16 "char[]" 46 8 143)) (mkDynamicString (mkSpan (mkPtok 16 "char[]" 46 8 143) (mkPtok 16 "char[]" 46 8 143)) (mkPtok 16 "char[]" 46 8 143))) (mkPtok 42 "i8i8" 47 0 145) None (mkPtok 40 "," 47 4 146))); (CheckSumField (mkSpan (mkPtok 16 "char[]" 50 0 149) (mkPtok 40 "," 50 34 154)) (mkChecksumFieldDecl (mkSpan (mkPtok 16 "char[]" 50 0 149) (mkPtok 40 "," 50 34 154)) (Some (TyDynamic (mkSpan (mkPtok 16 "char[]" 50 0 149) (mkPtok 16 "char[]" 50 0 149)) (mkDynamicString (mkSpan (mkPtok 16 "char[]" 50 0 149) (mkPtok 16 "char[]" 50 0 149)) (mkPtok 16 "char[]" 50 0 149)))) (mkPtok 42 "Logon" 50 6 150) (mkCalculatedFrom (mkSpan (mkPtok 5 "@calculatedFrom(" 50 11 151) (mkPtok 6 ")" 50 32 153)) (mkPtok 5 "@calculatedFrom(" 50 11 151) (mkPtok 31 """1""" 50 28 152) (mkPtok 6 ")" 50 32 153)) None (mkPtok 40 "," 50 34 154))); (ObjectField (mkSpan (mkPtok 42 "a1" 50 36 155) (mkPtok 40 "," 50 56 158)) None (mkPtok 42 "a1" 50 36 155) (Some (mkPtok 42 "MetaDataX" 50 39 156)) (Some (mkPtok 43 "`u8 x,`" 50 48 157)) (mkPtok 40 "," 50 56 158))] (mkPtok 3 "}" 51 0 160)) (mkPtok 40 "," 51 2 161)))] (mkPtok 3 "}" 52 0 162)))])).
+Eval vm_compute in ("<<<M598>>>" ++ check (runes_of_ascii "packet
+x_y_z {As @lengthOf(repeatCount
+    ) ,}
+")).
+Eval vm_compute in ("<<<M630>>>" ++ check (runes_of_ascii "
+packet i8i8	{ } packet metadata {	zchar o , }//
+packet  Pad { @lengthOf(calculatedFrom )packetx, float64 Header
+    ,	char
+    /// triple
+    x// a // b
+`u8 x,`	,
+@tag( 42 ) zchar[ 1/// triple
+]
+int
+    `doc`
+,
+}
+")).
+Eval vm_compute in ("<<<M662>>>" ++ check (runes_of_ascii "options { Z9_= ""1"" ; }
+")).
+Eval vm_compute in ("<<<M694>>>" ++ check (runes_of_ascii "MetaData i8i8
+    /// triple
+    {char[
+1 ] // 50% %s
+Foo ,}
+")).
+Eval vm_compute in ("<<<M726>>>" ++ check (runes_of_ascii "// " ++ [128512]%N ++ runes_of_ascii " emoji
+MetaData packetx { matchKey len `say ""hi""` , } //	t
+options// trailing space 
+{	o = true //x
+;
+    }	options { }
+//x
+")).
+Eval vm_compute in ("<<<M758>>>" ++ check (runes_of_ascii "packet float
+    { @rightPad
+( )
+char[
+4294967296 ]
+    int , }
+")).
+Eval vm_compute in ("<<<M790>>>" ++ check (runes_of_ascii "// c
+root	packet pack{ repeat char[ 007]
+MetaDataX `say ""hi""`
+, char[] x_y_z @lengthOf(u128 ) , @tag( 10
+)
+match
+    falsey as string_ {  ""packet"" : u ,
+42
+: options1	, ""CRC32"" :
+trueish ,
+0123456789	:
+    Packet, """ ++ [128512]%N ++ runes_of_ascii """
+:trueish
+4294967296 :// a // b
+matchKey , }
+,
+} packet roots
+    {
+repeat f32a	{ // c
+match trueish // c
+as
+// a // b
+// trailing space 
+x
 /// triple
 // trailing space 
-,}// `tick` ""quote"" 'q'
-, @calculatedFrom(""\n""
-    ) u32 u8x `tab	here`, }
-root packet asx {
-repeat f64	matchKey // c
-`u8 x,` ,
-} root
-packet string_{ f32 msg_type // trailing space 
-`` , @leftPad ( ' ' ) As,
-@tag(
-    007
-)// trailing space 
-i32 repeatCount
-@calculatedFrom( """ ++ [28040; 24687]%N ++ runes_of_ascii """),
+{ // trailing space 
+[""{,}""
+, """ ++ [28040; 24687]%N ++ runes_of_ascii """ , 0  ,  ""abc"" , ""a\""b"" , 007
+] :Foo
+} /// triple
+,
+    } // c
+,  @lengthOf( Z9_ )@tag( 7 )chars uint8x `it's`
+, @calculatedFrom( ""a	b""
+) crc { match
+// c
+// " ++ [128512]%N ++ runes_of_ascii " emoji
+trueish as // packet A { u8 x, }
+metadata	{ 65535
+: string_ """ ++ [28040; 24687]%N ++ runes_of_ascii """ : Logon ,
+},
+    char[
+    007 // " ++ [27880; 37322]%N ++ runes_of_ascii "
+] falsey `100% of %d`
+    , u128
+@calculatedFrom(""{,}"" ) , }// c
+,match
+// packet A { u8 x, }
+// 50% %s
+a1 as As { """ ++ [233]%N ++ runes_of_ascii "t" ++ [233]%N ++ runes_of_ascii """ : asx 255:
+As  ""// no comment""
+:  string_
+//
+//x
+, 0123456789	:
+    Z9_, 65535 : // @lengthOf(
+A 4294967296:
+options1 , } , repeat
+MetaDataX , Logon, @calculatedFrom(
+""a\\""
+    )
+    // `tick` ""quote"" 'q'
+    options1,
+    @lengthOf(T	) roots, Foo
+    @lengthOf( Pad ) , // " ++ [27880; 37322]%N ++ runes_of_ascii "
+char[
+    65535 ] len , }root // " ++ [27880; 37322]%N ++ runes_of_ascii "
+packet	repeatCount{ // trailing space 
+@calculatedFrom(	""CRC32"" )
+@tag(7
+)  @calculatedFrom( ""a\\"" ) u128 { metadata @calculatedFrom( ""// no comment""
+)`two words`
+    , }
+    ,@rightPad( )
+    repeat
+    char[ 0123456789//
+] MetaDataX, @calculatedFrom( ""x y"" ) stringy
+    @lengthOf(metadata ) , Foo options1// @lengthOf(
+, @leftPad (	'\x00'
+// packet A { u8 x, }
+// " ++ [128512]%N ++ runes_of_ascii " emoji
+) @rightPad//	t
+( )
+i32 T
+    , zchar[007 ]
+a1	`" ++ [28040; 24687; 31867; 22411]%N ++ runes_of_ascii "` ,@lengthOf( uint8x )
+MetaDataX @calculatedFrom(""\" ++ [233]%N ++ runes_of_ascii """ ) `line1
+line2` ,
+@calculatedFrom( ""a	b""
+    /// triple
+    )string matchKey	`doc` , @lengthOf( As
+)// @lengthOf(
+@calculatedFrom( ""// no comment""	)@tag( 10 ) string Foo,
+    repeat lengthOf`// not a comment`
+    , }
+/// triple
+")).
+Eval vm_compute in ("<<<T790>>>" ++ terms [mkTok 44 "// c" 1 0 true; mkTok 34 "root" 2 0 false; mkTok 35 "packet" 2 5 false; mkTok 42 "pack" 2 12 false; mkTok 2 "{" 2 16 false; mkTok 36 "repeat" 2 18 false; mkTok 12 "char[" 2 25 false; mkTok 30 "007" 2 31 false; mkTok 13 "]" 2 34 false; mkTok 42 "MetaDataX" 3 0 false; mkTok 43 "`say ""hi""`" 3 10 false; mkTok 40 "," 4 0 false; mkTok 16 "char[]" 4 2 false; mkTok 42 "x_y_z" 4 9 false; mkTok 7 "@lengthOf(" 4 15 false; mkTok 42 "u128" 4 25 false; mkTok 6 ")" 4 30 false; mkTok 40 "," 4 32 false; mkTok 9 "@tag(" 4 34 false; mkTok 30 "10" 4 40 false; mkTok 6 ")" 5 0 false; mkTok 38 "match" 6 0 false; mkTok 42 "falsey" 7 4 false; mkTok 17 "as" 7 11 false; mkTok 42 "string_" 7 14 false; mkTok 2 "{" 7 22 false; mkTok 31 """packet""" 7 25 false; mkTok 39 ":" 7 34 false; mkTok 42 "u" 7 36 false; mkTok 40 "," 7 38 false; mkTok 30 "42" 8 0 false; mkTok 39 ":" 9 0 false; mkTok 42 "options1" 9 2 false; mkTok 40 "," 9 11 false; mkTok 31 """CRC32""" 9 13 false; mkTok 39 ":" 9 21 false; mkTok 42 "trueish" 10 0 false; mkTok 40 "," 10 8 false; mkTok 30 "0123456789" 11 0 false; mkTok 39 ":" 11 11 false; mkTok 42 "Packet" 12 4 false; mkTok 40 "," 12 10 false; mkTok 31 (string_of_bytes [34; 240; 159; 152; 128; 34]%N) 12 12 false; mkTok 39 ":" 13 0 false; mkTok 42 "trueish" 13 1 false; mkTok 30 "4294967296" 14 0 false; mkTok 39 ":" 14 11 false; mkTok 44 "// a // b" 14 12 true; mkTok 42 "matchKey" 15 0 false; mkTok 40 "," 15 9 false; mkTok 3 "}" 15 11 false; mkTok 40 "," 16 0 false; mkTok 3 "}" 17 0 false; mkTok 35 "packet" 17 2 false; mkTok 42 "roots" 17 9 false; mkTok 2 "{" 18 4 false; mkTok 36 "repeat" 19 0 false; mkTok 42 "f32a" 19 7 false; mkTok 2 "{" 19 12 false; mkTok 44 "// c" 19 14 true; mkTok 38 "match" 20 0 false; mkTok 42 "trueish" 20 6 false; mkTok 44 "// c" 20 14 true; mkTok 17 "as" 21 0 false; mkTok 44 "// a // b" 22 0 true; mkTok 44 "// trailing space " 23 0 true; mkTok 42 "x" 24 0 false; mkTok 44 "/// triple" 25 0 true; mkTok 44 "// trailing space " 26 0 true; mkTok 2 "{" 27 0 false; mkTok 44 "// trailing space " 27 2 true; mkTok 18 "[" 28 0 false; mkTok 31 """{,}""" 28 1 false; mkTok 40 "," 29 0 false; mkTok 31 (string_of_bytes [34; 230; 182; 136; 230; 129; 175; 34]%N) 29 2 false; mkTok 40 "," 29 7 false; mkTok 30 "0" 29 9 false; mkTok 40 "," 29 12 false; mkTok 31 """abc""" 29 15 false; mkTok 40 "," 29 21 false; mkTok 31 """a\""b""" 29 23 false; mkTok 40 "," 29 30 false; mkTok 30 "007" 29 32 false; mkTok 13 "]" 30 0 false; mkTok 39 ":" 30 2 false; mkTok 42 "Foo" 30 3 false; mkTok 3 "}" 31 0 false; mkTok 44 "/// triple" 31 2 true; mkTok 40 "," 32 0 false; mkTok 3 "}" 33 4 false; mkTok 44 "// c" 33 6 true; mkTok 40 "," 34 0 false; mkTok 7 "@lengthOf(" 34 3 false; mkTok 42 "Z9_" 34 14 false; mkTok 6 ")" 34 18 false; mkTok 9 "@tag(" 34 19 false; mkTok 30 "7" 34 25 false; mkTok 6 ")" 34 27 false; mkTok 42 "chars" 34 28 false; mkTok 42 "uint8x" 34 34 false; mkTok 43 "`it's`" 34 41 false; mkTok 40 "," 35 0 false; mkTok 5 "@calculatedFrom(" 35 2 false; mkTok 31 (string_of_bytes [34; 97; 9; 98; 34]%N) 35 19 false; mkTok 6 ")" 36 0 false; mkTok 42 "crc" 36 2 false; mkTok 2 "{" 36 6 false; mkTok 38 "match" 36 8 false; mkTok 44 "// c" 37 0 true; mkTok 44 (string_of_bytes [47; 47; 32; 240; 159; 152; 128; 32; 101; 109; 111; 106; 105]%N) 38 0 true; mkTok 42 "trueish" 39 0 false; mkTok 17 "as" 39 8 false; mkTok 44 "// packet A { u8 x, }" 39 11 true; mkTok 42 "metadata" 40 0 false; mkTok 2 "{" 40 9 false; mkTok 30 "65535" 40 11 false; mkTok 39 ":" 41 0 false; mkTok 42 "string_" 41 2 false; mkTok 31 (string_of_bytes [34; 230; 182; 136; 230; 129; 175; 34]%N) 41 10 false; mkTok 39 ":" 41 15 false; mkTok 42 "Logon" 41 17 false; mkTok 40 "," 41 23 false; mkTok 3 "}" 42 0 false; mkTok 40 "," 42 1 false; mkTok 12 "char[" 43 4 false; mkTok 30 "007" 44 4 false; mkTok 44 (string_of_bytes [47; 47; 32; 230; 179; 168; 233; 135; 138]%N) 44 8 true; mkTok 13 "]" 45 0 false; mkTok 42 "falsey" 45 2 false; mkTok 43 "`100% of %d`" 45 9 false; mkTok 40 "," 46 4 false; mkTok 42 "u128" 46 6 false; mkTok 5 "@calculatedFrom(" 47 0 false; mkTok 31 """{,}""" 47 16 false; mkTok 6 ")" 47 22 false; mkTok 40 "," 47 24 false; mkTok 3 "}" 47 26 false; mkTok 44 "// c" 47 27 true; mkTok 40 "," 48 0 false; mkTok 38 "match" 48 1 false; mkTok 44 "// packet A { u8 x, }" 49 0 true; mkTok 44 "// 50% %s" 50 0 true; mkTok 42 "a1" 51 0 false; mkTok 17 "as" 51 3 false; mkTok 42 "As" 51 6 false; mkTok 2 "{" 51 9 false; mkTok 31 (string_of_bytes [34; 195; 169; 116; 195; 169; 34]%N) 51 11 false; mkTok 39 ":" 51 17 false; mkTok 42 "asx" 51 19 false; mkTok 30 "255" 51 23 false; mkTok 39 ":" 51 26 false; mkTok 42 "As" 52 0 false; mkTok 31 """// no comment""" 52 4 false; mkTok 39 ":" 53 0 false; mkTok 42 "string_" 53 3 false; mkTok 44 "//" 54 0 true; mkTok 44 "//x" 55 0 true; mkTok 40 "," 56 0 false; mkTok 30 "0123456789" 56 2 false; mkTok 39 ":" 56 13 false; mkTok 42 "Z9_" 57 4 false; mkTok 40 "," 57 7 false; mkTok 30 "65535" 57 9 false; mkTok 39 ":" 57 15 false; mkTok 44 "// @lengthOf(" 57 17 true; mkTok 42 "A" 58 0 false; mkTok 30 "4294967296" 58 2 false; mkTok 39 ":" 58 12 false; mkTok 42 "options1" 59 0 false; mkTok 40 "," 59 9 false; mkTok 3 "}" 59 11 false; mkTok 40 "," 59 13 false; mkTok 36 "repeat" 59 15 false; mkTok 42 "MetaDataX" 60 0 false; mkTok 40 "," 60 10 false; mkTok 42 "Logon" 60 12 false; mkTok 40 "," 60 17 false; mkTok 5 "@calculatedFrom(" 60 19 false; mkTok 31 """a\\""" 61 0 false; mkTok 6 ")" 62 4 false; mkTok 44 "// `tick` ""quote"" 'q'" 63 4 true; mkTok 42 "options1" 64 4 false; mkTok 40 "," 64 12 false; mkTok 7 "@lengthOf(" 65 4 false; mkTok 42 "T" 65 14 false; mkTok 6 ")" 65 16 false; mkTok 42 "roots" 65 18 false; mkTok 40 "," 65 23 false; mkTok 42 "Foo" 65 25 false; mkTok 7 "@lengthOf(" 66 4 false; mkTok 42 "Pad" 66 15 false; mkTok 6 ")" 66 19 false; mkTok 40 "," 66 21 false; mkTok 44 (string_of_bytes [47; 47; 32; 230; 179; 168; 233; 135; 138]%N) 66 23 true; mkTok 12 "char[" 67 0 false; mkTok 30 "65535" 68 4 false; mkTok 13 "]" 68 10 false; mkTok 42 "len" 68 12 false; mkTok 40 "," 68 16 false; mkTok 3 "}" 68 18 false; mkTok 34 "root" 68 19 false; mkTok 44 (string_of_bytes [47; 47; 32; 230; 179; 168; 233; 135; 138]%N) 68 24 true; mkTok 35 "packet" 69 0 false; mkTok 42 "repeatCount" 69 7 false; mkTok 2 "{" 69 18 false; mkTok 44 "// trailing space " 69 20 true; mkTok 5 "@calculatedFrom(" 70 0 false; mkTok 31 """CRC32""" 70 17 false; mkTok 6 ")" 70 25 false; mkTok 9 "@tag(" 71 0 false; mkTok 30 "7" 71 5 false; mkTok 6 ")" 72 0 false; mkTok 5 "@calculatedFrom(" 72 3 false; mkTok 31 """a\\""" 72 20 false; mkTok 6 ")" 72 26 false; mkTok 42 "u128" 72 28 false; mkTok 2 "{" 72 33 false; mkTok 42 "metadata" 72 35 false; mkTok 5 "@calculatedFrom(" 72 44 false; mkTok 31 """// no comment""" 72 61 false; mkTok 6 ")" 73 0 false; mkTok 43 "`two words`" 73 1 false; mkTok 40 "," 74 4 false; mkTok 3 "}" 74 6 false; mkTok 40 "," 75 4 false; mkTok 32 "@rightPad" 75 5 false; mkTok 8 "(" 75 14 false; mkTok 6 ")" 75 16 false; mkTok 36 "repeat" 76 4 false; mkTok 12 "char[" 77 4 false; mkTok 30 "0123456789" 77 10 false; mkTok 44 "//" 77 20 true; mkTok 13 "]" 78 0 false; mkTok 42 "MetaDataX" 78 2 false; mkTok 40 "," 78 11 false; mkTok 5 "@calculatedFrom(" 78 13 false; mkTok 31 """x y""" 78 30 false; mkTok 6 ")" 78 36 false; mkTok 42 "stringy" 78 38 false; mkTok 7 "@lengthOf(" 79 4 false; mkTok 42 "metadata" 79 14 false; mkTok 6 ")" 79 23 false; mkTok 40 "," 79 25 false; mkTok 42 "Foo" 79 27 false; mkTok 42 "options1" 79 31 false; mkTok 44 "// @lengthOf(" 79 39 true; mkTok 40 "," 80 0 false; mkTok 32 "@leftPad" 80 2 false; mkTok 8 "(" 80 11 false; mkTok 33 "'\x00'" 80 13 false; mkTok 44 "// packet A { u8 x, }" 81 0 true; mkTok 44 (string_of_bytes [47; 47; 32; 240; 159; 152; 128; 32; 101; 109; 111; 106; 105]%N) 82 0 true; mkTok 6 ")" 83 0 false; mkTok 32 "@rightPad" 83 2 false; mkTok 44 (string_of_bytes [47; 47; 9; 116]%N) 83 11 true; mkTok 8 "(" 84 0 false; mkTok 6 ")" 84 2 false; mkTok 26 "i32" 85 0 false; mkTok 42 "T" 85 4 false; mkTok 40 "," 86 4 false; mkTok 14 "zchar[" 86 6 false; mkTok 30 "007" 86 12 false; mkTok 13 "]" 86 16 false; mkTok 42 "a1" 87 0 false; mkTok 43 (string_of_bytes [96; 230; 182; 136; 230; 129; 175; 231; 177; 187; 229; 158; 139; 96]%N) 87 3 false; mkTok 40 "," 87 10 false; mkTok 7 "@lengthOf(" 87 11 false; mkTok 42 "uint8x" 87 22 false; mkTok 6 ")" 87 29 false; mkTok 42 "MetaDataX" 88 0 false; mkTok 5 "@calculatedFrom(" 88 10 false; mkTok 31 (string_of_bytes [34; 92; 195; 169; 34]%N) 88 26 false; mkTok 6 ")" 88 31 false; mkTok 43 (string_of_bytes [96; 108; 105; 110; 101; 49; 10; 108; 105; 110; 101; 50; 96]%N) 88 33 false; mkTok 40 "," 89 7 false; mkTok 5 "@calculatedFrom(" 90 0 false; mkTok 31 (string_of_bytes [34; 97; 9; 98; 34]%N) 90 17 false; mkTok 44 "/// triple" 91 4 true; mkTok 6 ")" 92 4 false; mkTok 15 "string" 92 5 false; mkTok 42 "matchKey" 92 12 false; mkTok 43 "`doc`" 92 21 false; mkTok 40 "," 92 27 false; mkTok 7 "@lengthOf(" 92 29 false; mkTok 42 "As" 92 40 false; mkTok 6 ")" 93 0 false; mkTok 44 "// @lengthOf(" 93 1 true; mkTok 5 "@calculatedFrom(" 94 0 false; mkTok 31 """// no comment""" 94 17 false; mkTok 6 ")" 94 33 false; mkTok 9 "@tag(" 94 34 false; mkTok 30 "10" 94 40 false; mkTok 6 ")" 94 43 false; mkTok 15 "string" 94 45 false; mkTok 42 "Foo" 94 52 false; mkTok 40 "," 94 55 false; mkTok 36 "repeat" 95 4 false; mkTok 42 "lengthOf" 95 11 false; mkTok 43 "`// not a comment`" 95 19 false; mkTok 40 "," 96 4 false; mkTok 3 "}" 96 6 false; mkTok 44 "/// triple" 97 0 true; mkTok 0 "<EOF>" 98 0 false] (mkPacket (mkPtok 34 "root" 2 0 1) (Some (mkPtok 3 "}" 96 6 300)) [(DPacket (mkPacketDef (mkSpan (mkPtok 34 "root" 2 0 1) (mkPtok 3 "}" 17 0 52)) (Some (mkPtok 34 "root" 2 0 1)) (mkPtok 35 "packet" 2 5 2) (mkPtok 42 "pack" 2 12 3) (mkPtok 2 "{" 2 16 4) [(mkFieldWithAttr (mkSpan (mkPtok 36 "repeat" 2 18 5) (mkPtok 40 "," 4 0 11)) [] (MetaField (mkSpan (mkPtok 36 "repeat" 2 18 5) (mkPtok 40 "," 4 0 11)) (Some (mkPtok 36 "repeat" 2 18 5)) (mkMetaDecl (mkSpan (mkPtok 12 "char[" 2 25 6) (mkPtok 40 "," 4 0 11)) (TyFixed (mkSpan (mkPtok 12 "char[" 2 25 6) (mkPtok 13 "]" 2 34 8)) (mkFixedString (mkSpan (mkPtok 12 "char[" 2 25 6) (mkPtok 13 "]" 2 34 8)) (mkPtok 12 "char[" 2 25 6) (mkPtok 30 "007" 2 31 7) (mkPtok 13 "]" 2 34 8))) (mkPtok 42 "MetaDataX" 3 0 9) (Some (mkPtok 43 "`say ""hi""`" 3 10 10)) (mkPtok 40 "," 4 0 11)))); (mkFieldWithAttr (mkSpan (mkPtok 16 "char[]" 4 2 12) (mkPtok 40 "," 4 32 17)) [] (LengthField (mkSpan (mkPtok 16 "char[]" 4 2 12) (mkPtok 40 "," 4 32 17)) (mkLengthFieldDecl (mkSpan (mkPtok 16 "char[]" 4 2 12) (mkPtok 40 "," 4 32 17)) (Some (TyDynamic (mkSpan (mkPtok 16 "char[]" 4 2 12) (mkPtok 16 "char[]" 4 2 12)) (mkDynamicString (mkSpan (mkPtok 16 "char[]" 4 2 12) (mkPtok 16 "char[]" 4 2 12)) (mkPtok 16 "char[]" 4 2 12)))) (mkPtok 42 "x_y_z" 4 9 13) (mkLengthOf (mkSpan (mkPtok 7 "@lengthOf(" 4 15 14) (mkPtok 6 ")" 4 30 16)) (mkPtok 7 "@lengthOf(" 4 15 14) (mkPtok 42 "u128" 4 25 15) (mkPtok 6 ")" 4 30 16)) None (mkPtok 40 "," 4 32 17)))); (mkFieldWithAttr (mkSpan (mkPtok 9 "@tag(" 4 34 18) (mkPtok 40 "," 16 0 51)) [(FATag (mkSpan (mkPtok 9 "@tag(" 4 34 18) (mkPtok 6 ")" 5 0 20)) (mkTagAttr (mkSpan (mkPtok 9 "@tag(" 4 34 18) (mkPtok 6 ")" 5 0 20)) (mkPtok 9 "@tag(" 4 34 18) (mkPtok 30 "10" 4 40 19) (mkPtok 6 ")" 5 0 20)))] (MatchField (mkSpan (mkPtok 38 "match" 6 0 21) (mkPtok 40 "," 16 0 51)) (mkMatchFieldDecl (mkSpan (mkPtok 38 "match" 6 0 21) (mkPtok 3 "}" 15 11 50)) (mkPtok 38 "match" 6 0 21) (mkPtok 42 "falsey" 7 4 22) (mkPtok 17 "as" 7 11 23) (mkPtok 42 "string_" 7 14 24) (mkPtok 2 "{" 7 22 25) [(mkMatchPair (mkSpan (mkPtok 31 """packet""" 7 25 26) (mkPtok 40 "," 7 38 29)) (MKString (mkPtok 31 """packet""" 7 25 26)) (mkPtok 39 ":" 7 34 27) (mkPtok 42 "u" 7 36 28) (Some (mkPtok 40 "," 7 38 29))); (mkMatchPair (mkSpan (mkPtok 30 "42" 8 0 30) (mkPtok 40 "," 9 11 33)) (MKDigits (mkPtok 30 "42" 8 0 30)) (mkPtok 39 ":" 9 0 31) (mkPtok 42 "options1" 9 2 32) (Some (mkPtok 40 "," 9 11 33))); (mkMatchPair (mkSpan (mkPtok 31 """CRC32""" 9 13 34) (mkPtok 40 "," 10 8 37)) (MKString (mkPtok 31 """CRC32""" 9 13 34)) (mkPtok 39 ":" 9 21 35) (mkPtok 42 "trueish" 10 0 36) (Some (mkPtok 40 "," 10 8 37))); (mkMatchPair (mkSpan (mkPtok 30 "0123456789" 11 0 38) (mkPtok 40 "," 12 10 41)) (MKDigits (mkPtok 30 "0123456789" 11 0 38)) (mkPtok 39 ":" 11 11 39) (mkPtok 42 "Packet" 12 4 40) (Some (mkPtok 40 "," 12 10 41))); (mkMatchPair (mkSpan (mkPtok 31 (string_of_bytes [34; 240; 159; 152; 128; 34]%N) 12 12 42) (mkPtok 42 "trueish" 13 1 44)) (MKString (mkPtok 31 (string_of_bytes [34; 240; 159; 152; 128; 34]%N) 12 12 42)) (mkPtok 39 ":" 13 0 43) (mkPtok 42 "trueish" 13 1 44) None); (mkMatchPair (mkSpan (mkPtok 30 "4294967296" 14 0 45) (mkPtok 40 "," 15 9 49)) (MKDigits (mkPtok 30 "4294967296" 14 0 45)) (mkPtok 39 ":" 14 11 46) (mkPtok 42 "matchKey" 15 0 48) (Some (mkPtok 40 "," 15 9 49)))] (mkPtok 3 "}" 15 11 50)) (mkPtok 40 "," 16 0 51)))] (mkPtok 3 "}" 17 0 52))); (DPacket (mkPacketDef (mkSpan (mkPtok 35 "packet" 17 2 53) (mkPtok 3 "}" 68 18 199)) None (mkPtok 35 "packet" 17 2 53) (mkPtok 42 "roots" 17 9 54) (mkPtok 2 "{" 18 4 55) [(mkFieldWithAttr (mkSpan (mkPtok 36 "repeat" 19 0 56) (mkPtok 40 "," 34 0 91)) [] (InerObjectField (mkSpan (mkPtok 36 "repeat" 19 0 56) (mkPtok 40 "," 34 0 91)) (Some (mkPtok 36 "repeat" 19 0 56)) (InerObjectDecl (mkSpan (mkPtok 42 "f32a" 19 7 57) (mkPtok 3 "}" 33 4 89)) (mkPtok 42 "f32a" 19 7 57) (mkPtok 2 "{" 19 12 58) [(MatchField (mkSpan (mkPtok 38 "match" 20 0 60) (mkPtok 40 "," 32 0 88)) (mkMatchFieldDecl (mkSpan (mkPtok 38 "match" 20 0 60) (mkPtok 3 "}" 31 0 86)) (mkPtok 38 "match" 20 0 60) (mkPtok 42 "trueish" 20 6 61) (mkPtok 17 "as" 21 0 63) (mkPtok 42 "x" 24 0 66) (mkPtok 2 "{" 27 0 69) [(mkMatchPair (mkSpan (mkPtok 18 "[" 28 0 71) (mkPtok 42 "Foo" 30 3 85)) (MKList (mkKeyList (mkSpan (mkPtok 18 "[" 28 0 71) (mkPtok 13 "]" 30 0 83)) (mkPtok 18 "[" 28 0 71) (mkPtok 31 """{,}""" 28 1 72) [((mkPtok 40 "," 29 0 73), (mkPtok 31 (string_of_bytes [34; 230; 182; 136; 230; 129; 175; 34]%N) 29 2 74)); ((mkPtok 40 "," 29 7 75), (mkPtok 30 "0" 29 9 76)); ((mkPtok 40 "," 29 12 77), (mkPtok 31 """abc""" 29 15 78)); ((mkPtok 40 "," 29 21 79), (mkPtok 31 """a\""b""" 29 23 80)); ((mkPtok 40 "," 29 30 81), (mkPtok 30 "007" 29 32 82))] (mkPtok 13 "]" 30 0 83))) (mkPtok 39 ":" 30 2 84) (mkPtok 42 "Foo" 30 3 85) None)] (mkPtok 3 "}" 31 0 86)) (mkPtok 40 "," 32 0 88))] (mkPtok 3 "}" 33 4 89)) (mkPtok 40 "," 34 0 91))); (mkFieldWithAttr (mkSpan (mkPtok 7 "@lengthOf(" 34 3 92) (mkPtok 40 "," 35 0 101)) [(FALengthOf (mkSpan (mkPtok 7 "@lengthOf(" 34 3 92) (mkPtok 6 ")" 34 18 94)) (mkLengthOf (mkSpan (mkPtok 7 "@lengthOf(" 34 3 92) (mkPtok 6 ")" 34 18 94)) (mkPtok 7 "@lengthOf(" 34 3 92) (mkPtok 42 "Z9_" 34 14 93) (mkPtok 6 ")" 34 18 94))); (FATag (mkSpan (mkPtok 9 "@tag(" 34 19 95) (mkPtok 6 ")" 34 27 97)) (mkTagAttr (mkSpan (mkPtok 9 "@tag(" 34 19 95) (mkPtok 6 ")" 34 27 97)) (mkPtok 9 "@tag(" 34 19 95) (mkPtok 30 "7" 34 25 96) (mkPtok 6 ")" 34 27 97)))] (ObjectField (mkSpan (mkPtok 42 "chars" 34 28 98) (mkPtok 40 "," 35 0 101)) None (mkPtok 42 "chars" 34 28 98) (Some (mkPtok 42 "uint8x" 34 34 99)) (Some (mkPtok 43 "`it's`" 34 41 100)) (mkPtok 40 "," 35 0 101))); (mkFieldWithAttr (mkSpan (mkPtok 5 "@calculatedFrom(" 35 2 102) (mkPtok 40 "," 48 0 138)) [(FACalculatedFrom (mkSpan (mkPtok 5 "@calculatedFrom(" 35 2 102) (mkPtok 6 ")" 36 0 104)) (mkCalculatedFrom (mkSpan (mkPtok 5 "@calculatedFrom(" 35 2 102) (mkPtok 6 ")" 36 0 104)) (mkPtok 5 "@calculatedFrom(" 35 2 102) (mkPtok 31 (string_of_bytes [34; 97; 9; 98; 34]%N) 35 19 103) (mkPtok 6 ")" 36 0 104)))] (InerObjectField (mkSpan (mkPtok 42 "crc" 36 2 105) (mkPtok 40 "," 48 0 138)) None (InerObjectDecl (mkSpan (mkPtok 42 "crc" 36 2 105) (mkPtok 3 "}" 47 26 136)) (mkPtok 42 "crc" 36 2 105) (mkPtok 2 "{" 36 6 106) [(MatchField (mkSpan (mkPtok 38 "match" 36 8 107) (mkPtok 40 "," 42 1 123)) (mkMatchFieldDecl (mkSpan (mkPtok 38 "match" 36 8 107) (mkPtok 3 "}" 42 0 122)) (mkPtok 38 "match" 36 8 107) (mkPtok 42 "trueish" 39 0 110) (mkPtok 17 "as" 39 8 111) (mkPtok 42 "metadata" 40 0 113) (mkPtok 2 "{" 40 9 114) [(mkMatchPair (mkSpan (mkPtok 30 "65535" 40 11 115) (mkPtok 42 "string_" 41 2 117)) (MKDigits (mkPtok 30 "65535" 40 11 115)) (mkPtok 39 ":" 41 0 116) (mkPtok 42 "string_" 41 2 117) None); (mkMatchPair (mkSpan (mkPtok 31 (string_of_bytes [34; 230; 182; 136; 230; 129; 175; 34]%N) 41 10 118) (mkPtok 40 "," 41 23 121)) (MKString (mkPtok 31 (string_of_bytes [34; 230; 182; 136; 230; 129; 175; 34]%N) 41 10 118)) (mkPtok 39 ":" 41 15 119) (mkPtok 42 "Logon" 41 17 120) (Some (mkPtok 40 "," 41 23 121)))] (mkPtok 3 "}" 42 0 122)) (mkPtok 40 "," 42 1 123)); (MetaField (mkSpan (mkPtok 12 "char[" 43 4 124) (mkPtok 40 "," 46 4 130)) None (mkMetaDecl (mkSpan (mkPtok 12 "char[" 43 4 124) (mkPtok 40 "," 46 4 130)) (TyFixed (mkSpan (mkPtok 12 "char[" 43 4 124) (mkPtok 13 "]" 45 0 127)) (mkFixedString (mkSpan (mkPtok 12 "char[" 43 4 124) (mkPtok 13 "]" 45 0 127)) (mkPtok 12 "char[" 43 4 124) (mkPtok 30 "007" 44 4 125) (mkPtok 13 "]" 45 0 127))) (mkPtok 42 "falsey" 45 2 128) (Some (mkPtok 43 "`100% of %d`" 45 9 129)) (mkPtok 40 "," 46 4 130))); (CheckSumField (mkSpan (mkPtok 42 "u128" 46 6 131) (mkPtok 40 "," 47 24 135)) (mkChecksumFieldDecl (mkSpan (mkPtok 42 "u128" 46 6 131) (mkPtok 40 "," 47 24 135)) None (mkPtok 42 "u128" 46 6 131) (mkCalculatedFrom (mkSpan (mkPtok 5 "@calculatedFrom(" 47 0 132) (mkPtok 6 ")" 47 22 134)) (mkPtok 5 "@calculatedFrom(" 47 0 132) (mkPtok 31 """{,}""" 47 16 133) (mkPtok 6 ")" 47 22 134)) None (mkPtok 40 "," 47 24 135)))] (mkPtok 3 "}" 47 26 136)) (mkPtok 40 "," 48 0 138))); (mkFieldWithAttr (mkSpan (mkPtok 38 "match" 48 1 139) (mkPtok 40 "," 59 13 171)) [] (MatchField (mkSpan (mkPtok 38 "match" 48 1 139) (mkPtok 40 "," 59 13 171)) (mkMatchFieldDecl (mkSpan (mkPtok 38 "match" 48 1 139) (mkPtok 3 "}" 59 11 170)) (mkPtok 38 "match" 48 1 139) (mkPtok 42 "a1" 51 0 142) (mkPtok 17 "as" 51 3 143) (mkPtok 42 "As" 51 6 144) (mkPtok 2 "{" 51 9 145) [(mkMatchPair (mkSpan (mkPtok 31 (string_of_bytes [34; 195; 169; 116; 195; 169; 34]%N) 51 11 146) (mkPtok 42 "asx" 51 19 148)) (MKString (mkPtok 31 (string_of_bytes [34; 195; 169; 116; 195; 169; 34]%N) 51 11 146)) (mkPtok 39 ":" 51 17 147) (mkPtok 42 "asx" 51 19 148) None); (mkMatchPair (mkSpan (mkPtok 30 "255" 51 23 149) (mkPtok 42 "As" 52 0 151)) (MKDigits (mkPtok 30 "255" 51 23 149)) (mkPtok 39 ":" 51 26 150) (mkPtok 42 "As" 52 0 151) None); (mkMatchPair (mkSpan (mkPtok 31 """// no comment""" 52 4 152) (mkPtok 40 "," 56 0 157)) (MKString (mkPtok 31 """// no comment""" 52 4 152)) (mkPtok 39 ":" 53 0 153) (mkPtok 42 "string_" 53 3 154) (Some (mkPtok 40 "," 56 0 157))); (mkMatchPair (mkSpan (mkPtok 30 "0123456789" 56 2 158) (mkPtok 40 "," 57 7 161)) (MKDigits (mkPtok 30 "0123456789" 56 2 158)) (mkPtok 39 ":" 56 13 159) (mkPtok 42 "Z9_" 57 4 160) (Some (mkPtok 40 "," 57 7 161))); (mkMatchPair (mkSpan (mkPtok 30 "65535" 57 9 162) (mkPtok 42 "A" 58 0 165)) (MKDigits (mkPtok 30 "65535" 57 9 162)) (mkPtok 39 ":" 57 15 163) (mkPtok 42 "A" 58 0 165) None); (mkMatchPair (mkSpan (mkPtok 30 "4294967296" 58 2 166) (mkPtok 40 "," 59 9 169)) (MKDigits (mkPtok 30 "4294967296" 58 2 166)) (mkPtok 39 ":" 58 12 167) (mkPtok 42 "options1" 59 0 168) (Some (mkPtok 40 "," 59 9 169)))] (mkPtok 3 "}" 59 11 170)) (mkPtok 40 "," 59 13 171))); (mkFieldWithAttr (mkSpan (mkPtok 36 "repeat" 59 15 172) (mkPtok 40 "," 60 10 174)) [] (ObjectField (mkSpan (mkPtok 36 "repeat" 59 15 172) (mkPtok 40 "," 60 10 174)) (Some (mkPtok 36 "repeat" 59 15 172)) (mkPtok 42 "MetaDataX" 60 0 173) None None (mkPtok 40 "," 60 10 174))); (mkFieldWithAttr (mkSpan (mkPtok 42 "Logon" 60 12 175) (mkPtok 40 "," 60 17 176)) [] (ObjectField (mkSpan (mkPtok 42 "Logon" 60 12 175) (mkPtok 40 "," 60 17 176)) None (mkPtok 42 "Logon" 60 12 175) None None (mkPtok 40 "," 60 17 176))); (mkFieldWithAttr (mkSpan (mkPtok 5 "@calculatedFrom(" 60 19 177) (mkPtok 40 "," 64 12 182)) [(FACalculatedFrom (mkSpan (mkPtok 5 "@calculatedFrom(" 60 19 177) (mkPtok 6 ")" 62 4 179)) (mkCalculatedFrom (mkSpan (mkPtok 5 "@calculatedFrom(" 60 19 177) (mkPtok 6 ")" 62 4 179)) (mkPtok 5 "@calculatedFrom(" 60 19 177) (mkPtok 31 """a\\""" 61 0 178) (mkPtok 6 ")" 62 4 179)))] (ObjectField (mkSpan (mkPtok 42 "options1" 64 4 181) (mkPtok 40 "," 64 12 182)) None (mkPtok 42 "options1" 64 4 181) None None (mkPtok 40 "," 64 12 182))); (mkFieldWithAttr (mkSpan (mkPtok 7 "@lengthOf(" 65 4 183) (mkPtok 40 "," 65 23 187)) [(FALengthOf (mkSpan (mkPtok 7 "@lengthOf(" 65 4 183) (mkPtok 6 ")" 65 16 185)) (mkLengthOf (mkSpan (mkPtok 7 "@lengthOf(" 65 4 183) (mkPtok 6 ")" 65 16 185)) (mkPtok 7 "@lengthOf(" 65 4 183) (mkPtok 42 "T" 65 14 184) (mkPtok 6 ")" 65 16 185)))] (ObjectField (mkSpan (mkPtok 42 "roots" 65 18 186) (mkPtok 40 "," 65 23 187)) None (mkPtok 42 "roots" 65 18 186) None None (mkPtok 40 "," 65 23 187))); (mkFieldWithAttr (mkSpan (mkPtok 42 "Foo" 65 25 188) (mkPtok 40 "," 66 21 192)) [] (LengthField (mkSpan (mkPtok 42 "Foo" 65 25 188) (mkPtok 40 "," 66 21 192)) (mkLengthFieldDecl (mkSpan (mkPtok 42 "Foo" 65 25 188) (mkPtok 40 "," 66 21 192)) None (mkPtok 42 "Foo" 65 25 188) (mkLengthOf (mkSpan (mkPtok 7 "@lengthOf(" 66 4 189) (mkPtok 6 ")" 66 19 191)) (mkPtok 7 "@lengthOf(" 66 4 189) (mkPtok 42 "Pad" 66 15 190) (mkPtok 6 ")" 66 19 191)) None (mkPtok 40 "," 66 21 192)))); (mkFieldWithAttr (mkSpan (mkPtok 12 "char[" 67 0 194) (mkPtok 40 "," 68 16 198)) [] (MetaField (mkSpan (mkPtok 12 "char[" 67 0 194) (mkPtok 40 "," 68 16 198)) None (mkMetaDecl (mkSpan (mkPtok 12 "char[" 67 0 194) (mkPtok 40 "," 68 16 198)) (TyFixed (mkSpan (mkPtok 12 "char[" 67 0 194) (mkPtok 13 "]" 68 10 196)) (mkFixedString (mkSpan (mkPtok 12 "char[" 67 0 194) (mkPtok 13 "]" 68 10 196)) (mkPtok 12 "char[" 67 0 194) (mkPtok 30 "65535" 68 4 195) (mkPtok 13 "]" 68 10 196))) (mkPtok 42 "len" 68 12 197) None (mkPtok 40 "," 68 16 198))))] (mkPtok 3 "}" 68 18 199))); (DPacket (mkPacketDef (mkSpan (mkPtok 34 "root" 68 19 200) (mkPtok 3 "}" 96 6 300)) (Some (mkPtok 34 "root" 68 19 200)) (mkPtok 35 "packet" 69 0 202) (mkPtok 42 "repeatCount" 69 7 203) (mkPtok 2 "{" 69 18 204) [(mkFieldWithAttr (mkSpan (mkPtok 5 "@calculatedFrom(" 70 0 206) (mkPtok 40 "," 75 4 224)) [(FACalculatedFrom (mkSpan (mkPtok 5 "@calculatedFrom(" 70 0 206) (mkPtok 6 ")" 70 25 208)) (mkCalculatedFrom (mkSpan (mkPtok 5 "@calculatedFrom(" 70 0 206) (mkPtok 6 ")" 70 25 208)) (mkPtok 5 "@calculatedFrom(" 70 0 206) (mkPtok 31 """CRC32""" 70 17 207) (mkPtok 6 ")" 70 25 208))); (FATag (mkSpan (mkPtok 9 "@tag(" 71 0 209) (mkPtok 6 ")" 72 0 211)) (mkTagAttr (mkSpan (mkPtok 9 "@tag(" 71 0 209) (mkPtok 6 ")" 72 0 211)) (mkPtok 9 "@tag(" 71 0 209) (mkPtok 30 "7" 71 5 210) (mkPtok 6 ")" 72 0 211))); (FACalculatedFrom (mkSpan (mkPtok 5 "@calculatedFrom(" 72 3 212) (mkPtok 6 ")" 72 26 214)) (mkCalculatedFrom (mkSpan (mkPtok 5 "@calculatedFrom(" 72 3 212) (mkPtok 6 ")" 72 26 214)) (mkPtok 5 "@calculatedFrom(" 72 3 212) (mkPtok 31 """a\\""" 72 20 213) (mkPtok 6 ")" 72 26 214)))] (InerObjectField (mkSpan (mkPtok 42 "u128" 72 28 215) (mkPtok 40 "," 75 4 224)) None (InerObjectDecl (mkSpan (mkPtok 42 "u128" 72 28 215) (mkPtok 3 "}" 74 6 223)) (mkPtok 42 "u128" 72 28 215) (mkPtok 2 "{" 72 33 216) [(CheckSumField (mkSpan (mkPtok 42 "metadata" 72 35 217) (mkPtok 40 "," 74 4 222)) (mkChecksumFieldDecl (mkSpan (mkPtok 42 "metadata" 72 35 217) (mkPtok 40 "," 74 4 222)) None (mkPtok 42 "metadata" 72 35 217) (mkCalculatedFrom (mkSpan (mkPtok 5 "@calculatedFrom(" 72 44 218) (mkPtok 6 ")" 73 0 220)) (mkPtok 5 "@calculatedFrom(" 72 44 218) (mkPtok 31 """// no comment""" 72 61 219) (mkPtok 6 ")" 73 0 220)) (Some (mkPtok 43 "`two words`" 73 1 221)) (mkPtok 40 "," 74 4 222)))] (mkPtok 3 "}" 74 6 223)) (mkPtok 40 "," 75 4 224))); (mkFieldWithAttr (mkSpan (mkPtok 32 "@rightPad" 75 5 225) (mkPtok 40 "," 78 11 234)) [(FAPadding (mkSpan (mkPtok 32 "@rightPad" 75 5 225) (mkPtok 6 ")" 75 16 227)) (mkPaddingAttr (mkSpan (mkPtok 32 "@rightPad" 75 5 225) (mkPtok 6 ")" 75 16 227)) (mkPtok 32 "@rightPad" 75 5 225) (mkPtok 8 "(" 75 14 226) None (mkPtok 6 ")" 75 16 227)))] (MetaField (mkSpan (mkPtok 36 "repeat" 76 4 228) (mkPtok 40 "," 78 11 234)) (Some (mkPtok 36 "repeat" 76 4 228)) (mkMetaDecl (mkSpan (mkPtok 12 "char[" 77 4 229) (mkPtok 40 "," 78 11 234)) (TyFixed (mkSpan (mkPtok 12 "char[" 77 4 229) (mkPtok 13 "]" 78 0 232)) (mkFixedString (mkSpan (mkPtok 12 "char[" 77 4 229) (mkPtok 13 "]" 78 0 232)) (mkPtok 12 "char[" 77 4 229) (mkPtok 30 "0123456789" 77 10 230) (mkPtok 13 "]" 78 0 232))) (mkPtok 42 "MetaDataX" 78 2 233) None (mkPtok 40 "," 78 11 234)))); (mkFieldWithAttr (mkSpan (mkPtok 5 "@calculatedFrom(" 78 13 235) (mkPtok 40 "," 79 25 242)) [(FACalculatedFrom (mkSpan (mkPtok 5 "@calculatedFrom(" 78 13 235) (mkPtok 6 ")" 78 36 237)) (mkCalculatedFrom (mkSpan (mkPtok 5 "@calculatedFrom(" 78 13 235) (mkPtok 6 ")" 78 36 237)) (mkPtok 5 "@calculatedFrom(" 78 13 235) (mkPtok 31 """x y""" 78 30 236) (mkPtok 6 ")" 78 36 237)))] (LengthField (mkSpan (mkPtok 42 "stringy" 78 38 238) (mkPtok 40 "," 79 25 242)) (mkLengthFieldDecl (mkSpan (mkPtok 42 "stringy" 78 38 238) (mkPtok 40 "," 79 25 242)) None (mkPtok 42 "stringy" 78 38 238) (mkLengthOf (mkSpan (mkPtok 7 "@lengthOf(" 79 4 239) (mkPtok 6 ")" 79 23 241)) (mkPtok 7 "@lengthOf(" 79 4 239) (mkPtok 42 "metadata" 79 14 240) (mkPtok 6 ")" 79 23 241)) None (mkPtok 40 "," 79 25 242)))); (mkFieldWithAttr (mkSpan (mkPtok 42 "Foo" 79 27 243) (mkPtok 40 "," 80 0 246)) [] (ObjectField (mkSpan (mkPtok 42 "Foo" 79 27 243) (mkPtok 40 "," 80 0 246)) None (mkPtok 42 "Foo" 79 27 243) (Some (mkPtok 42 "options1" 79 31 244)) None (mkPtok 40 "," 80 0 246))); (mkFieldWithAttr (mkSpan (mkPtok 32 "@leftPad" 80 2 247) (mkPtok 40 "," 86 4 259)) [(FAPadding (mkSpan (mkPtok 32 "@leftPad" 80 2 247) (mkPtok 6 ")" 83 0 252)) (mkPaddingAttr (mkSpan (mkPtok 32 "@leftPad" 80 2 247) (mkPtok 6 ")" 83 0 252)) (mkPtok 32 "@leftPad" 80 2 247) (mkPtok 8 "(" 80 11 248) (Some (mkPtok 33 "'\x00'" 80 13 249)) (mkPtok 6 ")" 83 0 252))); (FAPadding (mkSpan (mkPtok 32 "@rightPad" 83 2 253) (mkPtok 6 ")" 84 2 256)) (mkPaddingAttr (mkSpan (mkPtok 32 "@rightPad" 83 2 253) (mkPtok 6 ")" 84 2 256)) (mkPtok 32 "@rightPad" 83 2 253) (mkPtok 8 "(" 84 0 255) None (mkPtok 6 ")" 84 2 256)))] (MetaField (mkSpan (mkPtok 26 "i32" 85 0 257) (mkPtok 40 "," 86 4 259)) None (mkMetaDecl (mkSpan (mkPtok 26 "i32" 85 0 257) (mkPtok 40 "," 86 4 259)) (TyBasic (mkSpan (mkPtok 26 "i32" 85 0 257) (mkPtok 26 "i32" 85 0 257)) (mkBasicType (mkSpan (mkPtok 26 "i32" 85 0 257) (mkPtok 26 "i32" 85 0 257)) (mkPtok 26 "i32" 85 0 257))) (mkPtok 42 "T" 85 4 258) None (mkPtok 40 "," 86 4 259)))); (mkFieldWithAttr (mkSpan (mkPtok 14 "zchar[" 86 6 260) (mkPtok 40 "," 87 10 265)) [] (MetaField (mkSpan (mkPtok 14 "zchar[" 86 6 260) (mkPtok 40 "," 87 10 265)) None (mkMetaDecl (mkSpan (mkPtok 14 "zchar[" 86 6 260) (mkPtok 40 "," 87 10 265)) (TyFixed (mkSpan (mkPtok 14 "zchar[" 86 6 260) (mkPtok 13 "]" 86 16 262)) (mkFixedString (mkSpan (mkPtok 14 "zchar[" 86 6 260) (mkPtok 13 "]" 86 16 262)) (mkPtok 14 "zchar[" 86 6 260) (mkPtok 30 "007" 86 12 261) (mkPtok 13 "]" 86 16 262))) (mkPtok 42 "a1" 87 0 263) (Some (mkPtok 43 (string_of_bytes [96; 230; 182; 136; 230; 129; 175; 231; 177; 187; 229; 158; 139; 96]%N) 87 3 264)) (mkPtok 40 "," 87 10 265)))); (mkFieldWithAttr (mkSpan (mkPtok 7 "@lengthOf(" 87 11 266) (mkPtok 40 "," 89 7 274)) [(FALengthOf (mkSpan (mkPtok 7 "@lengthOf(" 87 11 266) (mkPtok 6 ")" 87 29 268)) (mkLengthOf (mkSpan (mkPtok 7 "@lengthOf(" 87 11 266) (mkPtok 6 ")" 87 29 268)) (mkPtok 7 "@lengthOf(" 87 11 266) (mkPtok 42 "uint8x" 87 22 267) (mkPtok 6 ")" 87 29 268)))] (CheckSumField (mkSpan (mkPtok 42 "MetaDataX" 88 0 269) (mkPtok 40 "," 89 7 274)) (mkChecksumFieldDecl (mkSpan (mkPtok 42 "MetaDataX" 88 0 269) (mkPtok 40 "," 89 7 274)) None (mkPtok 42 "MetaDataX" 88 0 269) (mkCalculatedFrom (mkSpan (mkPtok 5 "@calculatedFrom(" 88 10 270) (mkPtok 6 ")" 88 31 272)) (mkPtok 5 "@calculatedFrom(" 88 10 270) (mkPtok 31 (string_of_bytes [34; 92; 195; 169; 34]%N) 88 26 271) (mkPtok 6 ")" 88 31 272)) (Some (mkPtok 43 (string_of_bytes [96; 108; 105; 110; 101; 49; 10; 108; 105; 110; 101; 50; 96]%N) 88 33 273)) (mkPtok 40 "," 89 7 274)))); (mkFieldWithAttr (mkSpan (mkPtok 5 "@calculatedFrom(" 90 0 275) (mkPtok 40 "," 92 27 282)) [(FACalculatedFrom (mkSpan (mkPtok 5 "@calculatedFrom(" 90 0 275) (mkPtok 6 ")" 92 4 278)) (mkCalculatedFrom (mkSpan (mkPtok 5 "@calculatedFrom(" 90 0 275) (mkPtok 6 ")" 92 4 278)) (mkPtok 5 "@calculatedFrom(" 90 0 275) (mkPtok 31 (string_of_bytes [34; 97; 9; 98; 34]%N) 90 17 276) (mkPtok 6 ")" 92 4 278)))] (MetaField (mkSpan (mkPtok 15 "string" 92 5 279) (mkPtok 40 "," 92 27 282)) None (mkMetaDecl (mkSpan (mkPtok 15 "string" 92 5 279) (mkPtok 40 "," 92 27 282)) (TyDynamic (mkSpan (mkPtok 15 "string" 92 5 279) (mkPtok 15 "string" 92 5 279)) (mkDynamicString (mkSpan (mkPtok 15 "string" 92 5 279) (mkPtok 15 "string" 92 5 279)) (mkPtok 15 "string" 92 5 279))) (mkPtok 42 "matchKey" 92 12 280) (Some (mkPtok 43 "`doc`" 92 21 281)) (mkPtok 40 "," 92 27 282)))); (mkFieldWithAttr (mkSpan (mkPtok 7 "@lengthOf(" 92 29 283) (mkPtok 40 "," 94 55 295)) [(FALengthOf (mkSpan (mkPtok 7 "@lengthOf(" 92 29 283) (mkPtok 6 ")" 93 0 285)) (mkLengthOf (mkSpan (mkPtok 7 "@lengthOf(" 92 29 283) (mkPtok 6 ")" 93 0 285)) (mkPtok 7 "@lengthOf(" 92 29 283) (mkPtok 42 "As" 92 40 284) (mkPtok 6 ")" 93 0 285))); (FACalculatedFrom (mkSpan (mkPtok 5 "@calculatedFrom(" 94 0 287) (mkPtok 6 ")" 94 33 289)) (mkCalculatedFrom (mkSpan (mkPtok 5 "@calculatedFrom(" 94 0 287) (mkPtok 6 ")" 94 33 289)) (mkPtok 5 "@calculatedFrom(" 94 0 287) (mkPtok 31 """// no comment""" 94 17 288) (mkPtok 6 ")" 94 33 289))); (FATag (mkSpan (mkPtok 9 "@tag(" 94 34 290) (mkPtok 6 ")" 94 43 292)) (mkTagAttr (mkSpan (mkPtok 9 "@tag(" 94 34 290) (mkPtok 6 ")" 94 43 292)) (mkPtok 9 "@tag(" 94 34 290) (mkPtok 30 "10" 94 40 291) (mkPtok 6 ")" 94 43 292)))] (MetaField (mkSpan (mkPtok 15 "string" 94 45 293) (mkPtok 40 "," 94 55 295)) None (mkMetaDecl (mkSpan (mkPtok 15 "string" 94 45 293) (mkPtok 40 "," 94 55 295)) (TyDynamic (mkSpan (mkPtok 15 "string" 94 45 293) (mkPtok 15 "string" 94 45 293)) (mkDynamicString (mkSpan (mkPtok 15 "string" 94 45 293) (mkPtok 15 "string" 94 45 293)) (mkPtok 15 "string" 94 45 293))) (mkPtok 42 "Foo" 94 52 294) None (mkPtok 40 "," 94 55 295)))); (mkFieldWithAttr (mkSpan (mkPtok 36 "repeat" 95 4 296) (mkPtok 40 "," 96 4 299)) [] (ObjectField (mkSpan (mkPtok 36 "repeat" 95 4 296) (mkPtok 40 "," 96 4 299)) (Some (mkPtok 36 "repeat" 95 4 296)) (mkPtok 42 "lengthOf" 95 11 297) None (Some (mkPtok 43 "`// not a comment`" 95 19 298)) (mkPtok 40 "," 96 4 299)))] (mkPtok 3 "}" 96 6 300)))])).
+Eval vm_compute in ("<<<M822>>>" ++ check (runes_of_ascii "packet // trailing space 
+falsey {@lengthOf( /// triple
+i8i8
+) uint8 falsey // packet A { u8 x, }
+`two words`
+    // " ++ [128512]%N ++ runes_of_ascii " emoji
+    , @lengthOf( BodyLength )  @lengthOf(float  ) repeat MetaDataX// `tick` ""quote"" 'q'
+{ repeat char[] metadata , }
+, repeat
+    u8
+// " ++ [128512]%N ++ runes_of_ascii " emoji
+/// triple
+Logon ,
+    }
+// @lengthOf(
+// c
+packet
+    matchKey{ } // @lengthOf(
+packet u128 { /// triple
+match //
+msg_type as _x { [ ""`tick`"" ,
+    42 ]: //x
+x_y_z// 50% %s
+} , } /// triple")).
+Eval vm_compute in ("<<<M854>>>" ++ check (runes_of_ascii "MetaData
+    charz	{ float BodyLength
+    `a\` // packet A { u8 x, }
+, chars
+body
+    ,  _x  crc `it's`
+    ,
+    u64
+    Z9_
+// packet A { u8 x, }
+/// triple
+,}
+    options// @lengthOf(
+{  As = '0' ;
+    options1// trailing space 
+=char[
+    //x
+    10
+// a // b
+// packet A { u8 x, }
+]} packet	o { @leftPad
+(
+    /// triple
+    ) match
+asx as matchKey// 50% %s
+{ 7
+    //	t
+    :
+    leftPad , ""it's"" :crc[  0, 10
+, 0123456789 , ""1"" ] : As  , [ 65535
+,
+"""", // `tick` ""quote"" 'q'
+""it's""
+, """ ++ [233]%N ++ runes_of_ascii "t" ++ [233]%N ++ runes_of_ascii """	, """ ++ [28040; 24687]%N ++ runes_of_ascii """, 007
+// c
+// `tick` ""quote"" 'q'
+, 7 , """ ++ [128512]%N ++ runes_of_ascii """] : u8x,},
+i32 pack @calculatedFrom(""" ++ [28040; 24687]%N ++ runes_of_ascii """ )	`
+` ,
+u{ Foo
+    , uint16
+float	@lengthOf(a1 ) ,
+//
+//x
+repeat u8 len`it's` , char
+MetaDataX
+    //	t
+    @calculatedFrom(// " ++ [27880; 37322]%N ++ runes_of_ascii "
+""packet"" )
+`two words` ,	} , char[4294967296
+    ] zchar @calculatedFrom( ""a	b"" )
+    ,	match	calculatedFrom as
+    asx {
+    ""1"" :matchKey  , ""\n"" : asx // c
+,""`tick`""	:
+Foo
+    , ""{,}""
+    :
+pack ,
+""a	b"" : //x
+lengthOf
+""\n"": MetaDataX, // c
+}
+,  } packet roots {
+    o{float64 Logon@lengthOf( rootA )
+`u8 x,` // c
+, } ,
+    char[] uint8x
+`say ""hi""`
+//
+// " ++ [128512]%N ++ runes_of_ascii " emoji
+,u ,repeat
+i8i8 { match
+leftPad as	Foo { ""\n"" // a // b
+:
+/// triple
+// a // b
+BodyLength	, [ // 50% %s
+007
+    ]
+: T }
+,
+    match u as stringy
+{ ""// no comment"":x_y_z ,}	,
+u8 rootA //x
+,  int64
+pack , } ,
+    string string_	@calculatedFrom(
+// @lengthOf(
+// " ++ [128512]%N ++ runes_of_ascii " emoji
+""abc"" )
+    // trailing space 
+    `a\`, calculatedFrom// trailing space 
+{	match
+    i64_
+    as
+    // trailing space 
+    rootA {
+    [ ""packet""
+] : // " ++ [27880; 37322]%N ++ runes_of_ascii "
+charz,[""a\""b"" , ""abc"" , // c
+0123456789
+, ""a\\"" // " ++ [128512]%N ++ runes_of_ascii " emoji
+,
+    ""x y""
+    ,
+    ""// no comment"" ] :rootA  ""packet"" :lengthOf , ""// no comment"" : trueish
+    , 0123456789: packetx[
+0 ,
+""\" ++ [233]%N ++ runes_of_ascii """
+    , 0123456789
+,""`tick`"" ] // packet A { u8 x, }
+: msg_type	,}
+, char[] msg_type
+@lengthOf( pack),
+repeat/// triple
+char[] falsey ,
+    //	t
+    string_ _x
+,
+//	t
+// 50% %s
+}
+    , }
+")).
+Eval vm_compute in ("<<<M886>>>" ++ check (runes_of_ascii "packet matchKey{
+float64
+Packet	`u8 x,`,
+@lengthOf(
+T )@lengthOf(chars // " ++ [27880; 37322]%N ++ runes_of_ascii "
+)
+    // `tick` ""quote"" 'q'
+    @rightPad (
+    ' '
+    )string_ falsey ,
+    // 50% %s
+    @rightPad
+    ( ) repeat charz {
+    repeat
+    //
+    u16 len// " ++ [27880; 37322]%N ++ runes_of_ascii "
+, i64 falsey// " ++ [128512]%N ++ runes_of_ascii " emoji
+@calculatedFrom( // a // b
+""{,}"" )
+    // " ++ [128512]%N ++ runes_of_ascii " emoji
+    , repeat // c
+char[ 7 ] x_y_z
+    `a\`
+, len
+    @lengthOf(
+u) , }
+, char	o //
+`100% of %d` , uint8 chars @calculatedFrom(
+// " ++ [27880; 37322]%N ++ runes_of_ascii "
+// a // b
+""\n"" ) , }root
+packet leftPad
+{ @rightPad	( ) u64 pack @calculatedFrom(
+""packet"" )
+    ,float32 BodyLength
+    ,
+    int32 packetx// packet A { u8 x, }
+`it's` ,
+    } packet float
+    { stringy msg_type
+    , Z9_	@calculatedFrom( ""1"" )
+`u8 x,` , @lengthOf( Header
+// @lengthOf(
+// packet A { u8 x, }
+)
+    // a // b
+    trueish
+    @calculatedFrom( ""x y"" ), }")).
+Eval vm_compute in ("<<<M918>>>" ++ check (runes_of_ascii "MetaData lengthOf
+{ char[ 10 ]metadata	`two words`
+,// 50% %s
+chars	_x
+, i32 len	`` , int16 // trailing space 
+zchar
+    `line1
+line2`, calculatedFrom T
+    ,
+} packet x_y_z { @calculatedFrom( ""a	b"")
+repeat Packet ,
+BodyLength
+`` ,
+repeat float
+u128 `say ""hi""`// @lengthOf(
+,
+    }
+")).
+Eval vm_compute in ("<<<M950>>>" ++ check (runes_of_ascii "packet A
+    // " ++ [128512]%N ++ runes_of_ascii " emoji
+    { @rightPad
+(' ') uint32 o @calculatedFrom(
+    """" ),
+    } // a // b
+packet
+matchKey // `tick` ""quote"" 'q'
+{ repeat chars
+    ,	string chars `crlf
+line`
+//x
+// " ++ [128512]%N ++ runes_of_ascii " emoji
+, string
+    x_y_z ,
+A // packet A { u8 x, }
+roots , @lengthOf( body )
+    repeat zchar[  10
+] x ,
+    }options{
+pack//
+=
+    ""abc""
+    } // @lengthOf(")).
+Eval vm_compute in ("<<<M982>>>" ++ check (runes_of_ascii "
+
+")).
+Eval vm_compute in ("<<<M1014>>>" ++ check (runes_of_ascii "packet chars { char[]
+    Pad @lengthOf( u128 )
+    // a // b
+    `it's`,
+@tag( 4294967296
+    )
+    MetaDataX tag`` , Logon `{ , }` ,}
+")).
+Eval vm_compute in ("<<<T1014>>>" ++ terms [mkTok 35 "packet" 1 0 false; mkTok 42 "chars" 1 7 false; mkTok 2 "{" 1 13 false; mkTok 16 "char[]" 1 15 false; mkTok 42 "Pad" 2 4 false; mkTok 7 "@lengthOf(" 2 8 false; mkTok 42 "u128" 2 19 false; mkTok 6 ")" 2 24 false; mkTok 44 "// a // b" 3 4 true; mkTok 43 "`it's`" 4 4 false; mkTok 40 "," 4 10 false; mkTok 9 "@tag(" 5 0 false; mkTok 30 "4294967296" 5 6 false; mkTok 6 ")" 6 4 false; mkTok 42 "MetaDataX" 7 4 false; mkTok 42 "tag" 7 14 false; mkTok 43 "``" 7 17 false; mkTok 40 "," 7 20 false; mkTok 42 "Logon" 7 22 false; mkTok 43 "`{ , }`" 7 28 false; mkTok 40 "," 7 36 false; mkTok 3 "}" 7 37 false; mkTok 0 "<EOF>" 8 0 false] (mkPacket (mkPtok 35 "packet" 1 0 0) (Some (mkPtok 3 "}" 7 37 21)) [(DPacket (mkPacketDef (mkSpan (mkPtok 35 "packet" 1 0 0) (mkPtok 3 "}" 7 37 21)) None (mkPtok 35 "packet" 1 0 0) (mkPtok 42 "chars" 1 7 1) (mkPtok 2 "{" 1 13 2) [(mkFieldWithAttr (mkSpan (mkPtok 16 "char[]" 1 15 3) (mkPtok 40 "," 4 10 10)) [] (LengthField (mkSpan (mkPtok 16 "char[]" 1 15 3) (mkPtok 40 "," 4 10 10)) (mkLengthFieldDecl (mkSpan (mkPtok 16 "char[]" 1 15 3) (mkPtok 40 "," 4 10 10)) (Some (TyDynamic (mkSpan (mkPtok 16 "char[]" 1 15 3) (mkPtok 16 "char[]" 1 15 3)) (mkDynamicString (mkSpan (mkPtok 16 "char[]" 1 15 3) (mkPtok 16 "char[]" 1 15 3)) (mkPtok 16 "char[]" 1 15 3)))) (mkPtok 42 "Pad" 2 4 4) (mkLengthOf (mkSpan (mkPtok 7 "@lengthOf(" 2 8 5) (mkPtok 6 ")" 2 24 7)) (mkPtok 7 "@lengthOf(" 2 8 5) (mkPtok 42 "u128" 2 19 6) (mkPtok 6 ")" 2 24 7)) (Some (mkPtok 43 "`it's`" 4 4 9)) (mkPtok 40 "," 4 10 10)))); (mkFieldWithAttr (mkSpan (mkPtok 9 "@tag(" 5 0 11) (mkPtok 40 "," 7 20 17)) [(FATag (mkSpan (mkPtok 9 "@tag(" 5 0 11) (mkPtok 6 ")" 6 4 13)) (mkTagAttr (mkSpan (mkPtok 9 "@tag(" 5 0 11) (mkPtok 6 ")" 6 4 13)) (mkPtok 9 "@tag(" 5 0 11) (mkPtok 30 "4294967296" 5 6 12) (mkPtok 6 ")" 6 4 13)))] (ObjectField (mkSpan (mkPtok 42 "MetaDataX" 7 4 14) (mkPtok 40 "," 7 20 17)) None (mkPtok 42 "MetaDataX" 7 4 14) (Some (mkPtok 42 "tag" 7 14 15)) (Some (mkPtok 43 "``" 7 17 16)) (mkPtok 40 "," 7 20 17))); (mkFieldWithAttr (mkSpan (mkPtok 42 "Logon" 7 22 18) (mkPtok 40 "," 7 36 20)) [] (ObjectField (mkSpan (mkPtok 42 "Logon" 7 22 18) (mkPtok 40 "," 7 36 20)) None (mkPtok 42 "Logon" 7 22 18) None (Some (mkPtok 43 "`{ , }`" 7 28 19)) (mkPtok 40 "," 7 36 20)))] (mkPtok 3 "}" 7 37 21)))])).
+Eval vm_compute in ("<<<M1046>>>" ++ check (runes_of_ascii "packet
+    len {
+    match As  as
+f32a { ""a\\"" :
+Foo , [
+    00 , """ ++ [233]%N ++ runes_of_ascii "t" ++ [233]%N ++ runes_of_ascii """
+]
+    : Packet // " ++ [27880; 37322]%N ++ runes_of_ascii "
+,
+""abc"":i8i8,
+    42 //x
+: falsey	, //
+} , @tag( 00 ) // `tick` ""quote"" 'q'
+leftPad @lengthOf( len
 // a // b
 // " ++ [27880; 37322]%N ++ runes_of_ascii "
-@tag(
-    007) leftPad charz , repeatCount `" ++ [28040; 24687; 31867; 22411]%N ++ runes_of_ascii "` , @lengthOf(
-stringy )
-    @tag(
-4294967296 )// a // b
-u64 uint8x
-@lengthOf( u8x)`crlf
-line` , }
-    options{ }
+) `u8 x,` , repeat
+int64 i64_ , }
 ")).
-Eval vm_compute in ("<<<M1974>>>" ++ check (runes_of_ascii "// " ++ [27880; 37322]%N ++ runes_of_ascii "
-packet leftPad  {
-}	root packet u8x{@calculatedFrom(	""// no comment"")
-    repeat // a // b
-T
-    , @calculatedFrom(	""x y""
-    ) @rightPad( '0'
-    )
-match
-f32a as Z9_ { """ ++ [233]%N ++ runes_of_ascii "t" ++ [233]%N ++ runes_of_ascii """
-: i64_ }
-, }// c
-packet repeatCount{
-int64
+Eval vm_compute in ("<<<M1078>>>" ++ check (runes_of_ascii "// `tick` ""quote"" 'q'
+MetaData  x{ zchar[
+    3	] // c
+matchKey , } MetaData
+As {
+    char[]x_y_z `two words` , } root packet x
+{ i8 Pad @calculatedFrom( ""1"" // packet A { u8 x, }
+) `" ++ [233]%N ++ runes_of_ascii "`,
+    @lengthOf(chars // " ++ [27880; 37322]%N ++ runes_of_ascii "
+)len Z9_ , @lengthOf( Foo )	char x_y_z @lengthOf( x_y_z)// trailing space 
+, // " ++ [27880; 37322]%N ++ runes_of_ascii "
+@leftPad
+    ( '0' )
+    x  @calculatedFrom(""a\\"" ) ,
+string
+Pad , char[ 10]
+//x
+// " ++ [27880; 37322]%N ++ runes_of_ascii "
+Packet
+, @leftPad( '\x00' // c
+) stringy@lengthOf( matchKey )	`// not a comment` , @calculatedFrom(// trailing space 
+""// no comment""
+    ) f32
+    stringy@calculatedFrom( ""1"" )	, u64
+u
+    // 50% %s
+    ,  match
+uint8x	as Header
+    {	[ 0123456789
+    , 00 ]
+    // 50% %s
+    : MetaDataX, } , }")).
+Eval vm_compute in ("<<<M1110>>>" ++ check (runes_of_ascii "packet	trueish {	@lengthOf(
+string_ ) // " ++ [27880; 37322]%N ++ runes_of_ascii "
+@leftPad (' ' ) @tag(
+255 )
+    a1 T  `u8 x,` ,i64 chars `tab	here`, } options { falsey =
+i8// trailing space 
+;
+metadata = 007
+    ;	_x = char[ 0123456789	] i8i8
+    = u16; Z9_=""// no comment""
+    ; }
+// `tick` ""quote"" 'q'
+// " ++ [128512]%N ++ runes_of_ascii " emoji
+root	packet x_y_z
+{ zchar[ 255 ] roots @calculatedFrom(""a	b"" ) `u8 x,`
+    ,
+@tag( 42 ) options1 a1 // c
+, }")).
+Eval vm_compute in ("<<<M1142>>>" ++ check (runes_of_ascii "MetaData _x
+    {
+string Packet`// not a comment`
+    , o Logon
+    // " ++ [27880; 37322]%N ++ runes_of_ascii "
+    , packetx uint8x , } root
+// a // b
+// a // b
+packet MetaDataX { repeat char[255] // " ++ [128512]%N ++ runes_of_ascii " emoji
+x_y_z `doc` ,
+@calculatedFrom(	""{,}"" ) match
+    // " ++ [128512]%N ++ runes_of_ascii " emoji
+    asx as A // trailing space 
+{ 4294967296 : Pad 10
+    :a1 ,	}
+,
+zchar[ 3	] asx
+`{ , }` ,match
+msg_type as i8i8 { [
+    0
+    ,1
+    , 007
+    , ""a\\"", ""\" ++ [233]%N ++ runes_of_ascii """ ,65535 ]:
+    calculatedFrom ,
+    // 50% %s
+    007 // trailing space 
+:
+    T 255
+:repeatCount ,
+    [ // trailing space 
+0123456789
+    , ""it's""] : chars
+,}  , u128 ,	string A @lengthOf( Packet  ) `tab	here` ,
+    char[0123456789
+    ] // trailing space 
+uint8x
+@lengthOf(x_y_z
+) , asx
+`" ++ [28040; 24687; 31867; 22411]%N ++ runes_of_ascii "` , }
+packet a1{ i8 trueish , } packet matchKey
+{ match
+a1 as
+string_ { 10
+: pack
+// trailing space 
+// a // b
+, },
+// @lengthOf(
+// a // b
+char[ 10	]
+falsey `" ++ [233]%N ++ runes_of_ascii "`
+    ,pack{ i8i8 { repeat
+lengthOf {
     //	t
-    Foo  `u8 x,`, // `tick` ""quote"" 'q'
+    tag asx , match
+rootA as matchKey // packet A { u8 x, }
+{ ""CRC32""
+    :
+    u 42:lengthOf ,// c
+} ,
+repeat
+// packet A { u8 x, }
+// @lengthOf(
+uint64 packetx  `
+` ,	zchar[
+    0 ]/// triple
+options1 @lengthOf(
+Packet )
+`doc` ,} ,
+    } // trailing space 
+, } ,
+}
+// `tick` ""quote"" 'q'
+//
+MetaData  options1
+{
+    string_ // packet A { u8 x, }
+zchar,Z9_ repeatCount`crlf
+line` , uint64 Logon , uint64 a1 ,
+    string_ Foo ,
 }")).
+Eval vm_compute in ("<<<M1174>>>" ++ check (runes_of_ascii "
+packet roots
+{
+char[] falsey @calculatedFrom(	""`tick`""
+) // c
+`{ , }` ,match
+    tag as	BodyLength{ // @lengthOf(
+""packet"" : T , 42 :f32a// a // b
+,255 : lengthOf , // " ++ [27880; 37322]%N ++ runes_of_ascii "
+} , BodyLength { Z9_ {
+    stringy
+{ metadata
+, }, zchar@lengthOf( // 50% %s
+x_y_z) ,match
+    // `tick` ""quote"" 'q'
+    lengthOf as float{
+10 :
+repeatCount ,
+} ,
+repeat string
+Pad `u8 x,` ,  }	,
+    charz { repeat
+    lengthOf
+    { zchar[
+007] f32a
+@calculatedFrom( ""it's""  )  `" ++ [28040; 24687; 31867; 22411]%N ++ runes_of_ascii "` , uint64
+    tag @calculatedFrom( ""packet""
+) // `tick` ""quote"" 'q'
+`" ++ [233]%N ++ runes_of_ascii "`
+, char[10 ]
+calculatedFrom
+    `tab	here`,
+    char[] Logon`" ++ [28040; 24687; 31867; 22411]%N ++ runes_of_ascii "` , }, i16 x_y_z
+`doc`
+,
+// packet A { u8 x, }
+// trailing space 
+string
+// packet A { u8 x, }
+// `tick` ""quote"" 'q'
+u128
+,}	,
+} ,Foo	@lengthOf(o)
+, i32 int,
+options1	,
+} options{
+// " ++ [128512]%N ++ runes_of_ascii " emoji
+// trailing space 
+leftPad ='\x00' //x
+;  Foo
+    // " ++ [27880; 37322]%N ++ runes_of_ascii "
+    =  255	x =true
+; }packet
+x
+{
+    @calculatedFrom( """ ++ [28040; 24687]%N ++ runes_of_ascii """)repeat
+    u8
+/// triple
+//x
+As ,
+    repeat  char[42	]A , int8 o `two words`
+    // " ++ [27880; 37322]%N ++ runes_of_ascii "
+    ,
+@lengthOf(
+asx ) @lengthOf(  tag
+    )match
+trueish
+    as	lengthOf // packet A { u8 x, }
+{  0	: o,
+""{,}""
+    : // packet A { u8 x, }
+chars [ ""packet""  ]
+: A,
+""\" ++ [233]%N ++ runes_of_ascii """ : pack , [ ""\n"" ,
+10 , // `tick` ""quote"" 'q'
+""CRC32"" ,
+00, 007, 42 , 0123456789 ,""""  ] : stringy , ""packet"" : i64_ , } , repeatCount
+,
+    i32 zchar@lengthOf( Logon) `tab	here` ,zchar
+/// triple
+// a // b
+@calculatedFrom(""CRC32"" ) `u8 x,`
+    // packet A { u8 x, }
+    ,@lengthOf( lengthOf ) // c
+@rightPad // " ++ [128512]%N ++ runes_of_ascii " emoji
+( )Packet @calculatedFrom(""// no comment"")
+    // @lengthOf(
+    , @tag( 10 )
+// trailing space 
+// `tick` ""quote"" 'q'
+len`a\`,// " ++ [128512]%N ++ runes_of_ascii " emoji
+} packet _x { } root	packet uint8x { uint8
+    falsey
+`" ++ [233]%N ++ runes_of_ascii "` , zchar[
+007 ] stringy ,
+BodyLength float ,zchar[
+    1 ]roots ,uint8 Packet , repeat float64 repeatCount  , repeat char f32a`
+` ,
+    i32 a1 `crlf
+line`
+, } // @lengthOf(")).
+Eval vm_compute in ("<<<M1206>>>" ++ check (runes_of_ascii "
+root // " ++ [128512]%N ++ runes_of_ascii " emoji
+packet MetaDataX {  @leftPad(
+' ' )  crc @calculatedFrom( """ ++ [128512]%N ++ runes_of_ascii """ )
+    , @tag( 4294967296 )
+    @leftPad( )
+@lengthOf( body ) // " ++ [27880; 37322]%N ++ runes_of_ascii "
+Header
+    `doc` , }
+    options
+{ chars='0'
+    Packet =
+'0'
+    // `tick` ""quote"" 'q'
+    int =
+    ""a\\"" tag =
+'0'
+//
+// packet A { u8 x, }
+; }
+")).
+Eval vm_compute in ("<<<M1238>>>" ++ check (runes_of_ascii "MetaData A {
+    } packet zchar
+// packet A { u8 x, }
+// `tick` ""quote"" 'q'
+{
+    /// triple
+    } options { } /// triple")).
+Eval vm_compute in ("<<<T1238>>>" ++ terms [mkTok 37 "MetaData" 1 0 false; mkTok 42 "A" 1 9 false; mkTok 2 "{" 1 11 false; mkTok 3 "}" 2 4 false; mkTok 35 "packet" 2 6 false; mkTok 42 "zchar" 2 13 false; mkTok 44 "// packet A { u8 x, }" 3 0 true; mkTok 44 "// `tick` ""quote"" 'q'" 4 0 true; mkTok 2 "{" 5 0 false; mkTok 44 "/// triple" 6 4 true; mkTok 3 "}" 7 4 false; mkTok 1 "options" 7 6 false; mkTok 2 "{" 7 14 false; mkTok 3 "}" 7 16 false; mkTok 44 "/// triple" 7 18 true; mkTok 0 "<EOF>" 7 28 false] (mkPacket (mkPtok 37 "MetaData" 1 0 0) (Some (mkPtok 3 "}" 7 16 13)) [(DMeta (mkMetaDef (mkSpan (mkPtok 37 "MetaData" 1 0 0) (mkPtok 3 "}" 2 4 3)) (mkPtok 37 "MetaData" 1 0 0) (mkPtok 42 "A" 1 9 1) (mkPtok 2 "{" 1 11 2) [] (mkPtok 3 "}" 2 4 3))); (DPacket (mkPacketDef (mkSpan (mkPtok 35 "packet" 2 6 4) (mkPtok 3 "}" 7 4 10)) None (mkPtok 35 "packet" 2 6 4) (mkPtok 42 "zchar" 2 13 5) (mkPtok 2 "{" 5 0 8) [] (mkPtok 3 "}" 7 4 10))); (DOption (mkOptionDef (mkSpan (mkPtok 1 "options" 7 6 11) (mkPtok 3 "}" 7 16 13)) (mkPtok 1 "options" 7 6 11) (mkPtok 2 "{" 7 14 12) [] (mkPtok 3 "}" 7 16 13)))])).
+Eval vm_compute in ("<<<M1270>>>" ++ check (runes_of_ascii "packet BodyLength {
+x_y_z
+    @calculatedFrom( ""abc"" ) , }
+// c
+")).
+Eval vm_compute in ("<<<M1302>>>" ++ check (runes_of_ascii "//	t
+options{ MetaDataX = true ; // `tick` ""quote"" 'q'
+Foo =
+    ' '} options {
+tag=""{,}"" // " ++ [128512]%N ++ runes_of_ascii " emoji
+As =
+    char[ //	t
+7 ]	; asx
+= ' ' int =
+    '\x00'
+    ;}	options { }
+")).
+Eval vm_compute in ("<<<M1334>>>" ++ check (runes_of_ascii "MetaData// `tick` ""quote"" 'q'
+Packet{ calculatedFrom BodyLength
+    `{ , }` ,
+int64 i8i8 `{ , }` , // `tick` ""quote"" 'q'
+} packet  chars
+{
+//
+// `tick` ""quote"" 'q'
+} // a // b
+root packet tag { @rightPad
+(// trailing space 
+) char[ 7 ]	roots
+    // 50% %s
+    @calculatedFrom( ""it's"" )
+// c
+// @lengthOf(
+`it's`
+    ,
+// @lengthOf(
+// trailing space 
+}")).
+Eval vm_compute in ("<<<M1366>>>" ++ check (runes_of_ascii "options
+    { } options
+{ As	=true As
+=
+char[
+    // `tick` ""quote"" 'q'
+    0123456789	]
+calculatedFrom = ""\n"" ; i64_
+=true ;
+// c
+//
+} root packet repeatCount  { @rightPad
+( '\x00' ) match Z9_ as zchar { ""\n"" :Pad// 50% %s
+""CRC32"": options1 , ""x y"" : o , 7 :
+A ,}
+,
+    } packet asx{ zchar u128`crlf
+line` ,	} 	 ")).
+Eval vm_compute in ("<<<M1398>>>" ++ check (runes_of_ascii "  options
+{ Logon // @lengthOf(
+=
+u16 roots =
+'\x00'
+//
+//
+;o
+= ""abc"" ; }packet
+    A { // `tick` ""quote"" 'q'
+Z9_ charz	, }")).
+Eval vm_compute in ("<<<M1430>>>" ++ check (runes_of_ascii "packet
+    u128	{
+    @calculatedFrom(""\n"" // c
+)	a1 `// not a comment`, }
+")).
+Eval vm_compute in ("<<<M1462>>>" ++ check (runes_of_ascii "options
+{}
+packet
+    calculatedFrom
+    {
+@lengthOf(
+trueish // " ++ [128512]%N ++ runes_of_ascii " emoji
+)  @lengthOf(
+    // a // b
+    asx )
+@rightPad () char stringy @lengthOf( trueish
+)
+, } MetaData packetx{ // " ++ [27880; 37322]%N ++ runes_of_ascii "
+f32 Pad `" ++ [28040; 24687; 31867; 22411]%N ++ runes_of_ascii "`
+, int64 msg_type // 50% %s
+, int32 matchKey
+, }")).
+Eval vm_compute in ("<<<T1462>>>" ++ terms [mkTok 1 "options" 1 0 false; mkTok 2 "{" 2 0 false; mkTok 3 "}" 2 1 false; mkTok 35 "packet" 3 0 false; mkTok 42 "calculatedFrom" 4 4 false; mkTok 2 "{" 5 4 false; mkTok 7 "@lengthOf(" 6 0 false; mkTok 42 "trueish" 7 0 false; mkTok 44 (string_of_bytes [47; 47; 32; 240; 159; 152; 128; 32; 101; 109; 111; 106; 105]%N) 7 8 true; mkTok 6 ")" 8 0 false; mkTok 7 "@lengthOf(" 8 3 false; mkTok 44 "// a // b" 9 4 true; mkTok 42 "asx" 10 4 false; mkTok 6 ")" 10 8 false; mkTok 32 "@rightPad" 11 0 false; mkTok 8 "(" 11 10 false; mkTok 6 ")" 11 11 false; mkTok 19 "char" 11 13 false; mkTok 42 "stringy" 11 18 false; mkTok 7 "@lengthOf(" 11 26 false; mkTok 42 "trueish" 11 37 false; mkTok 6 ")" 12 0 false; mkTok 40 "," 13 0 false; mkTok 3 "}" 13 2 false; mkTok 37 "MetaData" 13 4 false; mkTok 42 "packetx" 13 13 false; mkTok 2 "{" 13 20 false; mkTok 44 (string_of_bytes [47; 47; 32; 230; 179; 168; 233; 135; 138]%N) 13 22 true; mkTok 28 "f32" 14 0 false; mkTok 42 "Pad" 14 4 false; mkTok 43 (string_of_bytes [96; 230; 182; 136; 230; 129; 175; 231; 177; 187; 229; 158; 139; 96]%N) 14 8 false; mkTok 40 "," 15 0 false; mkTok 27 "int64" 15 2 false; mkTok 42 "msg_type" 15 8 false; mkTok 44 "// 50% %s" 15 17 true; mkTok 40 "," 16 0 false; mkTok 26 "int32" 16 2 false; mkTok 42 "matchKey" 16 8 false; mkTok 40 "," 17 0 false; mkTok 3 "}" 17 2 false; mkTok 0 "<EOF>" 17 3 false] (mkPacket (mkPtok 1 "options" 1 0 0) (Some (mkPtok 3 "}" 17 2 39)) [(DOption (mkOptionDef (mkSpan (mkPtok 1 "options" 1 0 0) (mkPtok 3 "}" 2 1 2)) (mkPtok 1 "options" 1 0 0) (mkPtok 2 "{" 2 0 1) [] (mkPtok 3 "}" 2 1 2))); (DPacket (mkPacketDef (mkSpan (mkPtok 35 "packet" 3 0 3) (mkPtok 3 "}" 13 2 23)) None (mkPtok 35 "packet" 3 0 3) (mkPtok 42 "calculatedFrom" 4 4 4) (mkPtok 2 "{" 5 4 5) [(mkFieldWithAttr (mkSpan (mkPtok 7 "@lengthOf(" 6 0 6) (mkPtok 40 "," 13 0 22)) [(FALengthOf (mkSpan (mkPtok 7 "@lengthOf(" 6 0 6) (mkPtok 6 ")" 8 0 9)) (mkLengthOf (mkSpan (mkPtok 7 "@lengthOf(" 6 0 6) (mkPtok 6 ")" 8 0 9)) (mkPtok 7 "@lengthOf(" 6 0 6) (mkPtok 42 "trueish" 7 0 7) (mkPtok 6 ")" 8 0 9))); (FALengthOf (mkSpan (mkPtok 7 "@lengthOf(" 8 3 10) (mkPtok 6 ")" 10 8 13)) (mkLengthOf (mkSpan (mkPtok 7 "@lengthOf(" 8 3 10) (mkPtok 6 ")" 10 8 13)) (mkPtok 7 "@lengthOf(" 8 3 10) (mkPtok 42 "asx" 10 4 12) (mkPtok 6 ")" 10 8 13))); (FAPadding (mkSpan (mkPtok 32 "@rightPad" 11 0 14) (mkPtok 6 ")" 11 11 16)) (mkPaddingAttr (mkSpan (mkPtok 32 "@rightPad" 11 0 14) (mkPtok 6 ")" 11 11 16)) (mkPtok 32 "@rightPad" 11 0 14) (mkPtok 8 "(" 11 10 15) None (mkPtok 6 ")" 11 11 16)))] (LengthField (mkSpan (mkPtok 19 "char" 11 13 17) (mkPtok 40 "," 13 0 22)) (mkLengthFieldDecl (mkSpan (mkPtok 19 "char" 11 13 17) (mkPtok 40 "," 13 0 22)) (Some (TyBasic (mkSpan (mkPtok 19 "char" 11 13 17) (mkPtok 19 "char" 11 13 17)) (mkBasicType (mkSpan (mkPtok 19 "char" 11 13 17) (mkPtok 19 "char" 11 13 17)) (mkPtok 19 "char" 11 13 17)))) (mkPtok 42 "stringy" 11 18 18) (mkLengthOf (mkSpan (mkPtok 7 "@lengthOf(" 11 26 19) (mkPtok 6 ")" 12 0 21)) (mkPtok 7 "@lengthOf(" 11 26 19) (mkPtok 42 "trueish" 11 37 20) (mkPtok 6 ")" 12 0 21)) None (mkPtok 40 "," 13 0 22))))] (mkPtok 3 "}" 13 2 23))); (DMeta (mkMetaDef (mkSpan (mkPtok 37 "MetaData" 13 4 24) (mkPtok 3 "}" 17 2 39)) (mkPtok 37 "MetaData" 13 4 24) (mkPtok 42 "packetx" 13 13 25) (mkPtok 2 "{" 13 20 26) [(MIDecl (mkMetaDecl (mkSpan (mkPtok 28 "f32" 14 0 28) (mkPtok 40 "," 15 0 31)) (TyBasic (mkSpan (mkPtok 28 "f32" 14 0 28) (mkPtok 28 "f32" 14 0 28)) (mkBasicType (mkSpan (mkPtok 28 "f32" 14 0 28) (mkPtok 28 "f32" 14 0 28)) (mkPtok 28 "f32" 14 0 28))) (mkPtok 42 "Pad" 14 4 29) (Some (mkPtok 43 (string_of_bytes [96; 230; 182; 136; 230; 129; 175; 231; 177; 187; 229; 158; 139; 96]%N) 14 8 30)) (mkPtok 40 "," 15 0 31))); (MIDecl (mkMetaDecl (mkSpan (mkPtok 27 "int64" 15 2 32) (mkPtok 40 "," 16 0 35)) (TyBasic (mkSpan (mkPtok 27 "int64" 15 2 32) (mkPtok 27 "int64" 15 2 32)) (mkBasicType (mkSpan (mkPtok 27 "int64" 15 2 32) (mkPtok 27 "int64" 15 2 32)) (mkPtok 27 "int64" 15 2 32))) (mkPtok 42 "msg_type" 15 8 33) None (mkPtok 40 "," 16 0 35))); (MIDecl (mkMetaDecl (mkSpan (mkPtok 26 "int32" 16 2 36) (mkPtok 40 "," 17 0 38)) (TyBasic (mkSpan (mkPtok 26 "int32" 16 2 36) (mkPtok 26 "int32" 16 2 36)) (mkBasicType (mkSpan (mkPtok 26 "int32" 16 2 36) (mkPtok 26 "int32" 16 2 36)) (mkPtok 26 "int32" 16 2 36))) (mkPtok 42 "matchKey" 16 8 37) None (mkPtok 40 "," 17 0 38)))] (mkPtok 3 "}" 17 2 39)))])).
+Eval vm_compute in ("<<<M1494>>>" ++ check (runes_of_ascii "packet
+Header {
+} root
+// " ++ [27880; 37322]%N ++ runes_of_ascii "
+/// triple
+packet BodyLength {	As {a1 { char[ 65535 ]crc `two words`
+    , msg_type	, }	, }  ,repeat Z9_/// triple
+{T ,	pack
+,
+repeat tag // " ++ [27880; 37322]%N ++ runes_of_ascii "
+A
+    , int64 // `tick` ""quote"" 'q'
+f32a
+`u8 x,`, }
+, } packet
+    packetx// a // b
+{ }
+/// triple
+")).
+Eval vm_compute in ("<<<M1526>>>" ++ check (runes_of_ascii "root	packet
+    As	{  @leftPad(
+'\x00' //
+) repeat x
+    a1 , @leftPad	( ' ' )
+    len @calculatedFrom( ""abc"" )
+`u8 x,` , @tag( 007 ) repeat char[ 255]x ,
+    repeat u128 {stringy `" ++ [28040; 24687; 31867; 22411]%N ++ runes_of_ascii "` ,
+matchKey {Logon msg_type
+`a\`, } ,
+    // c
+    },match As	as repeatCount
+{// trailing space 
+[ //	t
+0123456789
+] : i64_[
+    //
+    """" , 65535]
+: len,
+0 : len
+    ""abc"" :
+    f32a , 00 : // trailing space 
+tag }
+    , u8x ,
+    @rightPad
+    (
+'0'	) crc {int @calculatedFrom(  ""`tick`""), int64 packetx @calculatedFrom( ""packet"" ), i64
+rootA `a\` ,
+} , repeat int int , }	MetaData
+    Z9_ { chars body `" ++ [28040; 24687; 31867; 22411]%N ++ runes_of_ascii "`// " ++ [128512]%N ++ runes_of_ascii " emoji
+, i8 As
+    `line1
+line2`,zchar[
+    1 ] Logon , u8 len , falsey
+float ,
+} MetaData Logon {
+char[] // " ++ [128512]%N ++ runes_of_ascii " emoji
+Z9_ `` ,
+/// triple
+// c
+len As ,msg_type leftPad
+`` ,
+} root
+packet  packetx {@lengthOf( roots // " ++ [27880; 37322]%N ++ runes_of_ascii "
+)	i8i8{
+T
+// " ++ [27880; 37322]%N ++ runes_of_ascii "
+//	t
+Z9_ // packet A { u8 x, }
+,int8
+u128
+`say ""hi""` // trailing space 
+, stringy
+{int64 rootA @calculatedFrom( // " ++ [27880; 37322]%N ++ runes_of_ascii "
+""`tick`"" ) , repeat
+_x {match
+//x
+// `tick` ""quote"" 'q'
+i64_ as
+stringy
+{ ""1""
+: x_y_z
+, }	, /// triple
+}
+    , }
+, } , @lengthOf( f32a	)
+/// triple
+// packet A { u8 x, }
+@tag(	4294967296
+    // 50% %s
+    ) @calculatedFrom(
+""\n"" )
+u { pack {repeat  string f32a  ,match repeatCount  as float { 007 :
+// `tick` ""quote"" 'q'
+/// triple
+leftPad }
+    , match Pad as
+// a // b
+//	t
+metadata{ 42
+    // `tick` ""quote"" 'q'
+    : falsey
+""{,}""  :
+    string_ ""`tick`""
+: i8i8 , //
+""" ++ [128512]%N ++ runes_of_ascii """
+    :body , """ ++ [128512]%N ++ runes_of_ascii """ : u128
+    ""{,}""
+: lengthOf , }
+,asx{ char[] x_y_z
+`" ++ [28040; 24687; 31867; 22411]%N ++ runes_of_ascii "`  , i16 a1 @calculatedFrom( """") , repeat
+int8
+    // `tick` ""quote"" 'q'
+    leftPad
+,	},
+},match
+    int as
+u128
+{ 42 :
+// trailing space 
+// @lengthOf(
+options1 , //x
+42: //	t
+string_ , 0 : tag,
+// 50% %s
+// `tick` ""quote"" 'q'
+""x y"" // " ++ [27880; 37322]%N ++ runes_of_ascii "
+: metadata ,  ""1""
+// 50% %s
+// packet A { u8 x, }
+: body , } , falsey
+    { int8
+    stringy ,
+// packet A { u8 x, }
+// c
+} , }
+, }
+")).
+Eval vm_compute in ("<<<M1558>>>" ++ check (runes_of_ascii "options{
+    body = false
+; }root packet asx {// packet A { u8 x, }
+}	packet calculatedFrom
+{@leftPad (
+'0' ) string_ { uint64 asx ,u
+`it's`,
+    roots// " ++ [27880; 37322]%N ++ runes_of_ascii "
+{ match	packetx
+    as Header	{
+    ""packet""//x
+: rootA, ""it's""
+    : tag [ 65535// a // b
+, 0123456789 ]  :
+    u128 ,
+    [ ""a	b"" , // 50% %s
+"""" ,3
+,10,
+    42 , 4294967296
+    ,
+    0
+,	007 ] :T, // @lengthOf(
+}
+,
+match
+i64_ as A {
+""" ++ [233]%N ++ runes_of_ascii "t" ++ [233]%N ++ runes_of_ascii """ // " ++ [27880; 37322]%N ++ runes_of_ascii "
+://x
+tag
+, [// 50% %s
+0123456789 ,	""" ++ [128512]%N ++ runes_of_ascii """,255 , ""\" ++ [233]%N ++ runes_of_ascii """
+// " ++ [128512]%N ++ runes_of_ascii " emoji
+// 50% %s
+, 10 ,
+    1,// " ++ [128512]%N ++ runes_of_ascii " emoji
+3 ,
+    ""1"" ] :
+packetx
+    ""it's"" : asx , 3 :
+//x
+// @lengthOf(
+calculatedFrom[""" ++ [28040; 24687]%N ++ runes_of_ascii """ , """ ++ [233]%N ++ runes_of_ascii "t" ++ [233]%N ++ runes_of_ascii """ , 65535,
+    255	, """ ++ [28040; 24687]%N ++ runes_of_ascii """
+, 007,  ""{,}"" ]	: A	,
+    } ,  x	@lengthOf( body )
+, repeat int16 o`doc` ,
+}
+// " ++ [27880; 37322]%N ++ runes_of_ascii "
+/// triple
+, }
+    // @lengthOf(
+    ,
+} options{
+x
+=""" ++ [233]%N ++ runes_of_ascii "t" ++ [233]%N ++ runes_of_ascii """ ; } root packet Z9_ { }")).
+Eval vm_compute in ("<<<M1590>>>" ++ check (runes_of_ascii "root packet Logon {zchar[ 3 ] stringy	@calculatedFrom(
+    // a // b
+    ""\" ++ [233]%N ++ runes_of_ascii """	) ,
+repeatCount
+float, repeat zchar[ 10
+    ] uint8x
+    ,
+match MetaDataX as A// " ++ [128512]%N ++ runes_of_ascii " emoji
+{ [
+    ""packet"" ,	""x y"" ,	42//
+, 255 , 7 ,""a\\"" ]
+    : o , }
+,}
+")).
+Eval vm_compute in ("<<<M1622>>>" ++ check (runes_of_ascii "MetaData	uint8x{
+//	t
+// 50% %s
+uint32 msg_type
+    // packet A { u8 x, }
+    , } // trailing space ")).
+Eval vm_compute in ("<<<M1654>>>" ++ check (runes_of_ascii "options { }")).
+Eval vm_compute in ("<<<M1686>>>" ++ check (runes_of_ascii "// @lengthOf(
+packet
+    x//x
+{
+Foo
+i8i8 `
+` , @calculatedFrom(""packet"" )	crc{
+match As
+    as crc	{
+[
+00]	: len ,
+    10
+    // " ++ [128512]%N ++ runes_of_ascii " emoji
+    :As, ""packet"":i8i8 , //x
+[
+    ""\n""
+] : trueish ,
+    }
+,// trailing space 
+int32 // c
+asx @calculatedFrom( """ ++ [28040; 24687]%N ++ runes_of_ascii """ )	`two words` ,
+} , lengthOf pack	, }
+options { calculatedFrom
+=""a	b"" // `tick` ""quote"" 'q'
+; }")).
+Eval vm_compute in ("<<<T1686>>>" ++ terms [mkTok 44 "// @lengthOf(" 1 0 true; mkTok 35 "packet" 2 0 false; mkTok 42 "x" 3 4 false; mkTok 44 "//x" 3 5 true; mkTok 2 "{" 4 0 false; mkTok 42 "Foo" 5 0 false; mkTok 42 "i8i8" 6 0 false; mkTok 43 (string_of_bytes [96; 10; 96]%N) 6 5 false; mkTok 40 "," 7 2 false; mkTok 5 "@calculatedFrom(" 7 4 false; mkTok 31 """packet""" 7 20 false; mkTok 6 ")" 7 29 false; mkTok 42 "crc" 7 31 false; mkTok 2 "{" 7 34 false; mkTok 38 "match" 8 0 false; mkTok 42 "As" 8 6 false; mkTok 17 "as" 9 4 false; mkTok 42 "crc" 9 7 false; mkTok 2 "{" 9 11 false; mkTok 18 "[" 10 0 false; mkTok 30 "00" 11 0 false; mkTok 13 "]" 11 2 false; mkTok 39 ":" 11 4 false; mkTok 42 "len" 11 6 false; mkTok 40 "," 11 10 false; mkTok 30 "10" 12 4 false; mkTok 44 (string_of_bytes [47; 47; 32; 240; 159; 152; 128; 32; 101; 109; 111; 106; 105]%N) 13 4 true; mkTok 39 ":" 14 4 false; mkTok 42 "As" 14 5 false; mkTok 40 "," 14 7 false; mkTok 31 """packet""" 14 9 false; mkTok 39 ":" 14 17 false; mkTok 42 "i8i8" 14 18 false; mkTok 40 "," 14 23 false; mkTok 44 "//x" 14 25 true; mkTok 18 "[" 15 0 false; mkTok 31 """\n""" 16 4 false; mkTok 13 "]" 17 0 false; mkTok 39 ":" 17 2 false; mkTok 42 "trueish" 17 4 false; mkTok 40 "," 17 12 false; mkTok 3 "}" 18 4 false; mkTok 40 "," 19 0 false; mkTok 44 "// trailing space " 19 1 true; mkTok 26 "int32" 20 0 false; mkTok 44 "// c" 20 6 true; mkTok 42 "asx" 21 0 false; mkTok 5 "@calculatedFrom(" 21 4 false; mkTok 31 (string_of_bytes [34; 230; 182; 136; 230; 129; 175; 34]%N) 21 21 false; mkTok 6 ")" 21 26 false; mkTok 43 "`two words`" 21 28 false; mkTok 40 "," 21 40 false; mkTok 3 "}" 22 0 false; mkTok 40 "," 22 2 false; mkTok 42 "lengthOf" 22 4 false; mkTok 42 "pack" 22 13 false; mkTok 40 "," 22 18 false; mkTok 3 "}" 22 20 false; mkTok 1 "options" 23 0 false; mkTok 2 "{" 23 8 false; mkTok 42 "calculatedFrom" 23 10 false; mkTok 4 "=" 24 0 false; mkTok 31 (string_of_bytes [34; 97; 9; 98; 34]%N) 24 1 false; mkTok 44 "// `tick` ""quote"" 'q'" 24 7 true; mkTok 41 ";" 25 0 false; mkTok 3 "}" 25 2 false; mkTok 0 "<EOF>" 25 3 false] (mkPacket (mkPtok 35 "packet" 2 0 1) (Some (mkPtok 3 "}" 25 2 65)) [(DPacket (mkPacketDef (mkSpan (mkPtok 35 "packet" 2 0 1) (mkPtok 3 "}" 22 20 57)) None (mkPtok 35 "packet" 2 0 1) (mkPtok 42 "x" 3 4 2) (mkPtok 2 "{" 4 0 4) [(mkFieldWithAttr (mkSpan (mkPtok 42 "Foo" 5 0 5) (mkPtok 40 "," 7 2 8)) [] (ObjectField (mkSpan (mkPtok 42 "Foo" 5 0 5) (mkPtok 40 "," 7 2 8)) None (mkPtok 42 "Foo" 5 0 5) (Some (mkPtok 42 "i8i8" 6 0 6)) (Some (mkPtok 43 (string_of_bytes [96; 10; 96]%N) 6 5 7)) (mkPtok 40 "," 7 2 8))); (mkFieldWithAttr (mkSpan (mkPtok 5 "@calculatedFrom(" 7 4 9) (mkPtok 40 "," 22 2 53)) [(FACalculatedFrom (mkSpan (mkPtok 5 "@calculatedFrom(" 7 4 9) (mkPtok 6 ")" 7 29 11)) (mkCalculatedFrom (mkSpan (mkPtok 5 "@calculatedFrom(" 7 4 9) (mkPtok 6 ")" 7 29 11)) (mkPtok 5 "@calculatedFrom(" 7 4 9) (mkPtok 31 """packet""" 7 20 10) (mkPtok 6 ")" 7 29 11)))] (InerObjectField (mkSpan (mkPtok 42 "crc" 7 31 12) (mkPtok 40 "," 22 2 53)) None (InerObjectDecl (mkSpan (mkPtok 42 "crc" 7 31 12) (mkPtok 3 "}" 22 0 52)) (mkPtok 42 "crc" 7 31 12) (mkPtok 2 "{" 7 34 13) [(MatchField (mkSpan (mkPtok 38 "match" 8 0 14) (mkPtok 40 "," 19 0 42)) (mkMatchFieldDecl (mkSpan (mkPtok 38 "match" 8 0 14) (mkPtok 3 "}" 18 4 41)) (mkPtok 38 "match" 8 0 14) (mkPtok 42 "As" 8 6 15) (mkPtok 17 "as" 9 4 16) (mkPtok 42 "crc" 9 7 17) (mkPtok 2 "{" 9 11 18) [(mkMatchPair (mkSpan (mkPtok 18 "[" 10 0 19) (mkPtok 40 "," 11 10 24)) (MKList (mkKeyList (mkSpan (mkPtok 18 "[" 10 0 19) (mkPtok 13 "]" 11 2 21)) (mkPtok 18 "[" 10 0 19) (mkPtok 30 "00" 11 0 20) [] (mkPtok 13 "]" 11 2 21))) (mkPtok 39 ":" 11 4 22) (mkPtok 42 "len" 11 6 23) (Some (mkPtok 40 "," 11 10 24))); (mkMatchPair (mkSpan (mkPtok 30 "10" 12 4 25) (mkPtok 40 "," 14 7 29)) (MKDigits (mkPtok 30 "10" 12 4 25)) (mkPtok 39 ":" 14 4 27) (mkPtok 42 "As" 14 5 28) (Some (mkPtok 40 "," 14 7 29))); (mkMatchPair (mkSpan (mkPtok 31 """packet""" 14 9 30) (mkPtok 40 "," 14 23 33)) (MKString (mkPtok 31 """packet""" 14 9 30)) (mkPtok 39 ":" 14 17 31) (mkPtok 42 "i8i8" 14 18 32) (Some (mkPtok 40 "," 14 23 33))); (mkMatchPair (mkSpan (mkPtok 18 "[" 15 0 35) (mkPtok 40 "," 17 12 40)) (MKList (mkKeyList (mkSpan (mkPtok 18 "[" 15 0 35) (mkPtok 13 "]" 17 0 37)) (mkPtok 18 "[" 15 0 35) (mkPtok 31 """\n""" 16 4 36) [] (mkPtok 13 "]" 17 0 37))) (mkPtok 39 ":" 17 2 38) (mkPtok 42 "trueish" 17 4 39) (Some (mkPtok 40 "," 17 12 40)))] (mkPtok 3 "}" 18 4 41)) (mkPtok 40 "," 19 0 42)); (CheckSumField (mkSpan (mkPtok 26 "int32" 20 0 44) (mkPtok 40 "," 21 40 51)) (mkChecksumFieldDecl (mkSpan (mkPtok 26 "int32" 20 0 44) (mkPtok 40 "," 21 40 51)) (Some (TyBasic (mkSpan (mkPtok 26 "int32" 20 0 44) (mkPtok 26 "int32" 20 0 44)) (mkBasicType (mkSpan (mkPtok 26 "int32" 20 0 44) (mkPtok 26 "int32" 20 0 44)) (mkPtok 26 "int32" 20 0 44)))) (mkPtok 42 "asx" 21 0 46) (mkCalculatedFrom (mkSpan (mkPtok 5 "@calculatedFrom(" 21 4 47) (mkPtok 6 ")" 21 26 49)) (mkPtok 5 "@calculatedFrom(" 21 4 47) (mkPtok 31 (string_of_bytes [34; 230; 182; 136; 230; 129; 175; 34]%N) 21 21 48) (mkPtok 6 ")" 21 26 49)) (Some (mkPtok 43 "`two words`" 21 28 50)) (mkPtok 40 "," 21 40 51)))] (mkPtok 3 "}" 22 0 52)) (mkPtok 40 "," 22 2 53))); (mkFieldWithAttr (mkSpan (mkPtok 42 "lengthOf" 22 4 54) (mkPtok 40 "," 22 18 56)) [] (ObjectField (mkSpan (mkPtok 42 "lengthOf" 22 4 54) (mkPtok 40 "," 22 18 56)) None (mkPtok 42 "lengthOf" 22 4 54) (Some (mkPtok 42 "pack" 22 13 55)) None (mkPtok 40 "," 22 18 56)))] (mkPtok 3 "}" 22 20 57))); (DOption (mkOptionDef (mkSpan (mkPtok 1 "options" 23 0 58) (mkPtok 3 "}" 25 2 65)) (mkPtok 1 "options" 23 0 58) (mkPtok 2 "{" 23 8 59) [(mkOptionDecl (mkSpan (mkPtok 42 "calculatedFrom" 23 10 60) (mkPtok 41 ";" 25 0 64)) (mkPtok 42 "calculatedFrom" 23 10 60) (mkPtok 4 "=" 24 0 61) (VString (mkSpan (mkPtok 31 (string_of_bytes [34; 97; 9; 98; 34]%N) 24 1 62) (mkPtok 31 (string_of_bytes [34; 97; 9; 98; 34]%N) 24 1 62)) (mkPtok 31 (string_of_bytes [34; 97; 9; 98; 34]%N) 24 1 62)) (Some (mkPtok 41 ";" 25 0 64)))] (mkPtok 3 "}" 25 2 65)))])).
+Eval vm_compute in ("<<<M1718>>>" ++ check (runes_of_ascii "packet crc //x
+{}	root packet
+i64_ { @lengthOf( pack	)  @tag( 7 ) @lengthOf( leftPad // `tick` ""quote"" 'q'
+)
+float @calculatedFrom( ""\" ++ [233]%N ++ runes_of_ascii """
+) `it's`
+,// packet A { u8 x, }
+char[ 00 ]
+charz `a\`
+    , string // 50% %s
+string_
+    , @calculatedFrom(
+""1""
+    // trailing space 
+    )
+    zchar[ 0123456789 ]  x// " ++ [27880; 37322]%N ++ runes_of_ascii "
+, @tag( 007 ) @calculatedFrom( ""// no comment""
+)
+string u, o matchKey `100% of %d`	,f32a  ,@lengthOf(asx) @lengthOf(x ) char[ 3 ] int , i8i8 //
+{ As{ // @lengthOf(
+repeat BodyLength { len asx `line1
+line2`
+, Z9_
+    body // c
+, } , asx ,
+    } , }	,
+    // " ++ [27880; 37322]%N ++ runes_of_ascii "
+    body
+{ // `tick` ""quote"" 'q'
+i8i8 Logon,char[0123456789 ] u8x
+`say ""hi""` , i64_@calculatedFrom( //x
+""`tick`"" ) `{ , }` , } ,
+}
+")).
+Eval vm_compute in ("<<<M1750>>>" ++ check (@nil rune)).
+Eval vm_compute in ("<<<M1782>>>" ++ check (runes_of_ascii "options { falsey// " ++ [27880; 37322]%N ++ runes_of_ascii "
+= '\x00'
+; metadata =	true;
+    // " ++ [27880; 37322]%N ++ runes_of_ascii "
+    falsey = f64
+    }
+")).
+Eval vm_compute in ("<<<M1814>>>" ++ check (runes_of_ascii "packet body
+{match repeatCount as
+x {10 :uint8x, } ,
+    }")).
+Eval vm_compute in ("<<<M1846>>>" ++ check (runes_of_ascii "packet Header{
+}
+")).
+Eval vm_compute in ("<<<M1878>>>" ++ check (runes_of_ascii "packet u8x {
+} MetaData repeatCount
+{ char i8i8
+    `" ++ [233]%N ++ runes_of_ascii "` ,/// triple
+string_ a1
+    `say ""hi""` // `tick` ""quote"" 'q'
+,  BodyLength crc ,
+Z9_ A
+    ``
+,
+char[
+    42 ] roots ,}
+")).
+Eval vm_compute in ("<<<M1910>>>" ++ check (runes_of_ascii "root packet MetaDataX {
+string Pad
+    , string
+    u
+    , u  @lengthOf(
+msg_type
+    //	t
+    ) , string_ ,@tag( 65535 )
+u8	charz `" ++ [233]%N ++ runes_of_ascii "`,
+@tag(
+007
+)  char[ 65535 ] body @calculatedFrom(
+""a\\"")
+, i8i8``, @calculatedFrom(
+    """ ++ [128512]%N ++ runes_of_ascii """ // 50% %s
+) @tag(1 ) @lengthOf( x )
+repeat _x{string// 50% %s
+u
+// c
+// `tick` ""quote"" 'q'
+`it's`
+    , },
+@calculatedFrom( """ ++ [233]%N ++ runes_of_ascii "t" ++ [233]%N ++ runes_of_ascii """ )	int16 x_y_z `it's` ,} options { uint8x = 255 ;
+    metadata
+=
+' ' ;
+} root packet zchar { int64 As `
+`
+, }")).
+Eval vm_compute in ("<<<T1910>>>" ++ terms [mkTok 34 "root" 1 0 false; mkTok 35 "packet" 1 5 false; mkTok 42 "MetaDataX" 1 12 false; mkTok 2 "{" 1 22 false; mkTok 15 "string" 2 0 false; mkTok 42 "Pad" 2 7 false; mkTok 40 "," 3 4 false; mkTok 15 "string" 3 6 false; mkTok 42 "u" 4 4 false; mkTok 40 "," 5 4 false; mkTok 42 "u" 5 6 false; mkTok 7 "@lengthOf(" 5 9 false; mkTok 42 "msg_type" 6 0 false; mkTok 44 (string_of_bytes [47; 47; 9; 116]%N) 7 4 true; mkTok 6 ")" 8 4 false; mkTok 40 "," 8 6 false; mkTok 42 "string_" 8 8 false; mkTok 40 "," 8 16 false; mkTok 9 "@tag(" 8 17 false; mkTok 30 "65535" 8 23 false; mkTok 6 ")" 8 29 false; mkTok 20 "u8" 9 0 false; mkTok 42 "charz" 9 3 false; mkTok 43 (string_of_bytes [96; 195; 169; 96]%N) 9 9 false; mkTok 40 "," 9 12 false; mkTok 9 "@tag(" 10 0 false; mkTok 30 "007" 11 0 false; mkTok 6 ")" 12 0 false; mkTok 12 "char[" 12 3 false; mkTok 30 "65535" 12 9 false; mkTok 13 "]" 12 15 false; mkTok 42 "body" 12 17 false; mkTok 5 "@calculatedFrom(" 12 22 false; mkTok 31 """a\\""" 13 0 false; mkTok 6 ")" 13 5 false; mkTok 40 "," 14 0 false; mkTok 42 "i8i8" 14 2 false; mkTok 43 "``" 14 6 false; mkTok 40 "," 14 8 false; mkTok 5 "@calculatedFrom(" 14 10 false; mkTok 31 (string_of_bytes [34; 240; 159; 152; 128; 34]%N) 15 4 false; mkTok 44 "// 50% %s" 15 8 true; mkTok 6 ")" 16 0 false; mkTok 9 "@tag(" 16 2 false; mkTok 30 "1" 16 7 false; mkTok 6 ")" 16 9 false; mkTok 7 "@lengthOf(" 16 11 false; mkTok 42 "x" 16 22 false; mkTok 6 ")" 16 24 false; mkTok 36 "repeat" 17 0 false; mkTok 42 "_x" 17 7 false; mkTok 2 "{" 17 9 false; mkTok 15 "string" 17 10 false; mkTok 44 "// 50% %s" 17 16 true; mkTok 42 "u" 18 0 false; mkTok 44 "// c" 19 0 true; mkTok 44 "// `tick` ""quote"" 'q'" 20 0 true; mkTok 43 "`it's`" 21 0 false; mkTok 40 "," 22 4 false; mkTok 3 "}" 22 6 false; mkTok 40 "," 22 7 false; mkTok 5 "@calculatedFrom(" 23 0 false; mkTok 31 (string_of_bytes [34; 195; 169; 116; 195; 169; 34]%N) 23 17 false; mkTok 6 ")" 23 23 false; mkTok 25 "int16" 23 25 false; mkTok 42 "x_y_z" 23 31 false; mkTok 43 "`it's`" 23 37 false; mkTok 40 "," 23 44 false; mkTok 3 "}" 23 45 false; mkTok 1 "options" 23 47 false; mkTok 2 "{" 23 55 false; mkTok 42 "uint8x" 23 57 false; mkTok 4 "=" 23 64 false; mkTok 30 "255" 23 66 false; mkTok 41 ";" 23 70 false; mkTok 42 "metadata" 24 4 false; mkTok 4 "=" 25 0 false; mkTok 33 "' '" 26 0 false; mkTok 41 ";" 26 4 false; mkTok 3 "}" 27 0 false; mkTok 34 "root" 27 2 false; mkTok 35 "packet" 27 7 false; mkTok 42 "zchar" 27 14 false; mkTok 2 "{" 27 20 false; mkTok 27 "int64" 27 22 false; mkTok 42 "As" 27 28 false; mkTok 43 (string_of_bytes [96; 10; 96]%N) 27 31 false; mkTok 40 "," 29 0 false; mkTok 3 "}" 29 2 false; mkTok 0 "<EOF>" 29 3 false] (mkPacket (mkPtok 34 "root" 1 0 0) (Some (mkPtok 3 "}" 29 2 88)) [(DPacket (mkPacketDef (mkSpan (mkPtok 34 "root" 1 0 0) (mkPtok 3 "}" 23 45 68)) (Some (mkPtok 34 "root" 1 0 0)) (mkPtok 35 "packet" 1 5 1) (mkPtok 42 "MetaDataX" 1 12 2) (mkPtok 2 "{" 1 22 3) [(mkFieldWithAttr (mkSpan (mkPtok 15 "string" 2 0 4) (mkPtok 40 "," 3 4 6)) [] (MetaField (mkSpan (mkPtok 15 "string" 2 0 4) (mkPtok 40 "," 3 4 6)) None (mkMetaDecl (mkSpan (mkPtok 15 "string" 2 0 4) (mkPtok 40 "," 3 4 6)) (TyDynamic (mkSpan (mkPtok 15 "string" 2 0 4) (mkPtok 15 "string" 2 0 4)) (mkDynamicString (mkSpan (mkPtok 15 "string" 2 0 4) (mkPtok 15 "string" 2 0 4)) (mkPtok 15 "string" 2 0 4))) (mkPtok 42 "Pad" 2 7 5) None (mkPtok 40 "," 3 4 6)))); (mkFieldWithAttr (mkSpan (mkPtok 15 "string" 3 6 7) (mkPtok 40 "," 5 4 9)) [] (MetaField (mkSpan (mkPtok 15 "string" 3 6 7) (mkPtok 40 "," 5 4 9)) None (mkMetaDecl (mkSpan (mkPtok 15 "string" 3 6 7) (mkPtok 40 "," 5 4 9)) (TyDynamic (mkSpan (mkPtok 15 "string" 3 6 7) (mkPtok 15 "string" 3 6 7)) (mkDynamicString (mkSpan (mkPtok 15 "string" 3 6 7) (mkPtok 15 "string" 3 6 7)) (mkPtok 15 "string" 3 6 7))) (mkPtok 42 "u" 4 4 8) None (mkPtok 40 "," 5 4 9)))); (mkFieldWithAttr (mkSpan (mkPtok 42 "u" 5 6 10) (mkPtok 40 "," 8 6 15)) [] (LengthField (mkSpan (mkPtok 42 "u" 5 6 10) (mkPtok 40 "," 8 6 15)) (mkLengthFieldDecl (mkSpan (mkPtok 42 "u" 5 6 10) (mkPtok 40 "," 8 6 15)) None (mkPtok 42 "u" 5 6 10) (mkLengthOf (mkSpan (mkPtok 7 "@lengthOf(" 5 9 11) (mkPtok 6 ")" 8 4 14)) (mkPtok 7 "@lengthOf(" 5 9 11) (mkPtok 42 "msg_type" 6 0 12) (mkPtok 6 ")" 8 4 14)) None (mkPtok 40 "," 8 6 15)))); (mkFieldWithAttr (mkSpan (mkPtok 42 "string_" 8 8 16) (mkPtok 40 "," 8 16 17)) [] (ObjectField (mkSpan (mkPtok 42 "string_" 8 8 16) (mkPtok 40 "," 8 16 17)) None (mkPtok 42 "string_" 8 8 16) None None (mkPtok 40 "," 8 16 17))); (mkFieldWithAttr (mkSpan (mkPtok 9 "@tag(" 8 17 18) (mkPtok 40 "," 9 12 24)) [(FATag (mkSpan (mkPtok 9 "@tag(" 8 17 18) (mkPtok 6 ")" 8 29 20)) (mkTagAttr (mkSpan (mkPtok 9 "@tag(" 8 17 18) (mkPtok 6 ")" 8 29 20)) (mkPtok 9 "@tag(" 8 17 18) (mkPtok 30 "65535" 8 23 19) (mkPtok 6 ")" 8 29 20)))] (MetaField (mkSpan (mkPtok 20 "u8" 9 0 21) (mkPtok 40 "," 9 12 24)) None (mkMetaDecl (mkSpan (mkPtok 20 "u8" 9 0 21) (mkPtok 40 "," 9 12 24)) (TyBasic (mkSpan (mkPtok 20 "u8" 9 0 21) (mkPtok 20 "u8" 9 0 21)) (mkBasicType (mkSpan (mkPtok 20 "u8" 9 0 21) (mkPtok 20 "u8" 9 0 21)) (mkPtok 20 "u8" 9 0 21))) (mkPtok 42 "charz" 9 3 22) (Some (mkPtok 43 (string_of_bytes [96; 195; 169; 96]%N) 9 9 23)) (mkPtok 40 "," 9 12 24)))); (mkFieldWithAttr (mkSpan (mkPtok 9 "@tag(" 10 0 25) (mkPtok 40 "," 14 0 35)) [(FATag (mkSpan (mkPtok 9 "@tag(" 10 0 25) (mkPtok 6 ")" 12 0 27)) (mkTagAttr (mkSpan (mkPtok 9 "@tag(" 10 0 25) (mkPtok 6 ")" 12 0 27)) (mkPtok 9 "@tag(" 10 0 25) (mkPtok 30 "007" 11 0 26) (mkPtok 6 ")" 12 0 27)))] (CheckSumField (mkSpan (mkPtok 12 "char[" 12 3 28) (mkPtok 40 "," 14 0 35)) (mkChecksumFieldDecl (mkSpan (mkPtok 12 "char[" 12 3 28) (mkPtok 40 "," 14 0 35)) (Some (TyFixed (mkSpan (mkPtok 12 "char[" 12 3 28) (mkPtok 13 "]" 12 15 30)) (mkFixedString (mkSpan (mkPtok 12 "char[" 12 3 28) (mkPtok 13 "]" 12 15 30)) (mkPtok 12 "char[" 12 3 28) (mkPtok 30 "65535" 12 9 29) (mkPtok 13 "]" 12 15 30)))) (mkPtok 42 "body" 12 17 31) (mkCalculatedFrom (mkSpan (mkPtok 5 "@calculatedFrom(" 12 22 32) (mkPtok 6 ")" 13 5 34)) (mkPtok 5 "@calculatedFrom(" 12 22 32) (mkPtok 31 """a\\""" 13 0 33) (mkPtok 6 ")" 13 5 34)) None (mkPtok 40 "," 14 0 35)))); (mkFieldWithAttr (mkSpan (mkPtok 42 "i8i8" 14 2 36) (mkPtok 40 "," 14 8 38)) [] (ObjectField (mkSpan (mkPtok 42 "i8i8" 14 2 36) (mkPtok 40 "," 14 8 38)) None (mkPtok 42 "i8i8" 14 2 36) None (Some (mkPtok 43 "``" 14 6 37)) (mkPtok 40 "," 14 8 38))); (mkFieldWithAttr (mkSpan (mkPtok 5 "@calculatedFrom(" 14 10 39) (mkPtok 40 "," 22 7 60)) [(FACalculatedFrom (mkSpan (mkPtok 5 "@calculatedFrom(" 14 10 39) (mkPtok 6 ")" 16 0 42)) (mkCalculatedFrom (mkSpan (mkPtok 5 "@calculatedFrom(" 14 10 39) (mkPtok 6 ")" 16 0 42)) (mkPtok 5 "@calculatedFrom(" 14 10 39) (mkPtok 31 (string_of_bytes [34; 240; 159; 152; 128; 34]%N) 15 4 40) (mkPtok 6 ")" 16 0 42))); (FATag (mkSpan (mkPtok 9 "@tag(" 16 2 43) (mkPtok 6 ")" 16 9 45)) (mkTagAttr (mkSpan (mkPtok 9 "@tag(" 16 2 43) (mkPtok 6 ")" 16 9 45)) (mkPtok 9 "@tag(" 16 2 43) (mkPtok 30 "1" 16 7 44) (mkPtok 6 ")" 16 9 45))); (FALengthOf (mkSpan (mkPtok 7 "@lengthOf(" 16 11 46) (mkPtok 6 ")" 16 24 48)) (mkLengthOf (mkSpan (mkPtok 7 "@lengthOf(" 16 11 46) (mkPtok 6 ")" 16 24 48)) (mkPtok 7 "@lengthOf(" 16 11 46) (mkPtok 42 "x" 16 22 47) (mkPtok 6 ")" 16 24 48)))] (InerObjectField (mkSpan (mkPtok 36 "repeat" 17 0 49) (mkPtok 40 "," 22 7 60)) (Some (mkPtok 36 "repeat" 17 0 49)) (InerObjectDecl (mkSpan (mkPtok 42 "_x" 17 7 50) (mkPtok 3 "}" 22 6 59)) (mkPtok 42 "_x" 17 7 50) (mkPtok 2 "{" 17 9 51) [(MetaField (mkSpan (mkPtok 15 "string" 17 10 52) (mkPtok 40 "," 22 4 58)) None (mkMetaDecl (mkSpan (mkPtok 15 "string" 17 10 52) (mkPtok 40 "," 22 4 58)) (TyDynamic (mkSpan (mkPtok 15 "string" 17 10 52) (mkPtok 15 "string" 17 10 52)) (mkDynamicString (mkSpan (mkPtok 15 "string" 17 10 52) (mkPtok 15 "string" 17 10 52)) (mkPtok 15 "string" 17 10 52))) (mkPtok 42 "u" 18 0 54) (Some (mkPtok 43 "`it's`" 21 0 57)) (mkPtok 40 "," 22 4 58)))] (mkPtok 3 "}" 22 6 59)) (mkPtok 40 "," 22 7 60))); (mkFieldWithAttr (mkSpan (mkPtok 5 "@calculatedFrom(" 23 0 61) (mkPtok 40 "," 23 44 67)) [(FACalculatedFrom (mkSpan (mkPtok 5 "@calculatedFrom(" 23 0 61) (mkPtok 6 ")" 23 23 63)) (mkCalculatedFrom (mkSpan (mkPtok 5 "@calculatedFrom(" 23 0 61) (mkPtok 6 ")" 23 23 63)) (mkPtok 5 "@calculatedFrom(" 23 0 61) (mkPtok 31 (string_of_bytes [34; 195; 169; 116; 195; 169; 34]%N) 23 17 62) (mkPtok 6 ")" 23 23 63)))] (MetaField (mkSpan (mkPtok 25 "int16" 23 25 64) (mkPtok 40 "," 23 44 67)) None (mkMetaDecl (mkSpan (mkPtok 25 "int16" 23 25 64) (mkPtok 40 "," 23 44 67)) (TyBasic (mkSpan (mkPtok 25 "int16" 23 25 64) (mkPtok 25 "int16" 23 25 64)) (mkBasicType (mkSpan (mkPtok 25 "int16" 23 25 64) (mkPtok 25 "int16" 23 25 64)) (mkPtok 25 "int16" 23 25 64))) (mkPtok 42 "x_y_z" 23 31 65) (Some (mkPtok 43 "`it's`" 23 37 66)) (mkPtok 40 "," 23 44 67))))] (mkPtok 3 "}" 23 45 68))); (DOption (mkOptionDef (mkSpan (mkPtok 1 "options" 23 47 69) (mkPtok 3 "}" 27 0 79)) (mkPtok 1 "options" 23 47 69) (mkPtok 2 "{" 23 55 70) [(mkOptionDecl (mkSpan (mkPtok 42 "uint8x" 23 57 71) (mkPtok 41 ";" 23 70 74)) (mkPtok 42 "uint8x" 23 57 71) (mkPtok 4 "=" 23 64 72) (VDigits (mkSpan (mkPtok 30 "255" 23 66 73) (mkPtok 30 "255" 23 66 73)) (mkPtok 30 "255" 23 66 73)) (Some (mkPtok 41 ";" 23 70 74))); (mkOptionDecl (mkSpan (mkPtok 42 "metadata" 24 4 75) (mkPtok 41 ";" 26 4 78)) (mkPtok 42 "metadata" 24 4 75) (mkPtok 4 "=" 25 0 76) (VPaddingChar (mkSpan (mkPtok 33 "' '" 26 0 77) (mkPtok 33 "' '" 26 0 77)) (mkPtok 33 "' '" 26 0 77)) (Some (mkPtok 41 ";" 26 4 78)))] (mkPtok 3 "}" 27 0 79))); (DPacket (mkPacketDef (mkSpan (mkPtok 34 "root" 27 2 80) (mkPtok 3 "}" 29 2 88)) (Some (mkPtok 34 "root" 27 2 80)) (mkPtok 35 "packet" 27 7 81) (mkPtok 42 "zchar" 27 14 82) (mkPtok 2 "{" 27 20 83) [(mkFieldWithAttr (mkSpan (mkPtok 27 "int64" 27 22 84) (mkPtok 40 "," 29 0 87)) [] (MetaField (mkSpan (mkPtok 27 "int64" 27 22 84) (mkPtok 40 "," 29 0 87)) None (mkMetaDecl (mkSpan (mkPtok 27 "int64" 27 22 84) (mkPtok 40 "," 29 0 87)) (TyBasic (mkSpan (mkPtok 27 "int64" 27 22 84) (mkPtok 27 "int64" 27 22 84)) (mkBasicType (mkSpan (mkPtok 27 "int64" 27 22 84) (mkPtok 27 "int64" 27 22 84)) (mkPtok 27 "int64" 27 22 84))) (mkPtok 42 "As" 27 28 85) (Some (mkPtok 43 (string_of_bytes [96; 10; 96]%N) 27 31 86)) (mkPtok 40 "," 29 0 87))))] (mkPtok 3 "}" 29 2 88)))])).
+Eval vm_compute in ("<<<M1942>>>" ++ check (runes_of_ascii "MetaData u { // `tick` ""quote"" 'q'
+int16 Logon , i64 stringy `doc` , u32 _x , char[] options1 , }
+/// triple
+")).
+Eval vm_compute in ("<<<M1974>>>" ++ check (runes_of_ascii "packet  As { msg_type @lengthOf(//	t
+int
+) , match rootA as rootA {""""  :
+asx
+}
+, u32 repeatCount// " ++ [27880; 37322]%N ++ runes_of_ascii "
+@calculatedFrom( ""\" ++ [233]%N ++ runes_of_ascii """
+) `a\` ,
+}
+")).
 Eval vm_compute in ("<<<M2006>>>" ++ check (runes_of_ascii "root packet SimpleMessage {
     uint16 MsgType `" ++ [28040; 24687; 31867; 22411]%N ++ runes_of_ascii "`,
     string JsonBody `Json" ++ [23383; 31526; 20018; 28040; 24687; 20307]%N ++ runes_of_ascii "`,
 }")).
-Eval vm_compute in ("<<<M2038>>>" ++ check (runes_of_ascii "options{ i64_ = string")).
-Eval vm_compute in ("<<<M2070>>>" ++ check (runes_of_ascii "options{ i64_ = string ; trueish =
-    '\x00'
-    leftPad = ""a\\"" /// triple
-; ; crc
-    = 255; uint8x
-=
-""abc""
-    ;}")).
-Eval vm_compute in ("<<<M2102>>>" ++ check (runes_of_ascii "options{ i64_ = string ; trueish =
-    '\x00'
-    leftPad = ""a\\"" /// triple
-; crc
-    = 255; uint8x
-)
-""abc""
-    ;}")).
-Eval vm_compute in ("<<<M2134>>>" ++ check (runes_of_ascii "options{ i64_ = string ; trueish =
-    '\x00'
-    leftPad = ""a\\"" /// triple
-; crc
-    = 255; u?int8x
-=
-""abc""
-    ;}")).
-Eval vm_compute in ("<<<M2166>>>" ++ check (runes_of_ascii "  packet
-asx
-{
-/// triple
-// @lengthOf(
-u32 stringy
-`" ++ [28040; 24687; 31867; 22411]%N ++ runes_of_ascii "` `" ++ [28040; 24687; 31867; 22411]%N ++ runes_of_ascii "` ,} MetaData
-    A {string  _x, zchar Header `a\`
-// @lengthOf(
+Eval vm_compute in ("<<<M2038>>>" ++ check (runes_of_ascii "MetaData repeatCount { float64 packetx")).
+Eval vm_compute in ("<<<M2070>>>" ++ check (runes_of_ascii "MetaData repeatCount { float64 packetx,
+} root packet  metadata {
+char _x _x @lengthOf( trueish ), @leftPad
+( ' '// " ++ [27880; 37322]%N ++ runes_of_ascii "
+)/// triple
+char[] len`doc` , // packet A { u8 x, }
+repeatCount , }
+")).
+Eval vm_compute in ("<<<M2102>>>" ++ check (runes_of_ascii "MetaData repeatCount { float64 packetx,
+} root packet  metadata {
+char _x @lengthOf( trueish ), @leftPad
+""\" ++ [233]%N ++ runes_of_ascii """ ' '// " ++ [27880; 37322]%N ++ runes_of_ascii "
+)/// triple
+char[] len`doc` , // packet A { u8 x, }
+repeatCount , }
+")).
+Eval vm_compute in ("<<<M2134>>>" ++ check (runes_of_ascii "MetaData repeatCount { float64 packetx,
+} root packet  metadata {
+char _x @lengthOf( trueish ), @leftPad
+( ' '// " ++ [27880; 37322]%N ++ runes_of_ascii "
+)/// triple
+char[] len`doc` , // packet A { u8 x, }
+ , }
+")).
+Eval vm_compute in ("<<<M2166>>>" ++ check (runes_of_ascii "MetaData repeatCount { float64 packetx,
+} root packet  metadata {
+char _x @lengthOf( trueish ), @leftPad
+( ' '// " ++ [27880; 37322]%N ++ runes_of_ascii "
+)/// triple
+char[] len`doc` , // packet A { u8 x, }
+repeatCoun@lengthOft , }
+")).
+Eval vm_compute in ("<<<M2198>>>" ++ check (runes_of_ascii "options{
+leftPad
+    =65535
+(
+a1 = true ; packetx=  '\x00' ; packetx
+=  """ ++ [28040; 24687]%N ++ runes_of_ascii """MetaDataX= // " ++ [27880; 37322]%N ++ runes_of_ascii "
+false }root // c
+packet // packet A { u8 x, }
+Pad { repeat
+u8 Header
 // packet A { u8 x, }
-, char[] MetaDataX
-,zchar[ 1 ]
-    matchKey
-    , char[] //
-u,	char[0123456789 ]
-    matchKey
-    `{ , }`, }
+//	t
+`{ , }`
+// a // b
+//x
+, }
 ")).
-Eval vm_compute in ("<<<M2198>>>" ++ check (runes_of_ascii "  packet
-asx
-{
-/// triple
-// @lengthOf(
-u32 stringy
-`" ++ [28040; 24687; 31867; 22411]%N ++ runes_of_ascii "` ,} MetaData
-    A {int16  _x, zchar Header `a\`
-// @lengthOf(
+Eval vm_compute in ("<<<M2230>>>" ++ check (runes_of_ascii "options{
+leftPad
+    =65535
+;
+a1 = true ; packetx=   ; packetx
+=  """ ++ [28040; 24687]%N ++ runes_of_ascii """MetaDataX= // " ++ [27880; 37322]%N ++ runes_of_ascii "
+false }root // c
+packet // packet A { u8 x, }
+Pad { repeat
+u8 Header
 // packet A { u8 x, }
-, char[] MetaDataX
-,zchar[ 1 ]
-    matchKey
-    , char[] //
-u,	char[0123456789 ]
-    matchKey
-    `{ , }`, }
+//	t
+`{ , }`
+// a // b
+//x
+, }
 ")).
-Eval vm_compute in ("<<<M2230>>>" ++ check (runes_of_ascii "  packet
-asx
-{
-/// triple
-// @lengthOf(
-u32 stringy
-`" ++ [28040; 24687; 31867; 22411]%N ++ runes_of_ascii "` ,} MetaData
-    A {string  _x, zchar Header `a\`
-// @lengthOf(
+Eval vm_compute in ("<<<M2262>>>" ++ check (runes_of_ascii "options{
+leftPad
+    =65535
+;
+a1 = true ; packetx=  '\x00' ; packetx
+=  """ ++ [28040; 24687]%N ++ runes_of_ascii """MetaDataX false // " ++ [27880; 37322]%N ++ runes_of_ascii "
+= }root // c
+packet // packet A { u8 x, }
+Pad { repeat
+u8 Header
 // packet A { u8 x, }
-,  MetaDataX
-,zchar[ 1 ]
-    matchKey
-    , char[] //
-u,	char[0123456789 ]
-    matchKey
-    `{ , }`, }
+//	t
+`{ , }`
+// a // b
+//x
+, }
 ")).
-Eval vm_compute in ("<<<M2262>>>" ++ check (runes_of_ascii "  packet
-asx
-{
-/// triple
-// @lengthOf(
-u32 stringy
-`" ++ [28040; 24687; 31867; 22411]%N ++ runes_of_ascii "` ,} MetaData
-    A {string  _x, zchar Header `a\`
-// @lengthOf(
-// packet A { u8 x, }
-, char[] MetaDataX
-,zchar[ 1 ]
-    ,
-    matchKey char[] //
-u,	char[0123456789 ]
-    matchKey
-    `{ , }`, }
-")).
-Eval vm_compute in ("<<<M2294>>>" ++ check (runes_of_ascii "  packet
-asx
-{
-/// triple
-// @lengthOf(
-u32 stringy
-`" ++ [28040; 24687; 31867; 22411]%N ++ runes_of_ascii "` ,} MetaData
-    A {string  _x, zchar Header `a\`
-// @lengthOf(
-// packet A { u8 x, }
-, char[] MetaDataX
-,zchar[ 1 ]
-    matchKey
-    , char[] //
-u,	char[")).
-Eval vm_compute in ("<<<M2326>>>" ++ check (runes_of_ascii "  packet
-asx
-{
-/// triple
-// @lengthOf(
-u32 stringy
-`" ++ [28040; 24687; 31867; 22411]%N ++ runes_of_ascii "` ,} MetaData
-    A {string  _x, zchar Header `a\`
-// @lengthOf(
-// packet A { u8 x, }
-, char[] MetaDataX
-,zchar[ 1 @lengthOf]
-    matchKey
-    , char[] //
-u,	char[0123456789 ]
-    matchKey
-    `{ , }`, }
-")).
-Eval vm_compute in ("<<<M2358>>>" ++ check (runes_of_ascii "root
-    packet
-Packet
-matchKey // trailing space 
-{ `tab	here` ,}")).
-Eval vm_compute in ("<<<M2390>>>" ++ check (runes_of_ascii "root
-  @x  packet
-Packet
-{ // trailing space 
-matchKey `tab	here` ,}")).
-Eval vm_compute in ("<<<M2422>>>" ++ check (runes_of_ascii "options{ falsey // a // b
-=
-     } options { repeatCount =
-true ; string_// a // b
-=
-// c
-// " ++ [27880; 37322]%N ++ runes_of_ascii "
-int64
-// trailing space 
-/// triple
-; } // @lengthOf(")).
-Eval vm_compute in ("<<<M2454>>>" ++ check (runes_of_ascii "options{ falsey // a // b
-=
-    '0' } options { repeatCount =
-; true string_// a // b
-=
-// c
-// " ++ [27880; 37322]%N ++ runes_of_ascii "
-int64
-// trailing space 
-/// triple
-; } // @lengthOf(")).
-Eval vm_compute in ("<<<M2486>>>" ++ check (runes_of_ascii "options{ falsey // a // b
-=
-    '0' } options { repeatCount =
-true ; string_// a // b
-=
-// c
-// " ++ [27880; 37322]%N ++ runes_of_ascii "
-int64
-// trailing space 
-/// triple")).
-Eval vm_compute in ("<<<M2518>>>" ++ check (runes_of_ascii "options{root packet
-metadata {
-@lengthOf(x ) float32
-body ``, }
-    MetaData
-Z9_
-    {
-    string string_ , Logon x
-,
-uint32
-    // packet A { u8 x, }
-    Z9_,asx
-_x
-    `tab	here` , }
-")).
-Eval vm_compute in ("<<<M2550>>>" ++ check (runes_of_ascii "options{}root packet
-metadata {
-@lengthOf() x float32
-body ``, }
-    MetaData
-Z9_
-    {
-    string string_ , Logon x
-,
-uint32
-    // packet A { u8 x, }
-    Z9_,asx
-_x
-    `tab	here` , }
-")).
-Eval vm_compute in ("<<<M2582>>>" ++ check (runes_of_ascii "options{}root packet
-metadata {
-@lengthOf(x ) float32
-body ``,")).
-Eval vm_compute in ("<<<M2614>>>" ++ check (runes_of_ascii "options{}root packet
-metadata {
-@lengthOf(x ) float32
-body ``, }
-    MetaData
-Z9_
-    {
-    string string_ , Logon Logon x
-,
-uint32
-    // packet A { u8 x, }
-    Z9_,asx
-_x
-    `tab	here` , }
-")).
-Eval vm_compute in ("<<<M2646>>>" ++ check (runes_of_ascii "options{}root packet
-metadata {
-@lengthOf(x ) float32
-body ``, }
-    MetaData
-Z9_
-    {
-    string string_ , Logon x
-,
-uint32
-    // packet A { u8 x, }
-    Z9_,:
-_x
-    `tab	here` , }
-")).
-Eval vm_compute in ("<<<M2678>>>" ++ check (runes_of_ascii "options{}root packet
-metadata {
-@lengthOf(x ) float32
-body ``, }
-    MetaData
-Z9_
-    {
-    string string_ , Logon x
-,
-uint32
-    // packet A { u8 x, }
-    Z9_,asx
-" ++ [127]%N ++ runes_of_ascii " _x
-    `tab	here` , }
-")).
-Eval vm_compute in ("<<<M2710>>>" ++ check (runes_of_ascii "options {
-    falsey=
-""a\\"" ""a\\"" ; }")).
-Eval vm_compute in ("<<<M2742>>>" ++ check (runes_of_ascii "options {
-    na" ++ [239]%N ++ runes_of_ascii "ve=
-""a\\"" ; }")).
-Eval vm_compute in ("<<<M2774>>>" ++ check (runes_of_ascii "MetaData f32a
-{
-    //	t
-    }root")).
-Eval vm_compute in ("<<<M2806>>>" ++ check (runes_of_ascii "MetaData f32a
-{
-    //	t
-    ' }root
-    packet tag  {
+Eval vm_compute in ("<<<M2294>>>" ++ check (runes_of_ascii "options{
+leftPad
+    =65535
+;
+a1 = true ; packetx=  '\x00' ; packetx
+=  """ ++ [28040; 24687]%N ++ runes_of_ascii """MetaDataX= // " ++ [27880; 37322]%N ++ runes_of_ascii "
+false }root // c
+packet // packet A { u8 x, }
+Pad")).
+Eval vm_compute in ("<<<M2326>>>" ++ check (runes_of_ascii "options{
+leftPad
+    =65535
+;
+a1 = true ; packetx=  '\x00' ; packetx
+=  """ ++ [28040; 24687]%N ++ runes_of_ascii """MetaDataX= // " ++ [27880; 37322]%N ++ runes_of_ascii "
+false }root // c
+packet // packet A { u8 x, }
+Pad { repe")).
+Eval vm_compute in ("<<<M2358>>>" ++ check (runes_of_ascii "
+packet float
+@calculatedFrom(	{ """ ++ [233]%N ++ runes_of_ascii "t" ++ [233]%N ++ runes_of_ascii """ )
+@rightPad ( '\x00' )
+    @calculatedFrom( ""x y"" ) string chars  ,
+    // a // b
+    char[0 ]
+    u	@lengthOf( i8i8 ) `{ , }` ,repeat char[] o //x
+`// not a comment`, } // c")).
+Eval vm_compute in ("<<<M2390>>>" ++ check (runes_of_ascii "
+packet float
+{	@calculatedFrom( """ ++ [233]%N ++ runes_of_ascii "t" ++ [233]%N ++ runes_of_ascii """ )
+@rightPad (")).
+Eval vm_compute in ("<<<M2422>>>" ++ check (runes_of_ascii "
+packet float
+{	@calculatedFrom( """ ++ [233]%N ++ runes_of_ascii "t" ++ [233]%N ++ runes_of_ascii """ )
+@rightPad ( '\x00' )
+    @calculatedFrom( ""x y"" ) string chars  , ,
+    // a // b
+    char[0 ]
+    u	@lengthOf( i8i8 ) `{ , }` ,repeat char[] o //x
+`// not a comment`, } // c")).
+Eval vm_compute in ("<<<M2454>>>" ++ check (runes_of_ascii "
+packet float
+{	@calculatedFrom( """ ++ [233]%N ++ runes_of_ascii "t" ++ [233]%N ++ runes_of_ascii """ )
+@rightPad ( '\x00' )
+    @calculatedFrom( ""x y"" ) string chars  ,
+    // a // b
+    char[0 ]
+    u	@lengthOf( 3 ) `{ , }` ,repeat char[] o //x
+`// not a comment`, } // c")).
+Eval vm_compute in ("<<<M2486>>>" ++ check (runes_of_ascii "
+packet float
+{	@calculatedFrom( """ ++ [233]%N ++ runes_of_ascii "t" ++ [233]%N ++ runes_of_ascii """ )
+@rightPad ( '\x00' )
+    @calculatedFrom( ""x y"" ) string chars  ,
+    // a // b
+    char[0 ]
+    u	@lengthOf( i8i8 ) `{ , }` ,repeat char[] o //x
+, } // c")).
+Eval vm_compute in ("<<<M2518>>>" ++ check (runes_of_ascii "
+packet float
+{	@calculatedFrom( """ ++ [233]%N ++ runes_of_ascii "t" ++ [233]%N ++ runes_of_ascii """ )
+@rightPad ( '\x00' )
+    @calculatedFrom( ""x y"" ) string chars  ,
+    // a // b
+    char[0 ]
+    u	@lengthOf( i8i8 ) `{ , }` ,repeat char[] o'1' //x
+`// not a comment`, } // c")).
+Eval vm_compute in ("<<<M2550>>>" ++ check (runes_of_ascii "root packet u128{
+    repeat
+    char 65535 ] u `" ++ [28040; 24687; 31867; 22411]%N ++ runes_of_ascii "` ,// `tick` ""quote"" 'q'
+} packet i64_ {repeatCount
+    `
+` ,	} // " ++ [128512]%N ++ runes_of_ascii " emoji")).
+Eval vm_compute in ("<<<M2582>>>" ++ check (runes_of_ascii "root packet u128{
+    repeat
+    zchar[ 65535 ] u `" ++ [28040; 24687; 31867; 22411]%N ++ runes_of_ascii "` ,// `tick` ""quote"" 'q'
+}  i64_ {repeatCount
+    `
+` ,	} // " ++ [128512]%N ++ runes_of_ascii " emoji")).
+Eval vm_compute in ("<<<M2614>>>" ++ check (runes_of_ascii "root packet u128{
+    repeat
+    zchar[ 65535 ] u `" ++ [28040; 24687; 31867; 22411]%N ++ runes_of_ascii "` ,// `tick` ""quote"" 'q'
+} packet i64_ {repeatCount
+    `
+` ,	packet // " ++ [128512]%N ++ runes_of_ascii " emoji")).
+Eval vm_compute in ("<<<M2646>>>" ++ check (runes_of_ascii "
+MetaData
+char { int8
+    BodyLength ,//	t
 }
 ")).
+Eval vm_compute in ("<<<M2678>>>" ++ check (runes_of_ascii "
+MetaData
+roots { int8
+   $ BodyLength ,//	t
+}
+")).
+Eval vm_compute in ("<<<M2710>>>" ++ check (runes_of_ascii "options {Packet = = ""CRC32""i8i8 = false; leftPad =
+    '\x00'
+    // `tick` ""quote"" 'q'
+    ; o=255  ;
+    // packet A { u8 x, }
+    }")).
+Eval vm_compute in ("<<<M2742>>>" ++ check (runes_of_ascii "options {Packet = ""CRC32""i8i8 = false; ] =
+    '\x00'
+    // `tick` ""quote"" 'q'
+    ; o=255  ;
+    // packet A { u8 x, }
+    }")).
+Eval vm_compute in ("<<<M2774>>>" ++ check (runes_of_ascii "options {Packet = ""CRC32""i8i8 = false; leftPad =
+    '\x00'
+    // `tick` ""quote"" 'q'
+    ; o=255  
+    // packet A { u8 x, }
+    }")).
+Eval vm_compute in ("<<<M2806>>>" ++ check (runes_of_ascii "
+packet packet metadata { @rightPad (
+    // packet A { u8 x, }
+    ' ' ) repeat u32	A
+,matchKey ,
+    @lengthOf( string_ ) @lengthOf( body )
+    // a // b
+    @lengthOf(float  )	repeat
+int32 u8x
+    // c
+    `tab	here`
+, } // a // b")).
 Eval vm_compute in ("<<<M2838>>>" ++ check (runes_of_ascii "
-options
-    {msg_type =
-    float32  root}
-packet Z9_{ char /// triple
-crc @lengthOf(
-options1 ) //
-,} MetaData a1{}
-")).
+packet metadata { @rightPad (
+    // packet A { u8 x, }
+    ' ' @lengthOf( repeat u32	A
+,matchKey ,
+    @lengthOf( string_ ) @lengthOf( body )
+    // a // b
+    @lengthOf(float  )	repeat
+int32 u8x
+    // c
+    `tab	here`
+, } // a // b")).
 Eval vm_compute in ("<<<M2870>>>" ++ check (runes_of_ascii "
-options
-    {msg_type =
-    float32  }root
-packet Z9_{ char")).
+packet metadata { @rightPad (
+    // packet A { u8 x, }
+    ' ' ) repeat u32	A
+,matchKey ,
+     string_ ) @lengthOf( body )
+    // a // b
+    @lengthOf(float  )	repeat
+int32 u8x
+    // c
+    `tab	here`
+, } // a // b")).
 Eval vm_compute in ("<<<M2902>>>" ++ check (runes_of_ascii "
-options
-    {msg_type =
-    float32  }root
-packet Z9_{ char /// triple
-crc @lengthOf(
-options1 ) //
-,} MetaData a1 a1{}
-")).
+packet metadata { @rightPad (
+    // packet A { u8 x, }
+    ' ' ) repeat u32	A
+,matchKey ,
+    @lengthOf( string_ ) @lengthOf( body )
+    // a // b
+    float@lengthOf(  )	repeat
+int32 u8x
+    // c
+    `tab	here`
+, } // a // b")).
 Eval vm_compute in ("<<<M2934>>>" ++ check (runes_of_ascii "
-options
-    {caf" ++ [233]%N ++ runes_of_ascii "_1 =
-    float32  }root
-packet Z9_{ char /// triple
-crc @lengthOf(
-options1 ) //
-,} MetaData a1{}
+packet metadata { @rightPad (
+    // packet A { u8 x, }
+    ' ' ) repeat u32	A
+,matchKey ,
+    @lengthOf( string_ ) @lengthOf( body )
+    // a // b
+    @lengthOf(float  )	repeat
+int32 u8x")).
+Eval vm_compute in ("<<<M2966>>>" ++ check (runes_of_ascii " x{
+string
+zchar , //	t
+}
 ")).
-Eval vm_compute in ("<<<M2966>>>" ++ check (runes_of_ascii "packet crc{ // " ++ [128512]%N ++ runes_of_ascii " emoji
-repeat string")).
-Eval vm_compute in ("<<<M2998>>>" ++ check (runes_of_ascii "packet crc{ // " ++ [128512]%N ++ runes_of_ascii " emoji
-repeat string @lengthOfi8i8
-`a\`, }
-")).
-Eval vm_compute in ("<<<M3030>>>" ++ check (runes_of_ascii "packet BodyLength {} MetaData {zchar zchar[// @lengthOf(
-42 ]
-    pack , string_
-A , char[]crc , _x trueish ,
-// " ++ [27880; 37322]%N ++ runes_of_ascii "
-// " ++ [128512]%N ++ runes_of_ascii " emoji
-zchar[
-    3 ]	T // trailing space 
-, } packet body
-{
-    }
-")).
-Eval vm_compute in ("<<<M3062>>>" ++ check (runes_of_ascii "packet BodyLength {} MetaData zchar{ zchar[// @lengthOf(
-42 ]
-    pack")).
-Eval vm_compute in ("<<<M3094>>>" ++ check (runes_of_ascii "packet BodyLength {} MetaData zchar{ zchar[// @lengthOf(
-42 ]
-    pack , string_
-A , char[]crc , _x _x trueish ,
-// " ++ [27880; 37322]%N ++ runes_of_ascii "
-// " ++ [128512]%N ++ runes_of_ascii " emoji
-zchar[
-    3 ]	T // trailing space 
-, } packet body
-{
-    }
-")).
-Eval vm_compute in ("<<<M3126>>>" ++ check (runes_of_ascii "packet BodyLength {} MetaData zchar{ zchar[// @lengthOf(
-42 ]
-    pack , string_
-A , char[]crc , _x trueish ,
-// " ++ [27880; 37322]%N ++ runes_of_ascii "
-// " ++ [128512]%N ++ runes_of_ascii " emoji
-zchar[
-    3 ]	true // trailing space 
-, } packet body
-{
-    }
-")).
-Eval vm_compute in ("<<<M3158>>>" ++ check (runes_of_ascii "packe")).
-Eval vm_compute in ("<<<M3190>>>" ++ check (runes_of_ascii "packet
-string_ { {@lengthOf( int ) match packetx as f32a {
-    1 :	calculatedFrom , }  ,
-    } packet len
-    //	t
-    { @calculatedFrom( """ ++ [233]%N ++ runes_of_ascii "t" ++ [233]%N ++ runes_of_ascii """ ) body Header , char[] lengthOf  `two words` ,chars{repeat string_ matchKey ,
-    } ,
-    }
-")).
-Eval vm_compute in ("<<<M3222>>>" ++ check (runes_of_ascii "packet
-string_ {@lengthOf( int ) match packetx char f32a {
-    1 :	calculatedFrom , }  ,
-    } packet len
-    //	t
-    { @calculatedFrom( """ ++ [233]%N ++ runes_of_ascii "t" ++ [233]%N ++ runes_of_ascii """ ) body Header , char[] lengthOf  `two words` ,chars{repeat string_ matchKey ,
-    } ,
-    }
-")).
-Eval vm_compute in ("<<<M3254>>>" ++ check (runes_of_ascii "packet
-string_ {@lengthOf( int ) match packetx as f32a {
-    1 :	calculatedFrom ,   ,
-    } packet len
-    //	t
-    { @calculatedFrom( """ ++ [233]%N ++ runes_of_ascii "t" ++ [233]%N ++ runes_of_ascii """ ) body Header , char[] lengthOf  `two words` ,chars{repeat string_ matchKey ,
-    } ,
-    }
-")).
-Eval vm_compute in ("<<<M3286>>>" ++ check (runes_of_ascii "packet
-string_ {@lengthOf( int ) match packetx as f32a {
-    1 :	calculatedFrom , }  ,
-    } packet len
-    //	t
-    { """ ++ [233]%N ++ runes_of_ascii "t" ++ [233]%N ++ runes_of_ascii """ @calculatedFrom( ) body Header , char[] lengthOf  `two words` ,chars{repeat string_ matchKey ,
-    } ,
-    }
-")).
-Eval vm_compute in ("<<<M3318>>>" ++ check (runes_of_ascii "packet
-string_ {@lengthOf( int ) match packetx as f32a {
-    1 :	calculatedFrom , }  ,
-    } packet len
-    //	t
-    { @calculatedFrom( """ ++ [233]%N ++ runes_of_ascii "t" ++ [233]%N ++ runes_of_ascii """ ) body Header ,")).
-Eval vm_compute in ("<<<M3350>>>" ++ check (runes_of_ascii "packet
-string_ {@lengthOf( int ) match packetx as f32a {
-    1 :	calculatedFrom , }  ,
-    } packet len
-    //	t
-    { @calculatedFrom( """ ++ [233]%N ++ runes_of_ascii "t" ++ [233]%N ++ runes_of_ascii """ ) body Header , char[] lengthOf  `two words` ,chars{repeat string_ string_ matchKey ,
-    } ,
-    }
-")).
-Eval vm_compute in ("<<<M3382>>>" ++ check (runes_of_ascii "packet
-string_ {@lengthOf( int ) match packetx as f32a {
-    1 :	calculate")).
-Eval vm_compute in ("<<<M3414>>>" ++ check (runes_of_ascii "/// triple
+Eval vm_compute in ("<<<M2998>>>" ++ check (runes_of_ascii "packet x{
+string
+zchar , //	t
 root
-packet // packet A { u8 x, }
-chars { @lengthOf(charz )
-stringy,  @tag(  0 ) // a // b
-asx
-    As
-,
-// trailing space 
-// trailing space 
-x_y_z {
-repeat i16 charz , } MetaData	int16  crc ,}
 ")).
-Eval vm_compute in ("<<<M3446>>>" ++ check (runes_of_ascii "/// triple
-root
-packet // packet A { u8 x, }
-chars { @lengthOf(charz )
-stringy char[]  @tag(  0 ) // a // b
-asx
-    As
-,
-// trailing space 
-// trailing space 
-x_y_z {
-repeat i16 charz , } ,	int16  crc ,}
+Eval vm_compute in ("<<<M3030>>>" ++ check (runes_of_ascii "
+MetaData true
+{ // c
+}root packet
+    Pad {
+    } options
+{
+u
+    =
+    ""CRC32""
+    // " ++ [128512]%N ++ runes_of_ascii " emoji
+    i64_ = u16;
+T =65535 x = ' '
+    ; u128
+= true ; }")).
+Eval vm_compute in ("<<<M3062>>>" ++ check (runes_of_ascii "
+MetaData Logon
+{ // c
+}root packet
+    Pad {
+     options
+{
+u
+    =
+    ""CRC32""
+    // " ++ [128512]%N ++ runes_of_ascii " emoji
+    i64_ = u16;
+T =65535 x = ' '
+    ; u128
+= true ; }")).
+Eval vm_compute in ("<<<M3094>>>" ++ check (runes_of_ascii "
+MetaData Logon
+{ // c
+}root packet
+    Pad {
+    } options
+{
+u
+    =
+    ""CRC32""
+    // " ++ [128512]%N ++ runes_of_ascii " emoji
+    = i64_ u16;
+T =65535 x = ' '
+    ; u128
+= true ; }")).
+Eval vm_compute in ("<<<M3126>>>" ++ check (runes_of_ascii "
+MetaData Logon
+{ // c
+}root packet
+    Pad {
+    } options
+{
+u
+    =
+    ""CRC32""
+    // " ++ [128512]%N ++ runes_of_ascii " emoji
+    i64_ = u16;
+T =")).
+Eval vm_compute in ("<<<M3158>>>" ++ check (runes_of_ascii "
+MetaData Logon
+{ // c
+}root packet
+    Pad {
+    } options
+{
+u
+    =
+    ""CRC32""
+    // " ++ [128512]%N ++ runes_of_ascii " emoji
+    i64_ = u16;
+T =65535 x = ' '
+    ; u128
+= true true ; }")).
+Eval vm_compute in ("<<<M3190>>>" ++ check (runes_of_ascii "
+MetaData Logon
+{ // c
+}root packet
+    x" ++ [178]%N ++ runes_of_ascii " {
+    } options
+{
+u
+    =
+    ""CRC32""
+    // " ++ [128512]%N ++ runes_of_ascii " emoji
+    i64_ = u16;
+T =65535 x = ' '
+    ; u128
+= true ; }")).
+Eval vm_compute in ("<<<M3222>>>" ++ check (runes_of_ascii "MetaData body{}
+packet")).
+Eval vm_compute in ("<<<M3254>>>" ++ check (runes_of_ascii "MetaData body{}
+packet	Packet { x_y_z @calculatedFrom(  ""a\\"")// `tick` ""quote"" 'q'
+, } }
 ")).
-Eval vm_compute in ("<<<M3478>>>" ++ check (runes_of_ascii "/// triple
-root
-packet // packet A { u8 x, }
-chars { @lengthOf(charz )
-stringy,  @tag(  0 ) // a // b
-asx
-    As
-,
-// trailing space 
-// trailing space 
-x_y_z {
-repeat i16 charz , " ++ [65279]%N ++ runes_of_ascii " } ,	int16  crc ,}
+Eval vm_compute in ("<<<M3286>>>" ++ check (runes_of_ascii "packet { f32a} root packet len {repeat u // " ++ [128512]%N ++ runes_of_ascii " emoji
+`{ , }` , }
 ")).
+Eval vm_compute in ("<<<M3318>>>" ++ check (runes_of_ascii "packet f32a {} root packet len")).
+Eval vm_compute in ("<<<M3350>>>" ++ check (runes_of_ascii "packet f32a {"" } root packet len {repeat u // " ++ [128512]%N ++ runes_of_ascii " emoji
+`{ , }` , }
+")).
+Eval vm_compute in ("<<<M3382>>>" ++ check (runes_of_ascii "options{ _x=""\" ++ [233]%N ++ runes_of_ascii """;
+    Logon = 10	; Foo= 7;
+i64_= char[]} options @x {
+matchKey = ""// no comment"" // a // b
+falsey = string
+; trueish =
+    4294967296
+options1=
+    ""it's"" string_	= true } options {
+    /// triple
+    }")).
+Eval vm_compute in ("<<<M3414>>>" ++ check (runes_of_ascii "options{ _x=""\" ++ [233]%N ++ runes_of_ascii """;
+    Logon = 10	; Foo= 7;
+i64_= char[]} options")).
+Eval vm_compute in ("<<<M3446>>>" ++ check (runes_of_ascii "options{ _x=""\" ++ [233]%N ++ runes_of_ascii """;
+    Logon = 10	; Foo= 7;
+i64_= char[]u64 options {
+matchKey = ""// no comment"" // a // b
+falsey = string
+; trueish =
+    4294967296
+options1=
+    ""it's"" string_	= true } options {
+    /// triple
+    }")).
+Eval vm_compute in ("<<<M3478>>>" ++ check (runes_of_ascii "options{ _x=""\" ++ [233]%N ++ runes_of_ascii """;
+    Logon = 10	; Foo= 7;
+i64_= char[]} options {
+matchKey = ""// no comment"" // a // b
+falsey = string
+; trueish =
+    4294967296
+options1=
+    string_ ""it's""	= true } options {
+    /// triple
+    }")).
 Eval vm_compute in ("<<<M3510>>>" ++ check (runes_of_ascii "int8 int16 int32 int64 int")).
 Eval vm_compute in ("<<<M3542>>>" ++ check (runes_of_ascii "''")).
 Eval vm_compute in ("<<<M3574>>>" ++ check (runes_of_ascii """a")).
 Eval vm_compute in ("<<<M3606>>>" ++ check (runes_of_ascii ": , ; = ( ) [ ] { }")).
 Eval vm_compute in ("<<<M3638>>>" ++ check (runes_of_ascii "packet A { x y, }")).
-Eval vm_compute in ("<<<T3638>>>" ++ terms [mkTok 35 "packet" 1 0 false; mkTok 42 "A" 1 7 false; mkTok 2 "{" 1 9 false; mkTok 42 "x" 1 11 false; mkTok 42 "y" 1 13 false; mkTok 40 "," 1 14 false; mkTok 3 "}" 1 16 false; mkTok 0 "<EOF>" 1 17 false] (mkPacket (mkPtok 35 "packet" 1 0 0) (Some (mkPtok 3 "}" 1 16 6)) [(DPacket (mkPacketDef (mkSpan (mkPtok 35 "packet" 1 0 0) (mkPtok 3 "}" 1 16 6)) None (mkPtok 35 "packet" 1 0 0) (mkPtok 42 "A" 1 7 1) (mkPtok 2 "{" 1 9 2) [(mkFieldWithAttr (mkSpan (mkPtok 42 "x" 1 11 3) (mkPtok 40 "," 1 14 5)) [] (ObjectField (mkSpan (mkPtok 42 "x" 1 11 3) (mkPtok 40 "," 1 14 5)) None (mkPtok 42 "x" 1 11 3) (Some (mkPtok 42 "y" 1 13 4)) None (mkPtok 40 "," 1 14 5)))] (mkPtok 3 "}" 1 16 6)))])).
 Eval vm_compute in ("<<<M3670>>>" ++ check (runes_of_ascii "packet A { match k as n { 1 : B } }")).
 Eval vm_compute in ("<<<M3702>>>" ++ check (runes_of_ascii "packet A {")).
 Eval vm_compute in ("<<<M3734>>>" ++ check (runes_of_ascii "options { a = true; b = false; c = '0'; d = ""s""; e = 007; }")).
-Eval vm_compute in ("<<<M3766>>>" ++ check (runes_of_ascii "= uint8x 1 @lengthOf(")).
-Eval vm_compute in ("<<<M3798>>>" ++ check (runes_of_ascii "f64 , ( } @tag( float32 @tag( root MetaData '\x00'")).
-Eval vm_compute in ("<<<M3830>>>" ++ check (runes_of_ascii "`say ""hi""` zchar[ @rightPad")).
-Eval vm_compute in ("<<<M3862>>>" ++ check (runes_of_ascii "u32 char[] ) false int64")).
-Eval vm_compute in ("<<<M3894>>>" ++ check (runes_of_ascii "@lengthOf( @calculatedFrom( ( u64 char = zchar[ [ uint64 , ( repeat")).
-Eval vm_compute in ("<<<M3926>>>" ++ check (runes_of_ascii "uint8 '\x00' ' ' true root MetaData f64 as ) f64")).
-Eval vm_compute in ("<<<M3958>>>" ++ check (runes_of_ascii "char[] 255 packet = root '\x00' u8 , true u32 repeat @calculatedFrom( = as")).
-Eval vm_compute in ("<<<M3990>>>" ++ check (runes_of_ascii "i64 zchar[ 65535 ""CRC32"" ,")).
+Eval vm_compute in ("<<<M3766>>>" ++ check (runes_of_ascii "i64 i16 @lengthOf( match =")).
+Eval vm_compute in ("<<<M3798>>>" ++ check (runes_of_ascii "true @lengthOf( '0' i64 root zchar[")).
+Eval vm_compute in ("<<<M3830>>>" ++ check (runes_of_ascii "i32 string = f64")).
+Eval vm_compute in ("<<<M3862>>>" ++ check (runes_of_ascii "options packet ) zchar[")).
+Eval vm_compute in ("<<<M3894>>>" ++ check (runes_of_ascii "int8 true match uint8")).
+Eval vm_compute in ("<<<M3926>>>" ++ check (runes_of_ascii "char[ float64 char @lengthOf( ; ; , @leftPad")).
+Eval vm_compute in ("<<<M3958>>>" ++ check (runes_of_ascii "i64 packet ; int32 ; i8 char[] string MetaData ; true 65535")).
+Eval vm_compute in ("<<<M3990>>>" ++ check (runes_of_ascii "@lengthOf( int64 ] ; char[")).
